@@ -1,4 +1,4 @@
-(** C04 round trip, proved part: [parse_bytes il id (print ds) = Ok (elaborate ds)] for the source
+(** C04 round trip, proved part: [parse_bytes il id (print cr ds) = Ok (elaborate cr ds)] for the source
     class of Dbc/Printer.v (VERSION, BS_, BU_, unknown lines; plain layout).  Structure as planned in
     DESIGN.md 5.4: scanner lemmas (ScanLemmas.v) -> token lemmas at parser level -> one step lemma
     per definition kind ("parse_X consumes exactly the printed definition and leaves the parser
@@ -29,6 +29,8 @@ Proof. induction a as [|x a IH]; cbn; [reflexivity|]. rewrite Z.eqb_refl, IH. re
 Section RT.
   Variable il id : Z -> bool.
   Variable F : nat.
+  Variable cr : bytes.
+  Hypothesis Hcr : cr_ok cr.
 
   Notation next_token := (next_token il id F).
   Notation peek_token := (peek_token il id F).
@@ -398,6 +400,140 @@ Section RT.
     rewrite scan_body_eof. eexists; eexists; split; reflexivity.
   Qed.
 
+  (** ------------------------------------------------------------ runs of whitespace *)
+
+  Lemma stepS_mk2 : forall c r pos l k ll x ws, 0 <= k ->
+    exists k1 ll1, 0 <= k1 /\ (c = 10 -> k1 = 0) /\ (c <> 10 -> k1 = k + 1 /\ ll1 = ll)
+                   /\ stepS c r pos l k ll x ws = mkS r [c] (pos + 1) (l + nlz c) k1 ll1 x ws.
+  Proof.
+    intros c r pos l k ll x ws Hk. unfold stepS, nlz. destruct (c =? 10) eqn:E.
+    - apply Z.eqb_eq in E. subst c. exists 0, (k + 1). repeat split; try lia; reflexivity.
+    - apply Z.eqb_neq in E. exists (k + 1), ll. rewrite Z.add_0_r. repeat split; try lia; reflexivity.
+  Qed.
+
+  Definition wsrun (ws : Z) (g : bytes) : Prop := Forall (fun a => ascii a /\ is_ws ws a = true) g.
+
+  (** the whitespace loop over the pending whitespace character [w] and the run [g]; [c] is the first
+      character that is no whitespace. The column before [c] is 0 when the run ends in a line end. *)
+  Lemma skip_ws_run : forall g f w c r last pos l k ll x ws,
+    (length g < f)%nat -> is_ws ws w = true -> wsrun ws g -> ascii c -> is_ws ws c = false -> 0 <= k ->
+    exists k' ll',
+      skip_ws f w (mkS (g ++ c :: r) last pos l k ll x ws)
+      = SOk (c, stepS c r (pos + blen g) (l + nl_count g) k' ll' x ws)
+      /\ 0 <= k' /\ (g = [] -> k' = k /\ ll' = ll) /\ (forall g', g = g' ++ [10] -> k' = 0).
+  Proof.
+    induction g as [|a t IH]; intros f w c r last pos l k ll x ws Hf Hw Hg Hc Hnw Hk; (destruct f as [|f]; [cbn in Hf; lia|]).
+    - cbn [app skip_ws]. cbn [s_ws mkS]. rewrite Hw. fold (mkS (c :: r) last pos l k ll x ws).
+      rewrite next_step by assumption. cbn [sbind]. exists k, ll. split.
+      + destruct f; cbn [skip_ws]; rewrite stepS_ws, Hnw; rewrite blen_nil; cbn [nl_count]; rewrite !Z.add_0_r; reflexivity.
+      + split; [assumption|]. split; [auto|]. intros g' E. destruct g'; discriminate E.
+    - inversion Hg as [|? ? (Haa & Haw) Ht]; subst. cbn [app skip_ws]. cbn [s_ws mkS]. rewrite Hw.
+      fold (mkS (a :: t ++ c :: r) last pos l k ll x ws). rewrite next_step by assumption. cbn [sbind].
+      destruct (stepS_mk2 a (t ++ c :: r) pos l k ll x ws Hk) as (k1 & ll1 & Hk1 & Hlf & Hnlf & Est). rewrite Est.
+      destruct (IH f a c r [a] (pos + 1) (l + nlz a) k1 ll1 x ws) as (k' & ll' & E & Hk' & H0 & Hend); try assumption; [cbn in Hf; lia|].
+      exists k', ll'. split; [|split; [assumption|split]].
+      + rewrite E. f_equal. f_equal. apply stepS_eq3; [rewrite blen_cons; lia|rewrite nl_count_cons; lia].
+      + intros E'. discriminate E'.
+      + intros g' E'. destruct g' as [|a' g''].
+        * cbn [app] in E'. injection E' as -> ->. destruct (H0 eq_refl) as (-> & _). apply Hlf. reflexivity.
+        * cbn [app] in E'. injection E' as -> ->. apply (Hend g''). reflexivity.
+  Qed.
+
+  (** the same run ending at the end of the input *)
+  Lemma skip_ws_run_eof : forall g f w last pos l k ll x ws,
+    (length g < f)%nat -> is_ws ws w = true -> wsrun ws g ->
+    exists s', skip_ws f w (mkS g last pos l k ll x ws) = SOk (EOF, s') /\ s_rest s' = [] /\ s_last s' = [] /\ s_ws s' = ws.
+  Proof.
+    induction g as [|a t IH]; intros f w last pos l k ll x ws Hf Hw Hg; (destruct f as [|f]; [cbn in Hf; lia|]).
+    - cbn [skip_ws]. cbn [s_ws mkS]. rewrite Hw. fold (mkS [] last pos l k ll x ws). rewrite next_eof. cbn [sbind].
+      assert (He : forall ws', is_ws ws' EOF = false) by reflexivity.
+      eexists. split; [destruct f; cbn [skip_ws]; cbn [s_ws mkS]; rewrite He; reflexivity|]. repeat split; reflexivity.
+    - inversion Hg as [|? ? (Haa & Haw) Ht]; subst. cbn [skip_ws]. cbn [s_ws mkS]. rewrite Hw.
+      fold (mkS (a :: t) last pos l k ll x ws). rewrite next_step by assumption. cbn [sbind].
+      unfold stepS. destruct (a =? 10); apply IH; try assumption; cbn in Hf; lia.
+  Qed.
+
+  Lemma sc_scan_run : forall g w c r last pos l k ll ws,
+    (length g + 1 <= F)%nat -> is_ws ws w = true -> wsrun ws g -> ascii c -> is_ws ws c = false -> 0 <= k ->
+    exists k' ll',
+      sc_scan (mkS (g ++ c :: r) last pos l k ll w ws)
+      = scan_body c (stepS c r (pos + blen g) (l + nl_count g) k' ll' w ws)
+      /\ 0 <= k' /\ (g = [] -> k' = k /\ ll' = ll) /\ (forall g', g = g' ++ [10] -> k' = 0).
+  Proof.
+    intros g w c r last pos l k ll ws HF Hw Hg Hc Hnw Hk. rewrite sc_scan_unfold. unfold sc_peek. cbn [s_ch mkS].
+    assert (E : (w =? NOCHAR) = false).
+    { apply Z.eqb_neq. intros ->. unfold is_ws, NOCHAR in Hw. discriminate Hw. }
+    rewrite E. cbn [sbind].
+    destruct (skip_ws_run g F w c r last pos l k ll w ws) as (k' & ll' & Es & H1 & H2 & H3); try assumption; [lia|].
+    fold (mkS (g ++ c :: r) last pos l k ll w ws). rewrite Es. cbn [sbind]. exists k', ll'. repeat split; try assumption; apply H2; assumption.
+  Qed.
+
+  Lemma sc_scan_run_eof : forall g w last pos l k ll ws,
+    (length g + 1 <= F)%nat -> is_ws ws w = true -> wsrun ws g ->
+    exists tok s', sc_scan (mkS g last pos l k ll w ws) = SOk (tok, s') /\ t_typ tok = EOF.
+  Proof.
+    intros g w last pos l k ll ws HF Hw Hg. rewrite sc_scan_unfold. unfold sc_peek. cbn [s_ch mkS].
+    assert (E : (w =? NOCHAR) = false).
+    { apply Z.eqb_neq. intros ->. unfold is_ws, NOCHAR in Hw. discriminate Hw. }
+    rewrite E. cbn [sbind].
+    destruct (skip_ws_run_eof g F w last pos l k ll w ws) as (s' & Es & H1 & H2 & H3); try assumption; [lia|].
+    fold (mkS g last pos l k ll w ws). rewrite Es. cbn [sbind].
+    destruct s' as [rest' last' pos' line' col' ll' ch' ws']. cbn [s_rest s_last s_ws] in H1, H2, H3. subst.
+    fold (mkS [] [] pos' line' col' ll' ch' ws). rewrite scan_body_eof. eexists; eexists; split; reflexivity.
+  Qed.
+
+  (** blank characters are whitespace in the default and in the tab-significant mode; the characters
+      of [cr] in every mode *)
+  Lemma blank_ascii : forall c, blank_char c -> ascii c.
+  Proof. intros c [->|[->| ->]]; unfold ascii; lia. Qed.
+
+  Lemma blank_wsrun : forall ws g, (ws = ws_default \/ ws = ws_sig_tab) -> Forall blank_char g -> wsrun ws g.
+  Proof.
+    intros ws g Hws Hg. unfold wsrun. induction Hg as [|c g Hc _ IH]; constructor; [|exact IH].
+    split; [apply blank_ascii; exact Hc|]. destruct Hws as [-> | ->], Hc as [->|[->| ->]]; reflexivity.
+  Qed.
+
+  Lemma cr_facts : forall l, cr_ok l ->
+    (forall ws, ws_ok ws -> wsrun ws l) /\ Forall blank_char l /\ nl_count l = 0 /\ Forall (fun c => c <> 10) l.
+  Proof.
+    intros l H. induction H as [|c g Hc _ (IH1 & IH2 & IH3 & IH4)].
+    - repeat split; try constructor.
+    - repeat split.
+      + intros ws Hws. constructor; [|apply IH1; assumption].
+        split; [destruct Hc as [-> | ->]; unfold ascii; lia|]. destruct Hws as [->|[-> | ->]], Hc as [-> | ->]; reflexivity.
+      + constructor; [|exact IH2]. destruct Hc as [-> | ->]; [left|right; left]; reflexivity.
+      + rewrite nl_count_cons, IH3. destruct Hc as [-> | ->]; reflexivity.
+      + constructor; [|exact IH4]. destruct Hc as [-> | ->]; discriminate.
+  Qed.
+
+  Lemma cr_wsrun : forall ws, ws_ok ws -> wsrun ws cr.
+  Proof. exact (proj1 (cr_facts cr Hcr)). Qed.
+
+  Lemma cr_blank : Forall blank_char cr.
+  Proof. exact (proj1 (proj2 (cr_facts cr Hcr))). Qed.
+
+  Lemma cr_nl : nl_count cr = 0.
+  Proof. exact (proj1 (proj2 (proj2 (cr_facts cr Hcr)))). Qed.
+
+  (** a whitespace run, then the identifier [c0 :: t], then [c]; the identifier is in column 1 when
+      the run ends in a line end *)
+  Lemma scan_run_ident : forall g w c0 t c r last pos l k ll ws,
+    is_ws ws w = true -> ws_ok ws -> wsrun ws g -> (length g + length t + 2 < F)%nat -> 0 <= k ->
+    id0 c0 = true -> Forall (fun a => idc a = true) t -> ascii c -> idc c = false ->
+    exists k' ll',
+      sc_scan (mkS (g ++ (c0 :: t) ++ c :: r) last pos l k ll w ws)
+      = SOk ({| t_typ := TIdent; t_pos := {| p_line := l + nl_count g; p_column := k' + 1; p_offset := pos + blen g |}; t_txt := c0 :: t |},
+             stepS c r (pos + blen g + 1 + blen t) (l + nl_count g) (k' + 1 + blen t) ll' c ws)
+      /\ 0 <= k' /\ (g = [] -> k' = k /\ ll' = ll) /\ (forall g', g = g' ++ [10] -> k' = 0).
+  Proof.
+    intros g w c0 t c r last pos l k ll ws Hw Hws Hg HF Hk H0 Ht Hc Hnc. destruct (id0_ge c0 H0) as (H33 & Ha0 & H10).
+    cbn [app]. destruct (sc_scan_run g w c0 (t ++ c :: r) last pos l k ll ws) as (k' & ll' & E & H1 & H2 & H3);
+      try assumption; [lia|apply ws_printable; assumption|].
+    exists k', ll'. split; [|repeat split; try assumption; apply H2; assumption].
+    rewrite E. rewrite stepS_plain by assumption. rewrite scan_body_ident; try assumption; try lia.
+    f_equal. f_equal. apply tok_eq. lia.
+  Qed.
+
   (** ------------------------------------------------------------ definition boundaries *)
 
   Definition kwtok (line off : Z) (kw : bytes) : token :=
@@ -411,15 +547,40 @@ Section RT.
   Definition is_ident (kw : bytes) : Prop :=
     exists c0 t, kw = c0 :: t /\ id0 c0 = true /\ Forall (fun a => idc a = true) t.
 
-  (** [st] is at a definition boundary: peeking yields EOF if nothing follows, and otherwise the
-      keyword token of the next line at (line, 1, off) *)
-  Definition Ready (line off : Z) (rest : bytes) (st : pstate) : Prop :=
-    (rest = [] -> exists tok st', peek_token st = POk tok st' /\ t_typ tok = EOF) /\
-    (forall kw c r, rest = kw ++ c :: r -> is_ident kw -> ascii c -> idc c = false -> (length kw + 2 < F)%nat ->
+  (** characters that the scanner may have to skip before it reaches the next line: at most the line
+      end of the current line *)
+  Definition SL : nat := S (length cr).
+
+  (** [st] is at a definition boundary and the next definition starts right at [rest]: peeking yields
+      EOF if nothing follows, and otherwise the keyword token at (line, 1, off); [n] bounds the
+      whitespace still to be skipped (fuel bookkeeping only) *)
+  Definition Ready0 (n : nat) (line off : Z) (rest : bytes) (st : pstate) : Prop :=
+    (rest = [] -> (n + 1 <= F)%nat -> exists tok st', peek_token st = POk tok st' /\ t_typ tok = EOF) /\
+    (forall kw c r, rest = kw ++ c :: r -> is_ident kw -> ascii c -> idc c = false -> (n + length kw + 2 < F)%nat ->
        exists ll, peek_token st = POk (kwtok line off kw) (canon line off kw c r ll)).
+
+  (** [st] is at a definition boundary before the text [X], which may begin with blank lines; [n]
+      bounds the whitespace the scanner still has to skip before [X] (fuel bookkeeping only) *)
+  Definition Ready (n : nat) (line off : Z) (X : bytes) (st : pstate) : Prop :=
+    forall g rest, X = g ++ rest -> blank_block g ->
+      Ready0 (n + length g) (line + nl_count g) (off + blen g) rest st.
+
+  Lemma ready0_mono : forall n m line off rest st, (n <= m)%nat -> Ready0 n line off rest st -> Ready0 m line off rest st.
+  Proof.
+    intros n m line off rest st Hnm (H1 & H2). split.
+    - intros E Hf. apply H1; [exact E|lia].
+    - intros kw c r E Hk Hc Hnc Hf. apply H2; try assumption. lia.
+  Qed.
+
+  Lemma ready_mono : forall n m line off X st, (n <= m)%nat -> Ready n line off X st -> Ready m line off X st.
+  Proof. intros n m line off X st Hnm H g rest E Hg. eapply ready0_mono; [|apply H; eassumption]. lia. Qed.
 
   Lemma stepS_eq : forall c r pos pos' l k k' ll x ws, pos = pos' -> k = k' ->
     stepS c r pos l k ll x ws = stepS c r pos' l k' ll x ws.
+  Proof. intros. subst. reflexivity. Qed.
+
+  Lemma stepS_eq4 : forall c r pos pos' l l' k k' ll x ws, pos = pos' -> l = l' -> k = k' ->
+    stepS c r pos l k ll x ws = stepS c r pos' l' k' ll x ws.
   Proof. intros. subst. reflexivity. Qed.
 
   Lemma POk_canon_eq : forall tok s line off kw c r ll,
@@ -427,37 +588,108 @@ Section RT.
     @POk token tok (PS s (Some tok)) = POk (kwtok line off kw) (canon line off kw c r ll).
   Proof. intros. subst. reflexivity. Qed.
 
-  (** shape A: the line end of the previous definition is the pending character *)
-  Lemma ready_A : forall rest last P line K, (1 <= F)%nat ->
-    Ready line P rest (PS (mkS rest last P line 0 K 10 ws_default) None).
+  (** the core: a pending blank character [w] and a run [g] of blank characters such that [w :: g]
+      ends in a line end *)
+  Lemma ready_core : forall n w g rest last P l k ll,
+    blank_char w -> Forall blank_char g -> (exists g', w :: g = g' ++ [10]) -> 0 <= k -> (w = 10 -> k = 0) -> (length g <= n)%nat ->
+    Ready0 n (l + nl_count g) (P + blen g) rest (PS (mkS (g ++ rest) last P l k ll w ws_default) None).
   Proof.
-    intros rest last P line K HF. split.
-    - intros ->. rewrite peek_token_scan.
-      destruct (scan_ws_eof 10 last P line 0 K ws_default eq_refl HF) as (tok & s' & E & Ht). rewrite E.
-      eexists; eexists; split; [reflexivity|exact Ht].
-    - intros kw c r -> (c0 & t & -> & H0 & Ht) Hc Hnc Hf. exists K. rewrite peek_token_scan.
-      rewrite (scan_ws_ident 10); try assumption; try reflexivity; try lia; [|left; reflexivity|cbn [length] in Hf; lia].
-      apply POk_canon_eq; [unfold kwtok; apply tok_eq; lia | apply stepS_eq; rewrite blen_cons; lia].
+    intros n w g rest last P l k ll Hw Hg Hend Hk Hk0 Hn.
+    assert (Hww : is_ws ws_default w = true) by (destruct Hw as [->|[->| ->]]; reflexivity).
+    assert (Hgw : wsrun ws_default g) by (apply blank_wsrun; [left; reflexivity|assumption]).
+    split.
+    - intros -> HF. rewrite app_nil_r. rewrite peek_token_scan.
+      destruct (sc_scan_run_eof g w last P l k ll ws_default) as (tok & s' & E & Ht); try assumption; [lia|].
+      rewrite E. eexists; eexists; split; [reflexivity|exact Ht].
+    - intros kw c r -> (c0 & t & -> & H0 & Ht) Hc Hnc HF. rewrite peek_token_scan.
+      destruct (scan_run_ident g w c0 t c r last P l k ll ws_default) as (k' & ll' & E & Hk' & Hnil & Hlf);
+        try assumption; [left; reflexivity|cbn [length] in HF; lia|].
+      rewrite E. exists ll'.
+      assert (Ek : k' = 0).
+      { destruct Hend as (g' & Eg). destruct g as [|a g0].
+        - destruct g' as [|b g']; [|destruct g'; discriminate Eg]. cbn in Eg. injection Eg as ->.
+          destruct (Hnil eq_refl) as (-> & _). apply Hk0. reflexivity.
+        - destruct g' as [|b g']; [destruct g0; discriminate Eg|]. cbn [app] in Eg. injection Eg as _ Eg.
+          apply (Hlf g'). exact Eg. }
+      subst k'. apply POk_canon_eq; [unfold kwtok; apply tok_eq; lia | apply stepS_eq4; rewrite ?blen_cons; lia].
+  Qed.
+
+  (** shape A: a blank character is pending, the run [g1] follows, and together they end in a line end *)
+  Lemma ready_run : forall n w g1 X last P l k ll,
+    blank_char w -> Forall blank_char g1 -> (exists g', w :: g1 = g' ++ [10]) -> 0 <= k -> (w = 10 -> k = 0) ->
+    (length g1 <= n)%nat ->
+    Ready n (l + nl_count g1) (P + blen g1) X (PS (mkS (g1 ++ X) last P l k ll w ws_default) None).
+  Proof.
+    intros n w g1 X last P l k ll Hw Hg1 Hend Hk Hk0 Hl g rest -> (Hg & Hge).
+    replace (l + nl_count g1 + nl_count g) with (l + nl_count (g1 ++ g)) by (rewrite nl_count_app; lia).
+    replace (P + blen g1 + blen g) with (P + blen (g1 ++ g)) by (rewrite blen_app; lia).
+    rewrite app_assoc. apply ready_core; try assumption.
+    - apply Forall_app. split; assumption.
+    - destruct Hge as [->|(g' & ->)]; [rewrite app_nil_r; exact Hend|]. exists (w :: g1 ++ g'). cbn [app]. rewrite <- app_assoc. reflexivity.
+    - rewrite app_length. lia.
+  Qed.
+
+  Lemma ready_A : forall n rest last P line K,
+    Ready n line P rest (PS (mkS rest last P line 0 K 10 ws_default) None).
+  Proof.
+    intros n rest last P line K.
+    pose proof (ready_run n 10 [] rest last P line 0 K) as H. cbn [app nl_count] in H. rewrite blen_nil, !Z.add_0_r in H.
+    apply H; try lia; [right; right; reflexivity|apply Forall_nil|exists []; reflexivity|cbn [length]; lia].
+  Qed.
+
+  Lemma list_case : forall (l : bytes), l = [] \/ exists a l', l = a :: l'.
+  Proof. intros [|a l']; [left; reflexivity|right; exists a, l'; reflexivity]. Qed.
+
+  (** the end of a line: the first character of [cr ++ LF] is pending (it follows the last token) *)
+  Lemma ready_eol : forall rest c r P l k ll, c :: r = cr ++ 10 :: rest -> 0 <= k ->
+    Ready SL (l + 1) (P + blen cr + 1) rest (PS (stepS c r P l k ll c ws_default) None).
+  Proof.
+    intros rest c r P l k ll E Hk. destruct (list_case cr) as [Ecr|(a & cr' & Ecr)]; rewrite Ecr in E |- *.
+    - cbn [app] in E. injection E as -> ->. unfold stepS. change (10 =? 10) with true. cbv iota.
+      rewrite blen_nil, Z.add_0_r. apply ready_A.
+    - cbn [app] in E. injection E as -> ->.
+      assert (Ha : a = 32 \/ a = 13) by (pose proof Hcr as H; rewrite Ecr in H; inversion H; assumption).
+      assert (Hb : Forall blank_char cr') by (pose proof cr_blank as H; rewrite Ecr in H; inversion H; assumption).
+      assert (Hn : nl_count cr' = 0) by (pose proof cr_nl as H; rewrite Ecr, nl_count_cons in H; destruct Ha as [-> | ->]; exact H).
+      rewrite stepS_plain by (destruct Ha as [-> | ->]; discriminate).
+      pose proof (ready_run SL a (cr' ++ [10]) rest [a] (P + 1) l (k + 1) ll) as H.
+      rewrite <- app_assoc in H. cbn [app] in H.
+      replace (l + 1) with (l + nl_count (cr' ++ [10])) by (rewrite nl_count_app, Hn; reflexivity).
+      replace (P + blen (a :: cr') + 1) with (P + 1 + blen (cr' ++ [10])) by (rewrite blen_app, !blen_cons, blen_nil; lia).
+      apply H.
+      + destruct Ha as [-> | ->]; [left|right; left]; reflexivity.
+      + apply Forall_app. split; [assumption|constructor; [right; right; reflexivity|constructor]].
+      + exists (a :: cr'). reflexivity.
+      + lia.
+      + destruct Ha as [-> | ->]; discriminate.
+      + unfold SL. rewrite Ecr, app_length. cbn [length]. lia.
   Qed.
 
   (** shape B: the first character of the next line (or EOF) is the pending character *)
   Definition shapeB (line P K : Z) (rest : bytes) : sstate :=
     match rest with
     | [] => mkS [] [] P line 1 K EOF ws_default
-    | c0 :: r' => mkS r' [c0] (P + 1) line 1 K c0 ws_default
+    | c0 :: r' => stepS c0 r' P line 0 K c0 ws_default
     end.
 
-  Lemma ready_B : forall rest P line K, Ready line P rest (PS (shapeB line P K rest) None).
+  Lemma ready_B : forall n X P line K, Ready n line P X (PS (shapeB line P K X) None).
   Proof.
-    intros rest P line K. split.
-    - intros ->. rewrite peek_token_scan. cbn [shapeB].
-      destruct (scan_pending_eof P line 1 K ws_default) as (tok & s' & E & Ht). rewrite E.
-      eexists; eexists; split; [reflexivity|exact Ht].
-    - intros kw c r -> (c0 & t & -> & H0 & Ht) Hc Hnc Hf. exists K. rewrite peek_token_scan. cbn [shapeB app].
-      destruct (id0_ge c0 H0) as (H33 & Ha0 & H10).
-      rewrite sc_scan_direct; cbn [s_ch s_ws mkS]; [|unfold ascii, NOCHAR in *; lia|apply ws_printable; [left; reflexivity|assumption]].
-      rewrite scan_body_ident; try assumption; try lia; [|cbn [length] in Hf; lia].
-      apply POk_canon_eq; [unfold kwtok; apply tok_eq; lia | apply stepS_eq; rewrite blen_cons; lia].
+    intros n X P line K g rest -> (Hg & Hge). destruct g as [|a g0].
+    - cbn [app nl_count length]. rewrite blen_nil, !Z.add_0_r, Nat.add_0_r. split.
+      + intros -> _. rewrite peek_token_scan. cbn [shapeB].
+        destruct (scan_pending_eof P line 1 K ws_default) as (tok & s' & E & Ht). rewrite E.
+        eexists; eexists; split; [reflexivity|exact Ht].
+      + intros kw c r -> (c0 & t & -> & H0 & Ht) Hc Hnc Hf. exists K. rewrite peek_token_scan. cbn [shapeB app].
+        destruct (id0_ge c0 H0) as (H33 & Ha0 & H10). rewrite stepS_plain by assumption.
+        rewrite sc_scan_direct; cbn [s_ch s_ws mkS]; [|unfold ascii, NOCHAR in *; lia|apply ws_printable; [left; reflexivity|assumption]].
+        rewrite scan_body_ident; try assumption; try lia; [|cbn [length] in Hf; lia].
+        apply POk_canon_eq; [unfold kwtok; apply tok_eq; lia | apply stepS_eq; rewrite blen_cons; lia].
+    - inversion Hg as [|? ? Ha Hg0]; subst. cbn [app shapeB].
+      replace (line + nl_count (a :: g0)) with (line + nlz a + nl_count g0) by (rewrite nl_count_cons; lia).
+      replace (P + blen (a :: g0)) with (P + 1 + blen g0) by (rewrite blen_cons; lia).
+      destruct Hge as [E|(g' & E)]; [discriminate E|].
+      destruct (stepS_mk2 a (g0 ++ rest) P line 0 K a ws_default ltac:(lia)) as (k1 & ll1 & Hk1 & Hlf & _ & Est). rewrite Est.
+      apply ready_core; try assumption; [exists g'; exact E|cbn [length]; lia].
   Qed.
 
   Lemma peek_token_idem : forall st t st', peek_token st = POk t st' -> peek_token st' = POk t st'.
@@ -467,14 +699,28 @@ Section RT.
     - destruct (scan il id F (p_sc st)) as [[t1 s1]|p k|]; try discriminate. injection H as <- <-. reflexivity.
   Qed.
 
-  Lemma ready_after_peek : forall line off rest st t st', Ready line off rest st -> peek_token st = POk t st' ->
-    Ready line off rest st'.
+  Lemma ready0_after_peek : forall n line off rest st t st', Ready0 n line off rest st -> peek_token st = POk t st' ->
+    Ready0 n line off rest st'.
   Proof.
-    intros line off rest st t st' (H1 & H2) Hp. pose proof (peek_token_idem _ _ _ Hp) as Hi. split.
-    - intros Hr. destruct (H1 Hr) as (tok & st0 & E & Ht). rewrite Hp in E. injection E as <- <-.
+    intros n line off rest st t st' (H1 & H2) Hp. pose proof (peek_token_idem _ _ _ Hp) as Hi. split.
+    - intros Hr Hf. destruct (H1 Hr Hf) as (tok & st0 & E & Ht). rewrite Hp in E. injection E as <- <-.
       eexists; eexists; split; [exact Hi|exact Ht].
     - intros kw c r Hr Hk Hc Hnc Hf. destruct (H2 kw c r Hr Hk Hc Hnc Hf) as (ll & E). exists ll.
       rewrite Hp in E. injection E as <- <-. exact Hi.
+  Qed.
+
+  Lemma ready_after_peek : forall n line off rest st t st', Ready n line off rest st -> peek_token st = POk t st' ->
+    Ready n line off rest st'.
+  Proof. intros n line off X st t st' HR Hp g rest E Hg. eapply ready0_after_peek; [apply HR; assumption|exact Hp]. Qed.
+
+  (** no blank lines: the definition starts right here *)
+  Lemma blank_nil : blank_block [].
+  Proof. split; [constructor|left; reflexivity]. Qed.
+
+  Lemma ready_here : forall n line off X st, Ready n line off X st -> Ready0 n line off X st.
+  Proof.
+    intros n line off X st HR. pose proof (HR [] X eq_refl blank_nil) as H. cbn [nl_count length] in H.
+    rewrite blen_nil, !Z.add_0_r, Nat.add_0_r in H. exact H.
   Qed.
 
   Lemma p_keyword_canon : forall kw sc line off,
@@ -494,10 +740,24 @@ Section RT.
   Lemma snoc_cons : forall (s : bytes) x, exists a q, s ++ [x] = a :: q.
   Proof. intros. destruct s; cbn; eauto. Qed.
 
+  (** the first character of a line end *)
+  Lemma eol_head : forall rest, exists c r, cr ++ 10 :: rest = c :: r /\ blank_char c.
+  Proof.
+    intros rest. destruct (list_case cr) as [E|(a & l' & E)]; rewrite E.
+    - exists 10, rest. split; [reflexivity|right; right; reflexivity].
+    - exists a, (l' ++ 10 :: rest). split; [reflexivity|]. pose proof cr_blank as H. rewrite E in H. inversion H. assumption.
+  Qed.
+
+  Lemma blank_numterm : forall c, blank_char c -> numterm c.
+  Proof. intros c [->|[->| ->]]; repeat split; try reflexivity; try discriminate; unfold ascii; lia. Qed.
+
+  Lemma blank_not_idc : forall c, blank_char c -> idc c = false.
+  Proof. intros c [->|[->| ->]]; reflexivity. Qed.
+
   Lemma step_version : forall s rest line off ll, str_ok s -> (length s + 12 < F)%nat ->
-    exists st', parse_version il id F (canon line off kw_version 32 (34 :: s ++ 34 :: 10 :: rest) ll)
+    exists st', parse_version il id F (canon line off kw_version 32 (34 :: s ++ 34 :: cr ++ 10 :: rest) ll)
                 = POk (DVersion {| p_line := line; p_column := 1; p_offset := off |} s) st'
-                /\ Ready (line + 1) (off + blen (print_def (SVersion s))) rest st'.
+                /\ Ready SL (line + 1) (off + blen (print_def cr (SVersion s))) rest st'.
   Proof.
     intros s rest line off ll Hs HF. unfold parse_version, bind, canon.
     rewrite p_keyword_canon. unfold p_string, bind. rewrite next_token_scan.
@@ -505,30 +765,36 @@ Section RT.
     destruct (snoc_cons s 34) as (a & q & Eq).
     assert (Ha : ascii a /\ a <> 10) by (apply (str_head s a q); [assumption|symmetry; exact Eq]).
     destruct Ha as (Haa & Ha10).
-    replace (34 :: s ++ 34 :: 10 :: rest) with (34 :: a :: q ++ 10 :: rest)
-      by (change (s ++ 34 :: 10 :: rest) with (s ++ [34] ++ 10 :: rest); rewrite app_assoc, Eq; reflexivity).
+    destruct (eol_head rest) as (c2 & r2 & E2 & Hc2). rewrite E2.
+    replace (34 :: s ++ 34 :: c2 :: r2) with (34 :: a :: q ++ c2 :: r2)
+      by (change (s ++ 34 :: c2 :: r2) with (s ++ [34] ++ c2 :: r2); rewrite app_assoc, Eq; reflexivity).
     rewrite (scan_ws_punct 32); try reflexivity; try assumption; try lia;
       [|left; reflexivity|unfold blen, kw_version; cbn; lia|repeat split; try reflexivity; unfold ascii; lia].
     cbn [t_typ t_pos]. change (34 =? c_quote) with true. cbn [negb].
     rewrite stepS_plain by assumption.
-    rewrite (string_loop_plain F s a q 10 rest); try assumption; try lia; [|symmetry; exact Eq|unfold ascii; lia].
+    rewrite (string_loop_plain F s a q c2 r2); try assumption; try lia; [|symmetry; exact Eq|apply blank_ascii; assumption].
     unfold ret. cbn [rev app kwtok t_pos]. eexists. split; [reflexivity|].
-    unfold stepS. change (10 =? 10) with true. cbv iota.
-    replace (off + blen (print_def (SVersion s))) with (off + blen kw_version + 1 + 1 + 1 + blen s + 1).
-    - apply ready_A. lia.
-    - cbn [print_def]. rewrite blen_app, !blen_cons, blen_app, !blen_cons, blen_nil. lia.
+    replace (off + blen (print_def cr (SVersion s))) with (off + blen kw_version + 1 + 1 + 1 + blen s + blen cr + 1).
+    - apply ready_eol; [symmetry; exact E2|unfold blen, kw_version; cbn [length]; lia].
+    - cbn [print_def]. rewrite blen_app, !blen_cons, blen_app, !blen_cons, blen_app, blen_cons, blen_nil. lia.
   Qed.
 
   (** ------------------------------------------------------------ BS_ *)
 
-  Definition rest_ok (rest : bytes) : Prop :=
-    rest = [] \/ exists kw c r, rest = kw ++ c :: r /\ is_ident kw /\ ascii c /\ idc c = false /\ (length kw + 2 < F)%nat.
+  (** what follows a definition: blank lines, then nothing or a keyword line *)
+  Definition rest_ok0 (n : nat) (rest : bytes) : Prop :=
+    (rest = [] /\ (n + 1 <= F)%nat) \/
+    exists kw c r, rest = kw ++ c :: r /\ is_ident kw /\ ascii c /\ idc c = false /\ (n + length kw + 2 < F)%nat.
 
-  Lemma ready_peek : forall line off rest st, Ready line off rest st -> rest_ok rest ->
-    exists tok st', peek_token st = POk tok st' /\ (t_typ tok = EOF \/ t_typ tok = TIdent) /\ Ready line off rest st'.
+  Definition rest_ok (X : bytes) : Prop :=
+    exists g rest, X = g ++ rest /\ blank_block g /\ rest_ok0 (SL + length g) rest.
+
+  Lemma ready_peek : forall line off X st, Ready SL line off X st -> rest_ok X ->
+    exists tok st', peek_token st = POk tok st' /\ (t_typ tok = EOF \/ t_typ tok = TIdent) /\ Ready SL line off X st'.
   Proof.
-    intros line off rest st HR Hok. pose proof HR as (H1 & H2). destruct Hok as [->|(kw & c & r & -> & Hk & Hc & Hnc & Hf)].
-    - destruct (H1 eq_refl) as (tok & st' & E & Ht). exists tok, st'. split; [exact E|]. split; [left; exact Ht|].
+    intros line off X st HR (g & rest & -> & Hg & Hok). pose proof (HR g rest eq_refl Hg) as (H1 & H2).
+    destruct Hok as [(-> & Hf)|(kw & c & r & -> & Hk & Hc & Hnc & Hf)].
+    - destruct (H1 eq_refl Hf) as (tok & st' & E & Ht). exists tok, st'. split; [exact E|]. split; [left; exact Ht|].
       eapply ready_after_peek; eassumption.
     - destruct (H2 kw c r eq_refl Hk Hc Hnc Hf) as (ll & E). eexists; eexists. split; [exact E|]. split; [right; reflexivity|].
       eapply ready_after_peek; eassumption.
@@ -602,25 +868,26 @@ Section RT.
 
   (** BS_: alone on its line *)
   Lemma step_bit_timing_0 : forall rest line off ll, rest_ok rest -> (1 <= F)%nat ->
-    exists st', parse_bit_timing il id F (canon line off kw_bit_timing 58 (10 :: rest) ll)
+    exists st', parse_bit_timing il id F (canon line off kw_bit_timing 58 (cr ++ 10 :: rest) ll)
                 = POk (DBitTiming {| p_line := line; p_column := 1; p_offset := off |} 0 0 0) st'
-                /\ Ready (line + 1) (off + blen (print_def (SBitTiming None))) rest st'.
+                /\ Ready SL (line + 1) (off + blen (print_def cr (SBitTiming None))) rest st'.
   Proof.
     intros rest line off ll Hok HF. unfold parse_bit_timing, bind, canon.
     rewrite p_keyword_canon. unfold p_token, bind. rewrite next_token_scan.
     rewrite stepS_plain by discriminate.
-    rewrite scan_direct_punct; [|reflexivity|exact punct_colon|unfold ascii; lia].
+    destruct (eol_head rest) as (c2 & r2 & E2 & Hc2). rewrite E2.
+    rewrite scan_direct_punct; [|reflexivity|exact punct_colon|apply blank_ascii; assumption].
     cbn [t_typ negb]. change (58 =? c_colon) with true. cbn [negb]. unfold ret.
-    unfold stepS. change (10 =? 10) with true. cbv iota.
-    pose proof (ready_A rest [10] (off + blen kw_bit_timing + 1 + 1) (line + 1) (blen kw_bit_timing + 1 + 1) HF) as HR.
+    pose proof (ready_eol rest c2 r2 (off + blen kw_bit_timing + 1) line (blen kw_bit_timing + 1) ll (eq_sym E2)
+                  ltac:(unfold blen, kw_bit_timing; cbn; lia)) as HR.
     destruct (ready_peek _ _ _ _ HR Hok) as (tok & st' & Ep & Hty & HR').
-    destruct (typ_flags tok Hty) as (E1 & E2 & E3).
+    destruct (typ_flags tok Hty) as (E1 & E2' & E3).
     pose proof (peek_token_idem _ _ _ Ep) as Ei.
     unfold optional_uint, bind. rewrite Ep. rewrite E1. cbn [negb]. unfold ret.
-    rewrite Ei, E2. rewrite Ei, E3. cbn [kwtok t_pos].
+    rewrite Ei, E2'. rewrite Ei, E3. cbn [kwtok t_pos].
     eexists. split; [reflexivity|].
-    replace (off + blen (print_def (SBitTiming None))) with (off + blen kw_bit_timing + 1 + 1); [exact HR'|].
-    cbn [print_def]. rewrite blen_app, !blen_cons, blen_nil. lia.
+    replace (off + blen (print_def cr (SBitTiming None))) with (off + blen kw_bit_timing + 1 + blen cr + 1); [exact HR'|].
+    cbn [print_def]. rewrite blen_app, !blen_cons, blen_app, blen_cons, blen_nil. lia.
   Qed.
 
   (** the state after the keyword and the colon of "BS_:" *)
@@ -637,9 +904,9 @@ Section RT.
 
   (** BS_: <baud> *)
   Lemma step_bit_timing_1 : forall b rest line off ll, wf_uint b -> rest_ok rest -> (length b + 8 < F)%nat ->
-    exists st', parse_bit_timing il id F (canon line off kw_bit_timing 58 (32 :: b ++ 10 :: rest) ll)
+    exists st', parse_bit_timing il id F (canon line off kw_bit_timing 58 (32 :: b ++ cr ++ 10 :: rest) ll)
                 = POk (DBitTiming {| p_line := line; p_column := 1; p_offset := off |} (uint_value b) 0 0) st'
-                /\ Ready (line + 1) (off + blen (print_def (SBitTiming (Some (b, None))))) rest st'.
+                /\ Ready SL (line + 1) (off + blen (print_def cr (SBitTiming (Some (b, None))))) rest st'.
   Proof.
     intros b rest line off ll Hb Hok HF. unfold parse_bit_timing, bind, canon.
     rewrite p_keyword_canon. unfold p_token at 1. unfold bind. rewrite next_token_scan.
@@ -647,27 +914,26 @@ Section RT.
     rewrite scan_direct_punct; [|reflexivity|exact punct_colon|unfold ascii; lia].
     cbn [t_typ negb]. change (58 =? c_colon) with true. cbn [negb]. unfold ret at 1.
     rewrite stepS_plain by discriminate.
-    rewrite (optional_uint_ws 32); try assumption; try reflexivity; [|left; reflexivity|exact numterm_lf|lia|unfold blen, kw_bit_timing; cbn; lia].
-    unfold stepS. change (10 =? 10) with true. cbv iota.
-    match goal with |- context [PS (mkS rest [10] ?P ?L 0 ?K 10 ws_default) None] =>
-      pose proof (ready_A rest [10] P L K) as HR end.
-    specialize (HR ltac:(lia)).
+    destruct (eol_head rest) as (c2 & r2 & E2 & Hc2). rewrite E2. pose proof (blen_nonneg b) as Hnb.
+    rewrite (optional_uint_ws 32); try assumption; try reflexivity; [|left; reflexivity|apply blank_numterm; assumption|lia|unfold blen, kw_bit_timing; cbn; lia].
+    match goal with |- context [PS (stepS c2 r2 ?P ?L ?K ?LL c2 ws_default) None] =>
+      pose proof (ready_eol rest c2 r2 P L K LL (eq_sym E2) ltac:(unfold blen, kw_bit_timing in *; cbn [length] in *; lia)) as HR end.
     destruct (ready_peek _ _ _ _ HR Hok) as (tok & st' & Ep & Hty & HR').
-    destruct (typ_flags tok Hty) as (E1 & E2 & E3).
+    destruct (typ_flags tok Hty) as (E1 & E2' & E3).
     pose proof (peek_token_idem _ _ _ Ep) as Ei.
-    rewrite Ep, E2. unfold ret at 1. rewrite Ei, E3. unfold ret. cbn [kwtok t_pos].
+    rewrite Ep, E2'. unfold ret at 1. rewrite Ei, E3. unfold ret. cbn [kwtok t_pos].
     eexists. split; [reflexivity|].
-    match goal with |- Ready _ ?X _ _ => replace X with (off + blen kw_bit_timing + 1 + 1 + blen b + 1) end; [exact HR'|].
-    cbn [print_def]. rewrite blen_app, !blen_cons, blen_app, !blen_cons, blen_nil. lia.
+    match goal with |- Ready _ _ ?X _ _ => replace X with (off + blen kw_bit_timing + 1 + 1 + blen b + blen cr + 1) end; [exact HR'|].
+    cbn [print_def]. rewrite blen_app, !blen_cons, blen_app, blen_app, !blen_cons, blen_nil. lia.
   Qed.
 
   (** BS_: <baud> : <btr1> , <btr2> *)
   Lemma step_bit_timing_2 : forall b b1 b2 rest line off ll, wf_uint b -> wf_uint b1 -> wf_uint b2 -> rest_ok rest ->
     (length b + length b1 + length b2 + 12 < F)%nat ->
     exists st', parse_bit_timing il id F
-                  (canon line off kw_bit_timing 58 (32 :: b ++ 32 :: 58 :: 32 :: b1 ++ 32 :: 44 :: 32 :: b2 ++ 10 :: rest) ll)
+                  (canon line off kw_bit_timing 58 (32 :: b ++ 32 :: 58 :: 32 :: b1 ++ 32 :: 44 :: 32 :: b2 ++ cr ++ 10 :: rest) ll)
                 = POk (DBitTiming {| p_line := line; p_column := 1; p_offset := off |} (uint_value b) (uint_value b1) (uint_value b2)) st'
-                /\ Ready (line + 1) (off + blen (print_def (SBitTiming (Some (b, Some (b1, b2)))))) rest st'.
+                /\ Ready SL (line + 1) (off + blen (print_def cr (SBitTiming (Some (b, Some (b1, b2)))))) rest st'.
   Proof.
     intros b b1 b2 rest line off ll Hb Hb1 Hb2 Hok HF. unfold parse_bit_timing, bind, canon.
     rewrite p_keyword_canon. unfold p_token at 1. unfold bind. rewrite next_token_scan.
@@ -676,11 +942,12 @@ Section RT.
     cbn [t_typ negb]. change (58 =? c_colon) with true. cbn [negb]. unfold ret at 1.
     rewrite stepS_plain by discriminate.
     assert (Hk0 : 0 <= blen kw_bit_timing + 1 + 1) by (unfold blen, kw_bit_timing; cbn; lia).
-    pose proof (blen_nonneg b) as Hnb. pose proof (blen_nonneg b1) as Hnb1.
+    pose proof (blen_nonneg b) as Hnb. pose proof (blen_nonneg b1) as Hnb1. pose proof (blen_nonneg b2) as Hnb2.
+    destruct (eol_head rest) as (c2 & r2 & E2 & Hc2). rewrite E2.
     rewrite (optional_uint_ws 32); try assumption; try reflexivity; [|left; reflexivity|exact numterm_sp|lia].
     rewrite stepS_plain by discriminate.
     (* " : " *)
-    destruct (peek_ws_punct 32 58 32 (b1 ++ 32 :: 44 :: 32 :: b2 ++ 10 :: rest) [32]
+    destruct (peek_ws_punct 32 58 32 (b1 ++ 32 :: 44 :: 32 :: b2 ++ c2 :: r2) [32]
                 (off + blen kw_bit_timing + 1 + 1 + blen b + 1) line (blen kw_bit_timing + 1 + 1 + blen b + 1) ll ws_default)
       as (tk1 & Ep1 & Ety1); try reflexivity; try lia; [left; reflexivity|exact punct_colon|unfold ascii; lia|].
     rewrite Ep1, Ety1. change (58 =? c_colon) with true. cbv beta iota.
@@ -695,12 +962,12 @@ Section RT.
     rewrite Ep2, Ety2. change (44 =? c_comma) with true. cbv beta iota.
     rewrite (p_token_look _ tk2 c_comma Ety2).
     rewrite stepS_plain by discriminate.
-    rewrite (optional_uint_ws 32); try assumption; try reflexivity; [|left; reflexivity|exact numterm_lf|lia|lia].
+    rewrite (optional_uint_ws 32); try assumption; try reflexivity; [|left; reflexivity|apply blank_numterm; assumption|lia|lia].
     unfold ret. cbn [kwtok t_pos]. eexists. split; [reflexivity|].
-    unfold stepS. change (10 =? 10) with true. cbv iota.
-    match goal with |- Ready _ ?X _ (PS (mkS _ _ ?P _ _ _ _ _) _) => replace X with P end; [apply ready_A; lia|].
+    match goal with |- Ready _ _ ?X _ (PS (stepS _ _ ?P _ _ _ _ _) _) => replace X with (P + blen cr + 1) end;
+      [apply ready_eol; [symmetry; exact E2|lia]|].
     cbn [print_def].
-    rewrite blen_app, !blen_cons, blen_app, !blen_cons, blen_app, !blen_cons, blen_app, !blen_cons, blen_nil. lia.
+    rewrite blen_app, !blen_cons, blen_app, !blen_cons, blen_app, !blen_cons, blen_app, blen_app, !blen_cons, blen_nil. lia.
   Qed.
 
   (** ------------------------------------------------------------ BU_ *)
@@ -727,13 +994,66 @@ Section RT.
     change (TIdent =? TIdent) with true. cbn [negb]. rewrite Hv. reflexivity.
   Qed.
 
-  (** the head of " n1 n2 ... nk" followed by a line end: a space or the line end *)
-  Lemma sp_list_head : forall (ns : list bytes) rest, exists c r,
-    sp_list (fun n => n) ns ++ 10 :: rest = c :: r /\ ascii c /\ idc c = false /\ (c = 32 \/ c = 10).
+  (** the head of " n1 n2 ... nk" followed by a line end: a space or the first character of the line end *)
+  Lemma sp_list_head' : forall A (f : A -> bytes) (xs : list A) rest, exists c r,
+    sp_list f xs ++ cr ++ 10 :: rest = c :: r /\ ascii c /\ idc c = false /\ numterm c.
   Proof.
-    intros ns rest. destruct ns as [|n ns]; cbn.
-    - exists 10, rest. repeat split; auto; unfold ascii; lia.
-    - eexists 32, _. repeat split; auto; unfold ascii; lia.
+    intros A f xs rest. destruct xs as [|x xs]; cbn.
+    - destruct (eol_head rest) as (c & r & E & Hc). exists c, r. split; [exact E|].
+      split; [apply blank_ascii; assumption|]. split; [apply blank_not_idc; assumption|apply blank_numterm; assumption].
+    - eexists 32, _. split; [reflexivity|]. split; [unfold ascii; lia|]. split; [reflexivity|exact numterm_sp].
+  Qed.
+
+  Lemma sp_list_head : forall (ns : list bytes) rest, exists c r,
+    sp_list (fun n => n) ns ++ cr ++ 10 :: rest = c :: r /\ ascii c /\ idc c = false.
+  Proof. intros ns rest. destruct (sp_list_head' _ (fun n => n) ns rest) as (c & r & E & H1 & H2 & _). exists c, r. auto. Qed.
+
+  (** the state after a line end token has been scanned: the first character of the next line (or EOF)
+      is pending ([shapeB] in the whitespace mode [ws]) *)
+  Definition after_lf (ws line P K : Z) (rest : bytes) : sstate :=
+    match rest with
+    | [] => mkS [] [] P line 1 K EOF ws
+    | c0 :: r' => stepS c0 r' P line 0 K c0 ws
+    end.
+
+  Lemma set_ws_after_lf : forall ws line P K rest, set_ws (after_lf ws line P K rest) ws_default = shapeB line P K rest.
+  Proof. intros. destruct rest; cbn [after_lf shapeB]; [reflexivity|apply set_ws_stepS]. Qed.
+
+  Definition head_ascii (rest : bytes) : Prop := match rest with [] => True | c :: _ => ascii c end.
+
+  Lemma rest_ok_head : forall X, rest_ok X -> head_ascii X.
+  Proof.
+    intros X (g & rest & -> & (Hg & _) & Hok). destruct g as [|a g].
+    - cbn [app]. destruct Hok as [(-> & _)|(kw & c & r & -> & (c0 & t & -> & H0 & _) & _)]; [exact I|].
+      cbn. apply (id0_ge c0 H0).
+    - cbn. inversion Hg. apply blank_ascii. assumption.
+  Qed.
+
+  (** scanning the line end token in newline-significant mode: [c :: r] is the line end [cr ++ LF]
+      followed by [rest] *)
+  Lemma scan_eol_nl : forall rest c r P l k ll, c :: r = cr ++ 10 :: rest -> head_ascii rest -> 0 <= k ->
+    (length cr + 1 <= F)%nat ->
+    exists tok K', t_typ tok = 10 /\
+      sc_scan (stepS c r P l k ll c ws_sig_newline) = SOk (tok, after_lf ws_sig_newline (l + 1) (P + blen cr + 1) K' rest).
+  Proof.
+    intros rest c r P l k ll E Hh Hk HF. destruct (list_case cr) as [Ecr|(a & cr' & Ecr)]; rewrite Ecr in E |- *.
+    - cbn [app] in E. injection E as -> ->. unfold stepS at 1. change (10 =? 10) with true. cbv iota.
+      rewrite blen_nil, Z.add_0_r. destruct rest as [|c0 r0].
+      + rewrite scan_direct_punct_eof; [|reflexivity|exact punct_lf]. eexists; exists (k + 1). split; [|reflexivity]. reflexivity.
+      + rewrite scan_direct_punct; [|reflexivity|exact punct_lf|exact Hh]. eexists; exists (k + 1). split; [|reflexivity]. reflexivity.
+    - cbn [app] in E. injection E as -> ->.
+      assert (Ha : a = 32 \/ a = 13) by (pose proof Hcr as H; rewrite Ecr in H; inversion H; assumption).
+      assert (Hw' : wsrun ws_sig_newline cr').
+      { pose proof (cr_wsrun ws_sig_newline (or_intror (or_introl eq_refl))) as H. rewrite Ecr in H. inversion H. assumption. }
+      assert (Hn : nl_count cr' = 0) by (pose proof cr_nl as H; rewrite Ecr, nl_count_cons in H; destruct Ha as [-> | ->]; exact H).
+      rewrite stepS_plain by (destruct Ha as [-> | ->]; discriminate).
+      destruct (sc_scan_run cr' a 10 rest [a] (P + 1) l (k + 1) ll ws_sig_newline) as (k' & ll' & Es & Hk' & _ & _);
+        try assumption; try lia; try reflexivity; [rewrite Ecr in HF; cbn [length] in HF; lia|destruct Ha as [-> | ->]; reflexivity|unfold ascii; lia|].
+      rewrite Es. unfold stepS at 1. change (10 =? 10) with true. cbv iota. rewrite Hn, Z.add_0_r.
+      replace (P + blen (a :: cr') + 1) with (P + 1 + blen cr' + 1) by (rewrite blen_cons; lia).
+      destruct rest as [|c0 r0].
+      + rewrite scan_body_punct_eof by exact punct_lf. eexists; exists (k' + 1). split; [|reflexivity]. reflexivity.
+      + rewrite scan_body_punct; [|exact punct_lf|exact Hh]. eexists; exists (k' + 1). split; [|reflexivity]. reflexivity.
   Qed.
 
   (** the continuation of parse_nodes after the colon *)
@@ -743,58 +1063,39 @@ Section RT.
     use_whitespace ws_default ;;
     ret (G names).
 
-  (** the line end is the pending character, newline-significant mode: the tail consumes it *)
-  Lemma nodes_tail_run : forall G names rest P line K, rest_ok rest ->
-    exists st', nodes_tail G names (PS (mkS rest [10] P line 0 K 10 ws_sig_newline) None) = POk (G names) st'
-                /\ Ready line P rest st'.
+  (** the line end follows, newline-significant mode: the tail consumes it *)
+  Lemma nodes_tail_run : forall G names rest c r P l k ll, c :: r = cr ++ 10 :: rest -> rest_ok rest -> 0 <= k ->
+    (length cr + 1 <= F)%nat ->
+    exists tok s', t_typ tok = 10 /\ sc_scan (stepS c r P l k ll c ws_sig_newline) = SOk (tok, s') /\
+    exists st', nodes_tail G names (PS s' (Some tok)) = POk (G names) st'
+                /\ Ready SL (l + 1) (P + blen cr + 1) rest st'.
   Proof.
-    intros G names rest P line K Hok. unfold nodes_tail, bind. rewrite peek_token_scan.
-    destruct Hok as [->|(kw & c & r & -> & (c0 & t & -> & H0 & Ht) & Hc & Hnc & Hf)].
-    - rewrite scan_direct_punct_eof; [|reflexivity|exact punct_lf].
-      cbn [t_typ]. change (10 =? EOF) with false. cbn [negb].
-      erewrite p_token_look by reflexivity. unfold use_whitespace, ret. cbn [p_sc p_look PS set_ws mkS].
-      eexists. split; [reflexivity|]. apply (ready_B [] P line K).
-    - destruct (id0_ge c0 H0) as (H33 & Ha0 & H10). cbn [app].
-      rewrite scan_direct_punct; [|reflexivity|exact punct_lf|assumption].
-      cbn [t_typ]. change (10 =? EOF) with false. cbn [negb].
-      erewrite p_token_look by reflexivity. unfold use_whitespace, ret. cbn [p_sc p_look PS].
-      rewrite set_ws_stepS, stepS_plain by assumption.
-      eexists. split; [reflexivity|]. apply (ready_B (c0 :: t ++ c :: r) P line K).
+    intros G names rest c r P l k ll E Hok Hk HF.
+    destruct (scan_eol_nl rest c r P l k ll E (rest_ok_head _ Hok) Hk HF) as (tok & K' & Ht & Es).
+    exists tok, (after_lf ws_sig_newline (l + 1) (P + blen cr + 1) K' rest). split; [exact Ht|]. split; [exact Es|].
+    unfold nodes_tail, bind. rewrite peek_token_look. rewrite Ht. change (10 =? EOF) with false. cbn [negb].
+    erewrite p_token_look by exact Ht. unfold use_whitespace, ret. cbn [p_sc p_look PS]. rewrite set_ws_after_lf.
+    eexists. split; [reflexivity|]. apply ready_B.
   Qed.
 
   (** the node list: [c :: r'] is what follows the previous token *)
   Lemma nodes_loop_run : forall G ns f racc c r' rest P line k ll,
-    c :: r' = sp_list (fun n => n) ns ++ 10 :: rest -> Forall (fun n => ident_valid n = true) ns -> rest_ok rest ->
-    (length ns < f)%nat -> (length (sp_list (fun n => n) ns) + 2 < F)%nat -> 0 <= k ->
+    c :: r' = sp_list (fun n => n) ns ++ cr ++ 10 :: rest -> Forall (fun n => ident_valid n = true) ns -> rest_ok rest ->
+    (length ns < f)%nat -> (length (sp_list (fun n => n) ns) + length cr + 2 < F)%nat -> 0 <= k ->
     exists st', bind (ident_list_loop il id F f racc) (nodes_tail G) (PS (stepS c r' P line k ll c ws_sig_newline) None)
                 = POk (G (rev racc ++ ns)) st'
-                /\ Ready (line + 1) (P + blen (sp_list (fun n => n) ns) + 1) rest st'.
+                /\ Ready SL (line + 1) (P + blen (sp_list (fun n => n) ns) + blen cr + 1) rest st'.
   Proof.
-    intros G ns. induction ns as [|n ns IH]; intros f racc c r' rest P line k ll Hcr Hv Hok Hf HF Hk.
-    - cbn in Hcr. injection Hcr as -> ->. destruct f as [|f]; [lia|].
+    intros G ns. induction ns as [|n ns IH]; intros f racc c r' rest P line k ll Hcr' Hv Hok Hf HF Hk.
+    - cbn [sp_list map concat app] in Hcr'. destruct f as [|f]; [lia|].
       unfold bind at 1. cbn [ident_list_loop]. unfold bind at 1. rewrite peek_token_scan.
-      unfold stepS at 1. change (10 =? 10) with true. cbv iota.
-      (* the loop stops at the line end token; re-run the peek inside the tail *)
-      destruct (nodes_tail_run G (rev racc ++ []) rest (P + 1) (line + 1) (k + 1) Hok) as (st' & E & HR).
-      assert (Hstop : forall tok s', t_typ tok = 10 ->
-                (if t_typ tok =? TIdent
-                 then plet id0 <- p_identifier il id F; ident_list_loop il id F f (id0 :: racc)
-                 else ret (rev racc)) (PS s' (Some tok)) = POk (rev racc) (PS s' (Some tok))).
-      { intros tok s' Ht. rewrite Ht. reflexivity. }
-      unfold nodes_tail, bind in E. rewrite peek_token_scan in E.
-      destruct (sc_scan (mkS rest [10] (P + 1) (line + 1) 0 (k + 1) 10 ws_sig_newline)) as [[tok s']|pp kk|] eqn:Es;
-        try discriminate.
-      assert (Ht : t_typ tok = 10).
-      { destruct Hok as [->|(kw & c & r & -> & (c0 & t & -> & H0 & Ht0) & Hc & Hnc & Hf0)].
-        - rewrite scan_direct_punct_eof in Es; [|reflexivity|exact punct_lf]. injection Es as <- _. reflexivity.
-        - destruct (id0_ge c0 H0) as (H33 & Ha0 & H10). cbn [app] in Es.
-          rewrite scan_direct_punct in Es; [|reflexivity|exact punct_lf|assumption]. injection Es as <- _. reflexivity. }
-      rewrite (Hstop tok s' Ht). unfold nodes_tail, bind. rewrite peek_token_look.
+      destruct (nodes_tail_run G (rev racc ++ []) rest c r' P line k ll Hcr' Hok Hk ltac:(lia)) as (tok & s' & Ht & Es & st' & E & HR).
+      rewrite Es. rewrite Ht. change (10 =? TIdent) with false. cbv iota. unfold ret at 1.
       rewrite app_nil_r in *. exists st'. split; [exact E|].
       cbn [sp_list map concat]. rewrite blen_nil, Z.add_0_r. exact HR.
-    - cbn [sp_list map concat app] in Hcr. injection Hcr as -> ->.
+    - cbn [sp_list map concat app] in Hcr'. injection Hcr' as -> ->.
       inversion Hv as [|? ? Hn Hv']; subst. destruct (ident_valid_shape n Hn) as (c0 & t & -> & H0 & Ht).
-      destruct (sp_list_head ns rest) as (c2 & r2 & E2 & Hc2 & Hnc2 & _).
+      destruct (sp_list_head ns rest) as (c2 & r2 & E2 & Hc2 & Hnc2).
       fold (sp_list (fun n : bytes => n) ns). rewrite <- app_assoc. rewrite E2.
       destruct f as [|f]; [cbn in Hf; lia|].
       assert (HFn : (length t + 2 < F)%nat).
@@ -805,7 +1106,7 @@ Section RT.
       cbn [t_typ]. change (TIdent =? TIdent) with true. cbv iota. unfold bind at 1.
       rewrite p_identifier_look; [|reflexivity|exact Hn]. cbn [t_txt].
       assert (A1 : (length ns < f)%nat) by (cbn in Hf; lia).
-      assert (A2 : (length (sp_list (fun n : bytes => n) ns) + 2 < F)%nat).
+      assert (A2 : (length (sp_list (fun n : bytes => n) ns) + length cr + 2 < F)%nat).
       { cbn [sp_list map concat] in HF. rewrite app_length in HF. cbn [length] in HF. unfold sp_list. lia. }
       assert (A3 : 0 <= k + 1 + 1 + blen t) by (pose proof (blen_nonneg t); lia).
       destruct (IH f ((c0 :: t) :: racc) c2 r2 rest (P + 1 + 1 + blen t) line (k + 1 + 1 + blen t) ll
@@ -814,8 +1115,8 @@ Section RT.
       + unfold bind in E at 1. cbn [rev] in E. rewrite <- app_assoc in E. exact E.
       + cbn [sp_list map concat]. fold (sp_list (fun n : bytes => n) ns).
         rewrite blen_app, !blen_cons.
-        replace (P + (1 + (1 + blen t) + blen (sp_list (fun n : bytes => n) ns)) + 1)
-          with (P + 1 + 1 + blen t + blen (sp_list (fun n : bytes => n) ns) + 1) by lia. exact HR.
+        replace (P + (1 + (1 + blen t) + blen (sp_list (fun n : bytes => n) ns)) + blen cr + 1)
+          with (P + 1 + 1 + blen t + blen (sp_list (fun n : bytes => n) ns) + blen cr + 1) by lia. exact HR.
   Qed.
 
   Lemma sp_list_length_ge : forall A (f : A -> bytes) xs, (length xs <= length (sp_list f xs))%nat.
@@ -825,10 +1126,10 @@ Section RT.
   Qed.
 
   Lemma step_nodes : forall ns rest line off ll, Forall (fun n => ident_valid n = true) ns -> rest_ok rest ->
-    (length (sp_list (fun n => n) ns) + 8 < F)%nat ->
-    exists st', parse_nodes il id F (canon line off kw_nodes 58 (sp_list (fun n => n) ns ++ 10 :: rest) ll)
+    (length (sp_list (fun n => n) ns) + length cr + 8 < F)%nat ->
+    exists st', parse_nodes il id F (canon line off kw_nodes 58 (sp_list (fun n => n) ns ++ cr ++ 10 :: rest) ll)
                 = POk (DNodes {| p_line := line; p_column := 1; p_offset := off |} ns) st'
-                /\ Ready (line + 1) (off + blen (print_def (SNodes ns))) rest st'.
+                /\ Ready SL (line + 1) (off + blen (print_def cr (SNodes ns))) rest st'.
   Proof.
     intros ns rest line off ll Hv Hok HF. pose proof (sp_list_length_ge _ (fun n : bytes => n) ns) as Hge.
     unfold parse_nodes, canon.
@@ -836,27 +1137,19 @@ Section RT.
     unfold bind at 1. rewrite p_keyword_canon.
     unfold bind at 1. unfold p_token at 1. unfold bind at 1. rewrite next_token_scan.
     rewrite stepS_plain by discriminate.
-    destruct (sp_list_head ns rest) as (c & r' & Ec & Hc & Hnc & _). rewrite Ec.
+    destruct (sp_list_head ns rest) as (c & r' & Ec & Hc & Hnc). rewrite Ec.
     rewrite scan_direct_punct; [|reflexivity|exact punct_colon|assumption].
     cbn [t_typ]. change (58 =? c_colon) with true. cbn [negb]. unfold ret at 1.
     destruct (nodes_loop_run (DNodes {| p_line := line; p_column := 1; p_offset := off |}) ns F [] c r' rest
                 (off + blen kw_nodes + 1) line (blen kw_nodes + 1) ll (eq_sym Ec) Hv Hok) as (st' & E & HR);
       [lia|lia|unfold blen, kw_nodes; cbn; lia|].
     exists st'. split; [exact E|].
-    match goal with |- Ready _ ?X _ _ => replace X with (off + blen kw_nodes + 1 + blen (sp_list (fun n : bytes => n) ns) + 1) end;
+    match goal with |- Ready _ _ ?X _ _ => replace X with (off + blen kw_nodes + 1 + blen (sp_list (fun n : bytes => n) ns) + blen cr + 1) end;
       [exact HR|].
-    cbn [print_def]. rewrite blen_app, !blen_cons, blen_app, !blen_cons, blen_nil. lia.
+    cbn [print_def]. rewrite blen_app, !blen_cons, blen_app, blen_app, !blen_cons, blen_nil. lia.
   Qed.
 
   (** ------------------------------------------------------------ unknown lines *)
-
-  Lemma sp_list_head' : forall A (f : A -> bytes) (xs : list A) rest, exists c r,
-    sp_list f xs ++ 10 :: rest = c :: r /\ ascii c /\ idc c = false /\ numterm c.
-  Proof.
-    intros A f xs rest. destruct xs as [|x xs]; cbn.
-    - exists 10, rest. split; [reflexivity|]. split; [unfold ascii; lia|]. split; [reflexivity|exact numterm_lf].
-    - eexists 32, _. split; [reflexivity|]. split; [unfold ascii; lia|]. split; [reflexivity|exact numterm_sp].
-  Qed.
 
   Lemma upunct_punct : forall p, upunct p -> punct p /\ 33 <= p /\ p <> 10.
   Proof. intros p ((? & ?) & ? & ? & ?). repeat split; try assumption; unfold ascii; lia. Qed.
@@ -868,39 +1161,33 @@ Section RT.
 
   (** discarding the tokens of an unknown line up to and including its line end *)
   Lemma discard_run : forall ts f c r' rest P line k ll,
-    c :: r' = sp_list print_utok ts ++ 10 :: rest -> Forall wf_utok ts -> rest_ok rest ->
-    (length ts < f)%nat -> (length (sp_list print_utok ts) + 2 < F)%nat -> 0 <= k ->
+    c :: r' = sp_list print_utok ts ++ cr ++ 10 :: rest -> Forall wf_utok ts -> rest_ok rest ->
+    (length ts < f)%nat -> (length (sp_list print_utok ts) + length cr + 2 < F)%nat -> 0 <= k ->
     exists S' K, discard_loop il id F f (PS (stepS c r' P line k ll c ws_sig_newline) None) = POk tt (PS S' None)
-                 /\ set_ws S' ws_default = shapeB (line + 1) (P + blen (sp_list print_utok ts) + 1) K rest.
+                 /\ set_ws S' ws_default = shapeB (line + 1) (P + blen (sp_list print_utok ts) + blen cr + 1) K rest.
   Proof.
-    induction ts as [|t ts IH]; intros f c r' rest P line k ll Hcr Hv Hok Hf HF Hk.
-    - cbn in Hcr. injection Hcr as -> ->. destruct f as [|f]; [lia|].
+    induction ts as [|t ts IH]; intros f c r' rest P line k ll Hcr' Hv Hok Hf HF Hk.
+    - cbn [sp_list map concat app] in Hcr'. destruct f as [|f]; [lia|].
       cbn [discard_loop]. unfold bind at 1. rewrite next_token_scan.
-      unfold stepS at 1. change (10 =? 10) with true. cbv iota.
       cbn [sp_list map concat]. rewrite blen_nil, Z.add_0_r.
-      destruct Hok as [->|(kw & c & r & -> & (c0 & t & -> & H0 & Ht0) & Hc & Hnc & Hf0)].
-      + rewrite scan_direct_punct_eof; [|reflexivity|exact punct_lf].
-        cbn [t_typ]. change (10 =? c_nl) with true. cbn [orb]. unfold ret.
-        eexists; exists (k + 1). split; [reflexivity|]. reflexivity.
-      + destruct (id0_ge c0 H0) as (H33 & Ha0 & H10). cbn [app].
-        rewrite scan_direct_punct; [|reflexivity|exact punct_lf|assumption].
-        cbn [t_typ]. change (10 =? c_nl) with true. cbn [orb]. unfold ret.
-        eexists; exists (k + 1). split; [reflexivity|]. rewrite set_ws_stepS, stepS_plain by assumption. reflexivity.
-    - cbn [sp_list map concat app] in Hcr. injection Hcr as -> ->.
+      destruct (scan_eol_nl rest c r' P line k ll Hcr' (rest_ok_head _ Hok) Hk ltac:(lia)) as (tok & K' & Ht & Es).
+      rewrite Es. rewrite Ht. change (10 =? c_nl) with true. cbn [orb]. unfold ret.
+      eexists; exists K'. split; [reflexivity|]. apply set_ws_after_lf.
+    - cbn [sp_list map concat app] in Hcr'. injection Hcr' as -> ->.
       inversion Hv as [|? ? Ht Hv']; subst.
       destruct (sp_list_head' _ print_utok ts rest) as (c2 & r2 & E2 & Hc2 & Hnc2 & Hnt2).
       fold (sp_list print_utok ts). rewrite <- app_assoc. rewrite E2.
       destruct f as [|f]; [cbn in Hf; lia|].
       assert (A1 : (length ts < f)%nat) by (cbn in Hf; lia).
-      assert (HFt : (length (print_utok t) + length (sp_list print_utok ts) + 3 < F)%nat).
+      assert (HFt : (length (print_utok t) + length (sp_list print_utok ts) + length cr + 3 < F)%nat).
       { cbn [sp_list map concat] in HF. rewrite app_length in HF. cbn [length] in HF. unfold sp_list. lia. }
-      assert (A2 : (length (sp_list print_utok ts) + 2 < F)%nat) by lia.
+      assert (A2 : (length (sp_list print_utok ts) + length cr + 2 < F)%nat) by lia.
       pose proof (blen_nonneg (print_utok t)) as Hnb.
       assert (A3 : 0 <= k + 1 + blen (print_utok t)) by lia.
       destruct (IH f c2 r2 rest (P + 1 + blen (print_utok t)) line (k + 1 + blen (print_utok t)) ll
                   (eq_sym E2) Hv' Hok A1 A2 A3) as (S' & K & E & HS).
-      assert (Hfin : P + 1 + blen (print_utok t) + blen (sp_list print_utok ts) + 1
-                     = P + blen (sp_list print_utok (t :: ts)) + 1).
+      assert (Hfin : P + 1 + blen (print_utok t) + blen (sp_list print_utok ts) + blen cr + 1
+                     = P + blen (sp_list print_utok (t :: ts)) + blen cr + 1).
       { cbn [sp_list map concat]. fold (sp_list print_utok ts). rewrite blen_app, blen_cons. lia. }
       rewrite Hfin in HS.
       cbn [discard_loop]. unfold bind at 1. rewrite next_token_scan. rewrite stepS_plain by discriminate.
@@ -920,25 +1207,25 @@ Section RT.
   Qed.
 
   Lemma step_unknown : forall kw ts c r rest line off ll,
-    c :: r = sp_list print_utok ts ++ 10 :: rest -> Forall wf_utok ts -> rest_ok rest ->
-    (length (sp_list print_utok ts) + 4 < F)%nat ->
+    c :: r = sp_list print_utok ts ++ cr ++ 10 :: rest -> Forall wf_utok ts -> rest_ok rest ->
+    (length (sp_list print_utok ts) + length cr + 4 < F)%nat ->
     exists st', parse_unknown il id F (canon line off kw c r ll)
                 = POk (DUnknown {| p_line := line; p_column := 1; p_offset := off |} kw) st'
-                /\ Ready (line + 1) (off + blen (print_def (SUnknown kw ts))) rest st'.
+                /\ Ready SL (line + 1) (off + blen (print_def cr (SUnknown kw ts))) rest st'.
   Proof.
-    intros kw ts c r rest line off ll Hcr Hv Hok HF. pose proof (sp_list_length_ge _ print_utok ts) as Hge.
+    intros kw ts c r rest line off ll Hcr' Hv Hok HF. pose proof (sp_list_length_ge _ print_utok ts) as Hge.
     unfold parse_unknown, parse_unknown_with, canon.
     unfold bind at 1. rewrite peek_token_look. unfold bind at 1. unfold discard_line.
     unfold bind at 1. unfold use_whitespace at 1. cbn [p_sc p_look PS]. rewrite set_ws_stepS.
     unfold bind at 1. destruct F as [|f] eqn:EF; [lia|]. cbn [discard_loop]. rewrite <- EF.
     unfold bind at 1. rewrite next_token_look. cbn [t_typ kwtok]. rewrite discard_continue by (left; reflexivity).
     pose proof (blen_nonneg kw) as Hnk.
-    destruct (discard_run ts f c r rest (off + blen kw) line (blen kw) ll Hcr Hv Hok) as (S' & K & E & HS); [lia|lia|lia|].
+    destruct (discard_run ts f c r rest (off + blen kw) line (blen kw) ll Hcr' Hv Hok) as (S' & K & E & HS); [lia|lia|lia|].
     rewrite E. unfold use_whitespace, ret. cbn [p_sc p_look PS t_pos t_txt]. rewrite HS.
     eexists. split; [reflexivity|].
-    replace (off + blen (print_def (SUnknown kw ts))) with (off + blen kw + blen (sp_list print_utok ts) + 1);
-      [apply (ready_B rest)|].
-    cbn [print_def]. rewrite blen_app, blen_app, blen_cons, blen_nil. lia.
+    replace (off + blen (print_def cr (SUnknown kw ts))) with (off + blen kw + blen (sp_list print_utok ts) + blen cr + 1);
+      [apply (ready_B SL rest)|].
+    cbn [print_def]. rewrite blen_app, blen_app, blen_app, blen_cons, blen_nil. lia.
   Qed.
 
   (** ------------------------------------------------------------ BO_ / SG_ : readers after a space *)
@@ -1157,30 +1444,30 @@ Section RT.
   Qed.
 
   Lemma comma_list_head : forall rs rest, exists c r,
-    comma_list rs ++ 10 :: rest = c :: r /\ ascii c /\ idc c = false.
+    comma_list rs ++ cr ++ 10 :: rest = c :: r /\ ascii c /\ idc c = false.
   Proof.
     intros rs rest. destruct rs as [|x xs]; cbn.
-    - exists 10, rest. split; [reflexivity|]. split; [unfold ascii; lia|reflexivity].
+    - destruct (eol_head rest) as (c & r & E & Hc). exists c, r. split; [exact E|].
+      split; [apply blank_ascii; assumption|apply blank_not_idc; assumption].
     - eexists 32, _. split; [reflexivity|]. split; [unfold ascii; lia|reflexivity].
   Qed.
 
   (** the receiver loop; it ends by peeking the first token of the next line *)
   Lemma comma_idents_run : forall rs f racc c r' following P line k ll,
-    c :: r' = comma_list rs ++ 10 :: following -> Forall (fun r => ident_valid r = true) rs -> rest_ok following ->
+    c :: r' = comma_list rs ++ cr ++ 10 :: following -> Forall (fun r => ident_valid r = true) rs -> rest_ok following ->
     (length rs < f)%nat -> (length (comma_list rs) + 3 < F)%nat -> 0 <= k ->
     exists st', comma_idents_loop il id F f racc (PS (stepS c r' P line k ll c ws_default) None)
                 = POk (rev racc ++ rs) st'
-                /\ Ready (line + 1) (P + blen (comma_list rs) + 1) following st'.
+                /\ Ready SL (line + 1) (P + blen (comma_list rs) + blen cr + 1) following st'.
   Proof.
-    induction rs as [|x rs IH]; intros f racc c r' following P line k ll Hcr Hv Hok Hf HF Hk.
-    - cbn in Hcr. injection Hcr as -> ->. destruct f as [|f]; [lia|].
+    induction rs as [|x rs IH]; intros f racc c r' following P line k ll Hcr' Hv Hok Hf HF Hk.
+    - cbn [comma_list map concat app] in Hcr'. destruct f as [|f]; [lia|].
       cbn [comma_idents_loop]. unfold bind at 1.
-      unfold stepS. change (10 =? 10) with true. cbv iota.
-      pose proof (ready_A following [10] (P + 1) (line + 1) (k + 1) ltac:(lia)) as HR.
+      pose proof (ready_eol following c r' P line k ll Hcr' Hk) as HR.
       destruct (ready_peek _ _ _ _ HR Hok) as (tok & st' & Ep & Hty & HR').
       destruct (typ_flags tok Hty) as (_ & _ & E3). rewrite Ep, E3. unfold ret. rewrite app_nil_r.
       exists st'. split; [reflexivity|]. cbn [comma_list map concat]. rewrite blen_nil, Z.add_0_r. exact HR'.
-    - cbn [comma_list map concat app] in Hcr. injection Hcr as -> ->. fold (comma_list rs).
+    - cbn [comma_list map concat app] in Hcr'. injection Hcr' as -> ->. fold (comma_list rs).
       inversion Hv as [|? ? Hx Hv']; subst.
       destruct (comma_list_head rs following) as (c2 & r2 & E2 & Hc2 & Hnc2).
       rewrite <- app_assoc. rewrite E2.
@@ -1199,8 +1486,8 @@ Section RT.
       exists st'. split.
       + rewrite E. cbn [rev]. rewrite <- app_assoc. reflexivity.
       + cbn [comma_list map concat]. fold (comma_list rs). rewrite blen_app, !blen_cons.
-        replace (P + (1 + (1 + (1 + blen x)) + blen (comma_list rs)) + 1)
-          with (P + 1 + 1 + 1 + blen x + blen (comma_list rs) + 1) by lia. exact HR.
+        replace (P + (1 + (1 + (1 + blen x)) + blen (comma_list rs)) + blen cr + 1)
+          with (P + 1 + 1 + 1 + blen x + blen (comma_list rs) + blen cr + 1) by lia. exact HR.
   Qed.
 
   (** ------------------------------------------------------------ SG_ *)
@@ -1212,9 +1499,9 @@ Section RT.
     :: 32 :: 40 :: 32 :: print_num (ss_factor s) ++ 32 :: 44 :: 32 :: print_num (ss_offset s)
     ++ 32 :: 41 :: 32 :: 91 :: 32 :: print_num (ss_min s) ++ 32 :: 124 :: 32 :: print_num (ss_max s)
     ++ 32 :: 93 :: 32 :: 34 :: ss_unit s ++ 34 :: 32 :: ss_receiver s
-    ++ comma_list (ss_receivers s) ++ 10 :: fol.
+    ++ comma_list (ss_receivers s) ++ cr ++ 10 :: fol.
 
-  Lemma print_signal_eq : forall s fol, print_signal s ++ fol = kw_signal ++ 32 :: signal_body s fol.
+  Lemma print_signal_eq : forall s fol, print_signal cr s ++ fol = kw_signal ++ 32 :: signal_body s fol.
   Proof.
     intros. unfold print_signal, signal_body, comma_list.
     repeat (rewrite <- app_assoc; cbn [app]). reflexivity.
@@ -1295,7 +1582,7 @@ Section RT.
     :: 32 :: 40 :: 32 :: print_num (ss_factor s) ++ 32 :: 44 :: 32 :: print_num (ss_offset s)
     ++ 32 :: 41 :: 32 :: 91 :: 32 :: print_num (ss_min s) ++ 32 :: 124 :: 32 :: print_num (ss_max s)
     ++ 32 :: 93 :: 32 :: 34 :: ss_unit s ++ 34 :: 32 :: ss_receiver s
-    ++ comma_list (ss_receivers s) ++ 10 :: fol.
+    ++ comma_list (ss_receivers s) ++ cr ++ 10 :: fol.
 
   Lemma signal_body_eq : forall s fol,
     signal_body s fol = ss_name s ++ print_mux (ss_mux s) ++ 32 :: 58 :: 32 :: signal_rest s fol.
@@ -1316,7 +1603,7 @@ Section RT.
                          sg_offset := num_bits (ss_offset s); sg_factor := num_bits (ss_factor s);
                          sg_min := num_bits (ss_min s); sg_max := num_bits (ss_max s);
                          sg_unit := ss_unit s; sg_receivers := ss_receiver s :: ss_receivers s |} st'
-                /\ Ready (line + 1) (P + blen (signal_rest s fol) - blen fol) fol st'.
+                /\ Ready SL (line + 1) (P + blen (signal_rest s fol) - blen fol) fol st'.
   Proof.
     intros s fol kwpos nm a b c P line K ll Hw Hok HF HK.
     destruct s as [name mux start size be sg factor offset mn mx unit rcv rcvs].
@@ -1360,8 +1647,8 @@ Section RT.
     rewrite E. unfold ret. cbn [rev app].
     exists st'. split.
     - destruct be, sg; reflexivity.
-    - match goal with |- Ready _ ?X _ _ => match type of HR with Ready _ ?Y _ _ => replace X with Y end end; [exact HR|].
-      assert (Hl2 : 1 + blen r2 = blen (comma_list rcvs) + 1 + blen fol) by (rewrite <- (blen_cons c2 r2), <- E2, blen_app, blen_cons; lia).
+    - match goal with |- Ready _ _ ?X _ _ => match type of HR with Ready _ _ ?Y _ _ => replace X with Y end end; [exact HR|].
+      assert (Hl2 : 1 + blen r2 = blen (comma_list rcvs) + blen cr + 1 + blen fol) by (rewrite <- (blen_cons c2 r2), <- E2, blen_app, blen_app, blen_cons; lia).
       repeat (rewrite blen_app || rewrite blen_cons). lia.
   Qed.
 
@@ -1369,7 +1656,7 @@ Section RT.
   Proof. intros ds H. unfold uint_value. apply (fold_uint_ge ds 0); [lia|exact H]. Qed.
 
   Lemma print_signal_len : forall s fol,
-    (length (print_signal s) + length fol
+    (length (print_signal cr s) + length fol
      = 7 + length (ss_name s) + length (print_mux (ss_mux s)) + length (signal_rest s fol))%nat.
   Proof.
     intros s fol. pose proof (f_equal (@length Z) (print_signal_eq s fol)) as H. rewrite signal_body_eq in H.
@@ -1377,21 +1664,21 @@ Section RT.
     unfold kw_signal in H. cbn [length] in H. lia.
   Qed.
 
-  Lemma signal_rest_len : forall s fol, (length fol + 20 <= length (signal_rest s fol))%nat.
+  Lemma signal_rest_len : forall s fol, (length fol + length cr + 20 <= length (signal_rest s fol))%nat.
   Proof. intros. unfold signal_rest. repeat (rewrite app_length || cbn [length]). lia. Qed.
 
-  Lemma print_signal_ge : forall s, (27 <= length (print_signal s))%nat.
+  Lemma print_signal_ge : forall s, (27 + length cr <= length (print_signal cr s))%nat.
   Proof. intros s. pose proof (print_signal_len s []). pose proof (signal_rest_len s []). cbn [length] in *. lia. Qed.
 
   Lemma step_signal : forall s fol line off ll, wf_signal s -> rest_ok fol ->
-    (length (print_signal s) + 4 <= F)%nat ->
+    (length (print_signal cr s) + 4 <= F)%nat ->
     exists st', parse_signal il id F (canon line off kw_signal 32 (signal_body s fol) ll)
                 = POk (elab_signal line off s) st'
-                /\ Ready (line + 1) (off + blen (print_signal s)) fol st'.
+                /\ Ready SL (line + 1) (off + blen (print_signal cr s)) fol st'.
   Proof.
     intros s fol line off ll Hw Hok HF.
     pose proof (print_signal_len s fol) as Hlen. pose proof (signal_rest_len s fol) as Hsr.
-    assert (Hblen : blen (print_signal s) + blen fol
+    assert (Hblen : blen (print_signal cr s) + blen fol
                     = 7 + blen (ss_name s) + blen (print_mux (ss_mux s)) + blen (signal_rest s fol)) by (unfold blen; lia).
     pose proof Hw as (Hname & Hmux & _).
     pose proof (blen_nonneg (ss_name s)) as Hnn. pose proof (blen_nonneg (print_mux (ss_mux s))) as Hnm.
@@ -1416,7 +1703,7 @@ Section RT.
       exists st'. split.
       + rewrite E. unfold elab_signal. rewrite Em. reflexivity.
       + change (blen []) with 0 in *.
-        match goal with |- Ready _ ?X _ _ => match type of HR with Ready _ ?Y _ _ => replace X with Y by lia end end. exact HR.
+        match goal with |- Ready _ _ ?X _ _ => match type of HR with Ready _ _ ?Y _ _ => replace X with Y by lia end end. exact HR.
     - (* multiplexer switch *)
       unfold bind at 1. rewrite p_identifier_ws; try assumption; try reflexivity; try lia; [|unfold ascii; lia].
       rewrite stepS_plain by discriminate.
@@ -1434,7 +1721,7 @@ Section RT.
       exists st'. split.
       + rewrite E. unfold elab_signal. rewrite Em. reflexivity.
       + change (blen [32; 77]) with 2 in *.
-        match goal with |- Ready _ ?X _ _ => match type of HR with Ready _ ?Y _ _ => replace X with Y by lia end end. exact HR.
+        match goal with |- Ready _ _ ?X _ _ => match type of HR with Ready _ _ ?Y _ _ => replace X with Y by lia end end. exact HR.
     - (* multiplexed signal m<k> *)
       cbn [wf_mux] in Hmux. destruct Hmux as (Hds & Hlt). pose proof Hds as (d0 & t & Eds & Hd0 & Hdt & Hz0).
       assert (Hdec : Forall (fun a => is_decimal a = true) ds) by (subst ds; constructor; assumption).
@@ -1461,38 +1748,44 @@ Section RT.
       exists st'. split.
       + rewrite E. unfold elab_signal. rewrite Em. reflexivity.
       + rewrite !blen_cons in *.
-        match goal with |- Ready _ ?X _ _ => match type of HR with Ready _ ?Y _ _ => replace X with Y by lia end end. exact HR.
+        match goal with |- Ready _ _ ?X _ _ => match type of HR with Ready _ _ ?Y _ _ => replace X with Y by lia end end. exact HR.
   Qed.
 
   (** ------------------------------------------------------------ BO_ *)
 
   (** what may follow a definition at top level: nothing, or a line whose keyword is not SG_ *)
-  Definition rest_top (rest : bytes) : Prop :=
-    rest = [] \/ exists kw c r, rest = kw ++ c :: r /\ is_ident kw /\ ascii c /\ idc c = false /\ (length kw + 2 < F)%nat
-                               /\ bytes_eqb kw kw_signal = false.
+  Definition rest_top0 (n : nat) (rest : bytes) : Prop :=
+    (rest = [] /\ (n + 1 <= F)%nat) \/
+    exists kw c r, rest = kw ++ c :: r /\ is_ident kw /\ ascii c /\ idc c = false /\ (n + length kw + 2 < F)%nat
+                   /\ bytes_eqb kw kw_signal = false.
+
+  Definition rest_top (X : bytes) : Prop :=
+    exists g rest, X = g ++ rest /\ blank_block g /\ rest_top0 (SL + length g) rest.
 
   Lemma rest_top_ok : forall rest, rest_top rest -> rest_ok rest.
   Proof.
-    intros rest [->|(kw & c & r & E & Hk & Hc & Hnc & Hf & _)]; [left; reflexivity|right].
+    intros X (g & rest & -> & Hg & H). exists g, rest. split; [reflexivity|]. split; [exact Hg|].
+    destruct H as [H|(kw & c & r & E & Hk & Hc & Hnc & Hf & _)]; [left; exact H|right].
     exists kw, c, r. auto.
   Qed.
 
-  Definition signals_text (sigs : list ssignal) : bytes := concat (map print_signal sigs).
+  Definition signals_text (sigs : list ssignal) : bytes := concat (map (print_signal cr) sigs).
 
   Lemma is_ident_signal : is_ident kw_signal.
   Proof. exists 83, [71; 95]. split; [reflexivity|]. split; [reflexivity|]. repeat constructor. Qed.
 
   Lemma signals_run : forall sigs f racc fol line off st,
     Forall wf_signal sigs -> rest_top fol -> (length (signals_text sigs) + 4 <= F)%nat ->
-    Ready line off (signals_text sigs ++ fol) st -> (length sigs < f)%nat ->
-    exists st', signals_loop il id F f racc st = POk (rev racc ++ elab_signals line off sigs) st'
-                /\ Ready (line + Z.of_nat (length sigs)) (off + blen (signals_text sigs)) fol st'.
+    Ready SL line off (signals_text sigs ++ fol) st -> (length sigs < f)%nat ->
+    exists st', signals_loop il id F f racc st = POk (rev racc ++ elab_signals cr line off sigs) st'
+                /\ Ready SL (line + Z.of_nat (length sigs)) (off + blen (signals_text sigs)) fol st'.
   Proof.
     induction sigs as [|s sigs IH]; intros f racc fol line off st Hw Htop HF HR Hf; (destruct f as [|f]; [cbn in Hf; lia|]).
     - cbn [signals_text map concat app elab_signals length] in *. rewrite app_nil_r, blen_nil, !Z.add_0_r.
-      cbn [signals_loop]. unfold bind at 1. pose proof HR as (H1 & H2).
-      destruct Htop as [->|(kw & c & r & -> & Hk & Hc & Hnc & Hfk & Hns)].
-      + destruct (H1 eq_refl) as (tok & st' & Ep & Ht). rewrite Ep, Ht. change (EOF =? TIdent) with false. cbn [negb].
+      cbn [signals_loop]. unfold bind at 1. destruct Htop as (g & rest & -> & Hg & Htop).
+      pose proof (HR g rest eq_refl Hg) as (H1 & H2).
+      destruct Htop as [(-> & Hfk)|(kw & c & r & -> & Hk & Hc & Hnc & Hfk & Hns)].
+      + destruct (H1 eq_refl Hfk) as (tok & st' & Ep & Ht). rewrite Ep, Ht. change (EOF =? TIdent) with false. cbn [negb].
         unfold ret. exists st'. split; [reflexivity|]. eapply ready_after_peek; eassumption.
       + destruct (H2 kw c r eq_refl Hk Hc Hnc Hfk) as (ll & Ep). rewrite Ep. cbn [t_typ kwtok].
         change (TIdent =? TIdent) with true. cbn [negb]. unfold bind at 1. rewrite peek_keyword_canon. rewrite Hns.
@@ -1501,22 +1794,25 @@ Section RT.
       rewrite <- app_assoc in HR. rewrite print_signal_eq in HR. rewrite app_length in HF.
       pose proof (print_signal_ge s) as Hge.
       assert (Hok : rest_ok (signals_text sigs ++ fol)).
-      { destruct sigs as [|s' sigs']; [cbn; apply rest_top_ok; exact Htop|]. right. cbn [signals_text map concat].
+      { destruct sigs as [|s' sigs']; [cbn; apply rest_top_ok; exact Htop|]. exists [], (signals_text (s' :: sigs') ++ fol).
+        split; [reflexivity|]. split; [exact blank_nil|]. right. cbn [signals_text map concat].
         rewrite <- app_assoc. rewrite print_signal_eq. eexists kw_signal, 32, _. split; [reflexivity|].
-        split; [exact is_ident_signal|]. split; [unfold ascii; lia|]. split; [reflexivity|]. unfold kw_signal. cbn [length]. lia. }
-      destruct HR as (_ & H2).
+        split; [exact is_ident_signal|]. split; [unfold ascii; lia|]. split; [reflexivity|].
+        cbn [signals_text map concat] in HF. rewrite app_length in HF. pose proof (print_signal_ge s').
+        unfold SL, kw_signal. cbn [length]. lia. }
+      pose proof (ready_here _ _ _ _ _ HR) as (_ & H2).
       destruct (H2 kw_signal 32 (signal_body s (signals_text sigs ++ fol)) eq_refl is_ident_signal) as (ll & Ep);
-        [unfold ascii; lia|reflexivity|unfold kw_signal; cbn [length]; lia|].
+        [unfold ascii; lia|reflexivity|unfold SL, kw_signal; cbn [length]; lia|].
       cbn [signals_loop]. unfold bind at 1. rewrite Ep. cbn [t_typ kwtok]. change (TIdent =? TIdent) with true. cbn [negb].
       unfold bind at 1. rewrite peek_keyword_canon. rewrite bytes_eqb_refl. unfold bind at 1.
       destruct (step_signal s (signals_text sigs ++ fol) line off ll Hs Hok ltac:(lia)) as (st2 & E & HR2). rewrite E.
-      destruct (IH f (elab_signal line off s :: racc) fol (line + 1) (off + blen (print_signal s)) st2 Hw' Htop ltac:(lia) HR2
+      destruct (IH f (elab_signal line off s :: racc) fol (line + 1) (off + blen (print_signal cr s)) st2 Hw' Htop ltac:(lia) HR2
                   ltac:(cbn in Hf; lia)) as (st' & E' & HR').
       exists st'. split.
       + rewrite E'. cbn [rev elab_signals]. rewrite <- app_assoc. reflexivity.
       + cbn [length]. rewrite blen_app.
         replace (line + Z.of_nat (S (length sigs))) with (line + 1 + Z.of_nat (length sigs)) by lia.
-        replace (off + (blen (print_signal s) + blen (signals_text sigs))) with (off + blen (print_signal s) + blen (signals_text sigs)) by lia.
+        replace (off + (blen (print_signal cr s) + blen (signals_text sigs))) with (off + blen (print_signal cr s) + blen (signals_text sigs)) by lia.
         exact HR'.
   Qed.
 
@@ -1544,11 +1840,11 @@ Section RT.
 
   Lemma step_message : forall i n sz tx sigs rest line off ll,
     wf_sdef (SMessage i n sz tx sigs) -> rest_top rest ->
-    (length (print_def (SMessage i n sz tx sigs)) + 4 <= F)%nat ->
+    (length (print_def cr (SMessage i n sz tx sigs)) + 4 <= F)%nat ->
     exists st', parse_message il id F
-                  (canon line off kw_message 32 (i ++ 32 :: n ++ 32 :: 58 :: 32 :: sz ++ 32 :: tx ++ 10 :: signals_text sigs ++ rest) ll)
-                = POk (elab_def line off (SMessage i n sz tx sigs)) st'
-                /\ Ready (line + def_lines (SMessage i n sz tx sigs)) (off + blen (print_def (SMessage i n sz tx sigs))) rest st'.
+                  (canon line off kw_message 32 (i ++ 32 :: n ++ 32 :: 58 :: 32 :: sz ++ 32 :: tx ++ cr ++ 10 :: signals_text sigs ++ rest) ll)
+                = POk (elab_def cr line off (SMessage i n sz tx sigs)) st'
+                /\ Ready SL (line + def_lines (SMessage i n sz tx sigs)) (off + blen (print_def cr (SMessage i n sz tx sigs))) rest st'.
   Proof.
     intros i n sz tx sigs rest line off ll (Hi & Hv & Hn & Hsz & Htx & Hsigs) Htop HF.
     cbn [print_def] in HF. fold (signals_text sigs) in HF.
@@ -1562,10 +1858,10 @@ Section RT.
     rewrite stepS_plain by discriminate.
     unfold bind at 1. rewrite p_token_ws; try lia; [|exact punct_colon|unfold ascii; lia]. rewrite stepS_plain by discriminate.
     unfold bind at 1. rewrite p_uint_ws; try assumption; try lia; [|exact numterm_sp]. rewrite stepS_plain by discriminate.
-    unfold bind at 1. rewrite p_identifier_ws; try assumption; try reflexivity; try lia; [|unfold ascii; lia].
-    unfold stepS. change (10 =? 10) with true. cbv iota.
-    match goal with |- context [PS (mkS _ [10] ?PP ?LL 0 ?KK 10 ws_default) None] =>
-      pose proof (ready_A (signals_text sigs ++ rest) [10] PP LL KK ltac:(lia)) as HR end.
+    destruct (eol_head (signals_text sigs ++ rest)) as (c2 & r2 & E2 & Hc2). rewrite E2.
+    unfold bind at 1. rewrite p_identifier_ws; try assumption; try lia; [|apply blank_ascii; assumption|apply blank_not_idc; assumption].
+    match goal with |- context [PS (stepS c2 r2 ?PP ?LL ?KK ?L2 c2 ws_default) None] =>
+      pose proof (ready_eol (signals_text sigs ++ rest) c2 r2 PP LL KK L2 (eq_sym E2) ltac:(lia)) as HR end.
     destruct (signals_run sigs F [] rest _ _ _ Hsigs Htop ltac:(lia) HR) as (st' & E & HR').
     { pose proof (signals_text_length_ge sigs). lia. }
     unfold bind at 1. rewrite E. unfold ret. cbn [rev app kwtok t_pos].
@@ -1573,7 +1869,7 @@ Section RT.
     - cbn [elab_def]. f_equal. f_equal. f_equal.
       unfold message_header. repeat (rewrite blen_app || rewrite blen_cons). rewrite blen_nil. f_equal; lia.
     - cbn [def_lines print_def]. fold (signals_text sigs).
-      match goal with |- Ready ?L1 ?X _ _ => match type of HR' with Ready ?L2 ?Y _ _ => replace X with Y; [replace L1 with L2 by lia; exact HR'|] end end.
+      match goal with |- Ready _ ?L1 ?X _ _ => match type of HR' with Ready _ ?L2 ?Y _ _ => replace X with Y; [replace L1 with L2 by lia; exact HR'|] end end.
       repeat (rewrite blen_app || rewrite blen_cons). lia.
   Qed.
 
@@ -1589,11 +1885,22 @@ Section RT.
           | reflexivity | lia | (unfold ascii; lia) | discriminate
           | (unfold kw_nodes, kw_message, kw_signal, kw_envvar; cbn [length]; lia) ].
 
-  (** the final " ;" followed by the line end: the parser is left at the start of the next line (shape A) *)
-  Lemma semi_tail : forall rest last P line K ll, (1 <= F)%nat -> 0 <= K ->
-    p_token il id F c_semi (PS (mkS (59 :: 10 :: rest) last P line K ll 32 ws_default) None)
-    = POk tt (PS (mkS rest [10] (P + 1 + 1) (line + 1) 0 (K + 1 + 1) 10 ws_default) None).
-  Proof. intros. rewrite p_token_ws by side. reflexivity. Qed.
+  Lemma eol_blank : forall rest ce re, ce :: re = cr ++ 10 :: rest -> blank_char ce.
+  Proof. intros rest ce re E. destruct (eol_head rest) as (c & r & E' & Hc). rewrite <- E in E'. injection E' as <- _. exact Hc. Qed.
+
+  (** facts about the first character of a line end given as a hypothesis *)
+  Ltac eolh Ee :=
+    pose proof (eol_blank _ _ _ Ee) as Hce;
+    pose proof (blank_ascii _ Hce) as Hcea; pose proof (blank_not_idc _ Hce) as Hcei; pose proof (blank_numterm _ Hce) as Hcen.
+
+  Ltac eol0 rest :=
+    destruct (eol_head rest) as (ce & re & Ee & Hce);
+    pose proof (blank_ascii _ Hce) as Hcea; pose proof (blank_not_idc _ Hce) as Hcei; pose proof (blank_numterm _ Hce) as Hcen.
+
+  (** the line end after the last token: [ce :: re] is [cr ++ LF] followed by the rest *)
+  Ltac eol rest :=
+    destruct (eol_head rest) as (ce & re & Ee & Hce); rewrite ?Ee in *;
+    pose proof (blank_ascii _ Hce) as Hcea; pose proof (blank_not_idc _ Hce) as Hcei; pose proof (blank_numterm _ Hce) as Hcen.
 
   Lemma uint_value_digit : forall d, uint_value [d] = d - 48.
   Proof. intros. unfold uint_value. cbn [fold_left]. lia. Qed.
@@ -1785,19 +2092,22 @@ Section RT.
   Qed.
 
   (** finishing a one-line definition: the ';' (already peeked, or after a space) and the line end *)
-  Lemma finish_semi_look : forall tk rest P line K ll, t_typ tk = 59 -> (1 <= F)%nat ->
-    exists st', p_token il id F c_semi (PS (stepS 10 rest P line K ll 10 ws_default) (Some tk)) = POk tt st'
-                /\ Ready (line + 1) (P + 1) rest st'.
+  Lemma finish_semi_look : forall tk rest ce re P line K ll, ce :: re = cr ++ 10 :: rest -> t_typ tk = 59 -> 0 <= K ->
+    exists st', p_token il id F c_semi (PS (stepS ce re P line K ll ce ws_default) (Some tk)) = POk tt st'
+                /\ Ready SL (line + 1) (P + blen cr + 1) rest st'.
   Proof.
-    intros tk rest P line K ll Ht HF. rewrite (p_token_look _ tk c_semi Ht). eexists. split; [reflexivity|].
-    unfold stepS. change (10 =? 10) with true. cbv iota. apply ready_A. exact HF.
+    intros tk rest ce re P line K ll Ee Ht HK. rewrite (p_token_look _ tk c_semi Ht). eexists. split; [reflexivity|].
+    apply ready_eol; assumption.
   Qed.
 
-  Lemma finish_semi_ws : forall rest last P line K ll, (1 <= F)%nat -> 0 <= K ->
-    exists st', p_token il id F c_semi (PS (mkS (59 :: 10 :: rest) last P line K ll 32 ws_default) None) = POk tt st'
-                /\ Ready (line + 1) (P + 1 + 1) rest st'.
+  Lemma finish_semi_ws : forall rest ce re last P line K ll, ce :: re = cr ++ 10 :: rest -> (1 <= F)%nat -> 0 <= K ->
+    exists st', p_token il id F c_semi (PS (mkS (59 :: ce :: re) last P line K ll 32 ws_default) None) = POk tt st'
+                /\ Ready SL (line + 1) (P + 1 + blen cr + 1) rest st'.
   Proof.
-    intros rest last P line K ll HF HK. rewrite semi_tail by assumption. eexists. split; [reflexivity|]. apply ready_A. exact HF.
+    intros rest ce re last P line K ll Ee HF HK.
+    assert (Hcea : ascii ce).
+    { destruct (eol_head rest) as (c & r & E & Hc). rewrite <- Ee in E. injection E as <- _. apply blank_ascii. assumption. }
+    rewrite p_token_ws by side. eexists. split; [reflexivity|]. apply ready_eol; [assumption|lia].
   Qed.
 
   (** optionalObjectType on one of BU_ BO_ SG_ EV_ *)
@@ -1964,27 +2274,27 @@ Section RT.
   (** ------------------------------------------------------------ ENVVAR_DATA_, SIG_VALTYPE_, BO_TX_BU_ *)
 
   Ltac ready_at HR :=
-    match goal with |- Ready _ ?X _ _ => match type of HR with Ready _ ?Y _ _ => replace X with Y; [exact HR|] end end.
+    match goal with |- Ready _ _ ?X _ _ => match type of HR with Ready _ _ ?Y _ _ => replace X with Y; [exact HR|] end end.
 
   Lemma step_envvar_data : forall n sz rest R line off ll, wf_sdef (SEnvVarData n sz) ->
-    print_def (SEnvVarData n sz) ++ rest = kw_envvar_data ++ 32 :: R ->
-    (length (print_def (SEnvVarData n sz)) + 4 <= F)%nat ->
+    print_def cr (SEnvVarData n sz) ++ rest = kw_envvar_data ++ 32 :: R ->
+    (length (print_def cr (SEnvVarData n sz)) + 4 <= F)%nat ->
     exists st', parse_envvar_data il id F (canon line off kw_envvar_data 32 R ll)
-                = POk (elab_def line off (SEnvVarData n sz)) st'
-                /\ Ready (line + 1) (off + blen (print_def (SEnvVarData n sz))) rest st'.
+                = POk (elab_def cr line off (SEnvVarData n sz)) st'
+                /\ Ready SL (line + 1) (off + blen (print_def cr (SEnvVarData n sz))) rest st'.
   Proof.
     intros n sz rest R line off ll (Hn & Hsz) HR HF. cbn [print_def] in *.
     rewrite <- app_assoc in HR. apply app_inv_head in HR. cbn [app] in HR. injection HR as <-.
     repeat (rewrite <- app_assoc; cbn [app]).
-    repeat (rewrite app_length in HF || cbn [length] in HF). unfold kw_envvar_data in HF. cbn [length] in HF.
+    repeat (rewrite app_length in HF || cbn [length] in HF). unfold kw_envvar_data in HF. cbn [length] in HF. eol rest.
     pose proof (blen_nonneg n). pose proof (blen_nonneg sz). assert (Hk : blen kw_envvar_data = 12) by reflexivity.
     unfold parse_envvar_data, canon. unfold bind at 1. rewrite p_keyword_canon. rewrite stepS_plain by discriminate.
     unfold bind at 1. rewrite p_identifier_ws by side. rewrite stepS_plain by discriminate.
     unfold bind at 1. rewrite p_token_ws by side. rewrite stepS_plain by discriminate.
     unfold bind at 1. rewrite p_uint_ws by side. rewrite stepS_plain by discriminate.
     unfold bind at 1.
-    match goal with |- context [p_token il id F c_semi (PS (mkS (59 :: 10 :: rest) ?LA ?PP ?LL ?KK ?L2 32 ws_default) None)] =>
-      destruct (finish_semi_ws rest LA PP LL KK L2 ltac:(lia) ltac:(lia)) as (st' & E & HRd) end.
+    match goal with |- context [p_token il id F c_semi (PS (mkS (59 :: ce :: re) ?LA ?PP ?LL ?KK ?L2 32 ws_default) None)] =>
+      destruct (finish_semi_ws rest ce re LA PP LL KK L2 (eq_sym Ee) ltac:(lia) ltac:(lia)) as (st' & E & HRd) end.
     rewrite E. unfold ret. cbn [elab_def kwtok t_pos]. exists st'. split; [reflexivity|].
     ready_at HRd. repeat (rewrite blen_app || rewrite blen_cons). rewrite blen_nil. lia.
   Qed.
@@ -1996,9 +2306,13 @@ Section RT.
     repeat (rewrite app_length in HF || cbn [length] in HF); unfold kwc in HF; cbn [length] in HF.
 
   Ltac fin_ws rest :=
-    match goal with |- context [p_token il id F c_semi (PS (mkS (59 :: 10 :: rest) ?LA ?PP ?LL ?KK ?L2 32 ws_default) None)] =>
+    match goal with |- context [p_token il id F c_semi (PS (mkS (59 :: ?CE :: ?RE) ?LA ?PP ?LL ?KK ?L2 32 ws_default) None)] =>
       let st' := fresh "st'" in let E := fresh "E" in let HRd := fresh "HRd" in
-      destruct (finish_semi_ws rest LA PP LL KK L2 ltac:(lia) ltac:(lia)) as (st' & E & HRd);
+      match goal with
+      | Ee' : cr ++ 10 :: rest = CE :: RE |- _ =>
+        destruct (finish_semi_ws rest CE RE LA PP LL KK L2 (eq_sym Ee') ltac:(lia) ltac:(lia)) as (st' & E & HRd)
+      | Ee' : CE :: RE = cr ++ 10 :: rest |- _ =>
+        destruct (finish_semi_ws rest CE RE LA PP LL KK L2 Ee' ltac:(lia) ltac:(lia)) as (st' & E & HRd) end;
       rewrite E; unfold ret; cbn [elab_def kwtok t_pos]; exists st'; split; [|ready_at HRd] end.
 
   Lemma scan_ws_digit : forall d c r last pos l k ll, is_decimal d = true -> numterm c -> (3 < F)%nat -> 0 <= k ->
@@ -2013,13 +2327,13 @@ Section RT.
   Qed.
 
   Lemma step_sig_valtype : forall i n colon t rest R line off ll, wf_sdef (SSigValType i n colon t) ->
-    print_def (SSigValType i n colon t) ++ rest = kw_signal_value_type ++ 32 :: R ->
-    (length (print_def (SSigValType i n colon t)) + 4 <= F)%nat ->
+    print_def cr (SSigValType i n colon t) ++ rest = kw_signal_value_type ++ 32 :: R ->
+    (length (print_def cr (SSigValType i n colon t)) + 4 <= F)%nat ->
     exists st', parse_signal_value_type il id F (canon line off kw_signal_value_type 32 R ll)
-                = POk (elab_def line off (SSigValType i n colon t)) st'
-                /\ Ready (line + 1) (off + blen (print_def (SSigValType i n colon t))) rest st'.
+                = POk (elab_def cr line off (SSigValType i n colon t)) st'
+                /\ Ready SL (line + 1) (off + blen (print_def cr (SSigValType i n colon t))) rest st'.
   Proof.
-    intros i n colon t rest R line off ll ((Hi & Hv) & Hn & Ht) HR HF. prep HR HF kw_signal_value_type.
+    intros i n colon t rest R line off ll ((Hi & Hv) & Hn & Ht) HR HF. prep HR HF kw_signal_value_type. eol rest.
     destruct (wf_enum_uint t 2 Ht ltac:(lia)) as (_ & _ & Hlt).
     pose proof (blen_nonneg i). pose proof (blen_nonneg n). pose proof (blen_nonneg t).
     assert (Hk : blen kw_signal_value_type = 12) by reflexivity.
@@ -2042,7 +2356,7 @@ Section RT.
       { rewrite peek_token_scan. rewrite scan_ws_digit by side. eexists; eexists; split; reflexivity. }
       destruct Epk as (tk & S1 & Epk & Ety). rewrite Epk, Ety. change (TInt =? c_colon) with false. cbv beta iota. unfold ret at 1.
       unfold bind at 1. rewrite (small_enum_after_peek 2 _ _ _ Epk).
-      change (d :: 32 :: 59 :: 10 :: rest) with ([d] ++ 32 :: 59 :: 10 :: rest).
+      change (d :: 32 :: 59 :: ce :: re) with ([d] ++ 32 :: 59 :: ce :: re).
       rewrite (p_small_enum_ws [d] 2); try side; [|exists d; split; [reflexivity|lia]].
       rewrite stepS_plain by discriminate.
       unfold bind at 1. fin_ws rest; [reflexivity|].
@@ -2050,17 +2364,17 @@ Section RT.
   Qed.
 
   Lemma step_msgtx : forall i txs rest R line off ll, wf_sdef (SMsgTx i txs) ->
-    print_def (SMsgTx i txs) ++ rest = kw_message_transmitters ++ 32 :: R ->
-    (length (print_def (SMsgTx i txs)) + 4 <= F)%nat ->
+    print_def cr (SMsgTx i txs) ++ rest = kw_message_transmitters ++ 32 :: R ->
+    (length (print_def cr (SMsgTx i txs)) + 4 <= F)%nat ->
     exists st', parse_message_transmitters il id F (canon line off kw_message_transmitters 32 R ll)
-                = POk (elab_def line off (SMsgTx i txs)) st'
-                /\ Ready (line + 1) (off + blen (print_def (SMsgTx i txs))) rest st'.
+                = POk (elab_def cr line off (SMsgTx i txs)) st'
+                /\ Ready SL (line + 1) (off + blen (print_def cr (SMsgTx i txs))) rest st'.
   Proof.
-    intros i txs rest R line off ll ((Hi & Hv) & Htx) HR HF. fold (tx_text txs) in *. prep HR HF kw_message_transmitters.
+    intros i txs rest R line off ll ((Hi & Hv) & Htx) HR HF. fold (tx_text txs) in *. prep HR HF kw_message_transmitters. eol rest.
     fold (tx_text txs) in *.
     pose proof (blen_nonneg i). pose proof (blen_nonneg (tx_text txs)).
     assert (Hk : blen kw_message_transmitters = 9) by reflexivity.
-    destruct (tx_text_head txs (59 :: 10 :: rest)) as (T & ET).
+    destruct (tx_text_head txs (59 :: ce :: re)) as (T & ET).
     pose proof (sp_list_length_ge _ (fun x : bytes * bool => fst x) txs) as _.
     assert (Hlen : (length txs <= length (tx_text txs))%nat).
     { clear. induction txs as [|x txs IH]; cbn [tx_text map concat length]; [lia|]. fold (tx_text txs).
@@ -2071,11 +2385,11 @@ Section RT.
     unfold bind at 1. rewrite p_token_ws by side. rewrite stepS_plain by discriminate.
     unfold bind at 1.
     match goal with |- context [transmitters_loop il id F F [] (PS (mkS T ?LA ?PP ?LL ?KK ?L2 32 ws_default) None)] =>
-      destruct (transmitters_run txs F [] T 10 rest LA PP LL KK L2 (eq_sym ET) Htx ltac:(unfold ascii; lia) ltac:(lia) ltac:(lia)
+      destruct (transmitters_run txs F [] T ce re LA PP LL KK L2 (eq_sym ET) Htx ltac:(first [assumption | unfold ascii; lia]) ltac:(lia) ltac:(lia)
                   ltac:(lia)) as (tk & E & Ety) end.
     rewrite E. unfold bind at 1.
-    match goal with |- context [PS (stepS 10 rest ?PP ?LL ?KK ?L2 10 ws_default) (Some tk)] =>
-      destruct (finish_semi_look tk rest PP LL KK L2 Ety ltac:(lia)) as (st' & E2 & HRd) end.
+    match goal with |- context [PS (stepS ce re ?PP ?LL ?KK ?L2 ce ws_default) (Some tk)] =>
+      destruct (finish_semi_look tk rest ce re PP LL KK L2 (eq_sym Ee) Ety ltac:(lia)) as (st' & E2 & HRd) end.
     rewrite E2. unfold ret. cbn [elab_def kwtok t_pos rev app]. exists st'. split; [reflexivity|].
     ready_at HRd. repeat (rewrite blen_app || rewrite blen_cons). rewrite ?blen_nil. lia.
   Qed.
@@ -2089,55 +2403,56 @@ Section RT.
   Qed.
 
   (** the common tail of VAL_TABLE_ and VAL_: the value list, then " ;" *)
-  Lemma values_tail : forall (G : list value_description_def -> def) vs rest T last P l K ll off,
-    32 :: T = print_values vs ++ 32 :: 59 :: 10 :: rest -> Forall wf_value vs ->
+  Lemma values_tail : forall (G : list value_description_def -> def) vs rest ce re T last P l K ll off,
+    ce :: re = cr ++ 10 :: rest -> 32 :: T = print_values vs ++ 32 :: 59 :: ce :: re -> Forall wf_value vs ->
     (length (print_values vs) + 8 < F)%nat -> K = P - off -> 0 <= K ->
     exists st', (plet vs0 <- value_descriptions_loop il id F F []; p_token il id F c_semi ;; ret (G vs0))
                   (PS (mkS T last P l K ll 32 ws_default) None)
                 = POk (G (elab_values l off P vs)) st'
-                /\ Ready (l + 1) (P + blen (print_values vs) + 1 + 1) rest st'.
+                /\ Ready SL (l + 1) (P + blen (print_values vs) + 1 + blen cr + 1) rest st'.
   Proof.
-    intros G vs rest T last P l K ll off HT Hw HF HK HK0. pose proof (values_len vs) as Hl.
-    destruct (values_run vs F [] T 10 rest last P l K ll off HT Hw ltac:(unfold ascii; lia) ltac:(lia) HF HK HK0) as (tk & E & Ety).
+    intros G vs rest ce re T last P l K ll off Ee HT Hw HF HK HK0. pose proof (values_len vs) as Hl. eolh Ee.
+    pose proof (blen_nonneg (print_values vs)) as Hnv.
+    destruct (values_run vs F [] T ce re last P l K ll off HT Hw ltac:(first [assumption | unfold ascii; lia]) ltac:(lia) HF HK HK0) as (tk & E & Ety).
     unfold bind at 1. rewrite E. unfold bind at 1.
-    match goal with |- context [PS (stepS 10 rest ?PP ?LL ?KK ?L2 10 ws_default) (Some tk)] =>
-      destruct (finish_semi_look tk rest PP LL KK L2 Ety ltac:(lia)) as (st' & E2 & HRd) end.
+    match goal with |- context [PS (stepS ce re ?PP ?LL ?KK ?L2 ce ws_default) (Some tk)] =>
+      destruct (finish_semi_look tk rest ce re PP LL KK L2 Ee Ety ltac:(lia)) as (st' & E2 & HRd) end.
     rewrite E2. unfold ret. cbn [rev app]. exists st'. split; [reflexivity|exact HRd].
   Qed.
 
   Lemma step_value_table : forall n vs rest R line off ll, wf_sdef (SValueTable n vs) ->
-    print_def (SValueTable n vs) ++ rest = kw_value_table ++ 32 :: R ->
-    (length (print_def (SValueTable n vs)) + 4 <= F)%nat ->
+    print_def cr (SValueTable n vs) ++ rest = kw_value_table ++ 32 :: R ->
+    (length (print_def cr (SValueTable n vs)) + 4 <= F)%nat ->
     exists st', parse_value_table il id F (canon line off kw_value_table 32 R ll)
-                = POk (elab_def line off (SValueTable n vs)) st'
-                /\ Ready (line + 1) (off + blen (print_def (SValueTable n vs))) rest st'.
+                = POk (elab_def cr line off (SValueTable n vs)) st'
+                /\ Ready SL (line + 1) (off + blen (print_def cr (SValueTable n vs))) rest st'.
   Proof.
-    intros n vs rest R line off ll (Hn & Hvs) HR HF. prep HR HF kw_value_table.
+    intros n vs rest R line off ll (Hn & Hvs) HR HF. prep HR HF kw_value_table. eol rest.
     pose proof (blen_nonneg n). pose proof (blen_nonneg (print_values vs)).
     assert (Hk : blen kw_value_table = 10) by reflexivity.
-    destruct (print_values_head vs (59 :: 10 :: rest)) as (T & ET). rewrite ET.
+    destruct (print_values_head vs (59 :: ce :: re)) as (T & ET). rewrite ET.
     unfold parse_value_table, canon. unfold bind at 1. rewrite p_keyword_canon. rewrite stepS_plain by discriminate.
     unfold bind at 1. rewrite p_identifier_ws by side. rewrite stepS_plain by discriminate.
     match goal with |- context [PS (mkS T ?LA ?PP ?LL ?KK ?L2 32 ws_default) None] =>
-      destruct (values_tail (DValueTable {| p_line := line; p_column := 1; p_offset := off |} n) vs rest T LA PP LL KK L2 off
-                  (eq_sym ET) Hvs ltac:(lia) ltac:(lia) ltac:(lia)) as (st' & E & HRd) end.
+      destruct (values_tail (DValueTable {| p_line := line; p_column := 1; p_offset := off |} n) vs rest ce re T LA PP LL KK L2 off
+                  (eq_sym Ee) (eq_sym ET) Hvs ltac:(lia) ltac:(lia) ltac:(lia)) as (st' & E & HRd) end.
     exists st'. split; [exact E|]. ready_at HRd.
     repeat (rewrite blen_app || rewrite blen_cons). rewrite ?blen_nil. lia.
   Qed.
 
   Lemma step_values : forall i n vs rest R line off ll, wf_sdef (SValues i n vs) ->
-    print_def (SValues i n vs) ++ rest = kw_value_descriptions ++ 32 :: R ->
-    (length (print_def (SValues i n vs)) + 4 <= F)%nat ->
+    print_def cr (SValues i n vs) ++ rest = kw_value_descriptions ++ 32 :: R ->
+    (length (print_def cr (SValues i n vs)) + 4 <= F)%nat ->
     exists st', parse_value_descriptions il id F (canon line off kw_value_descriptions 32 R ll)
-                = POk (elab_def line off (SValues i n vs)) st'
-                /\ Ready (line + 1) (off + blen (print_def (SValues i n vs))) rest st'.
+                = POk (elab_def cr line off (SValues i n vs)) st'
+                /\ Ready SL (line + 1) (off + blen (print_def cr (SValues i n vs))) rest st'.
   Proof.
     intros i n vs rest R line off ll Hw HR HF.
     assert (Hk : blen kw_value_descriptions = 4) by reflexivity.
     pose proof (blen_nonneg n). pose proof (blen_nonneg (print_values vs)).
-    destruct (print_values_head vs (59 :: 10 :: rest)) as (T & ET).
     destruct i as [i|]; cbn [wf_sdef] in Hw.
-    - destruct Hw as ((Hi & Hv) & Hn & Hvs). prep HR HF kw_value_descriptions. pose proof (blen_nonneg i). rewrite ET.
+    - destruct Hw as ((Hi & Hv) & Hn & Hvs). prep HR HF kw_value_descriptions. eol rest.
+      destruct (print_values_head vs (59 :: ce :: re)) as (T & ET). pose proof (blen_nonneg i). rewrite ET.
       unfold parse_value_descriptions, canon. unfold bind at 1. rewrite p_keyword_canon. rewrite stepS_plain by discriminate.
       unfold bind at 1.
       match goal with |- context [peek_token (PS ?S0 None)] =>
@@ -2152,11 +2467,12 @@ Section RT.
       match goal with |- context [PS (mkS T ?LA ?PP ?LL ?KK ?L2 32 ws_default) None] =>
         destruct (values_tail (fun vs0 => DValueDescriptions {| vs_pos := {| p_line := line; p_column := 1; p_offset := off |};
                                  vs_object := OtSignal; vs_message_id := uint_value i mod 2 ^ 32; vs_signal := n; vs_envvar := [];
-                                 vs_values := vs0 |}) vs rest T LA PP LL KK L2 off
-                    (eq_sym ET) Hvs ltac:(lia) ltac:(lia) ltac:(lia)) as (st' & E & HRd) end.
+                                 vs_values := vs0 |}) vs rest ce re T LA PP LL KK L2 off
+                    (eq_sym Ee) (eq_sym ET) Hvs ltac:(lia) ltac:(lia) ltac:(lia)) as (st' & E & HRd) end.
       exists st'. split; [exact E|]. ready_at HRd.
       repeat (rewrite blen_app || rewrite blen_cons). rewrite ?blen_nil. lia.
-    - destruct Hw as (Hn & Hvs). prep HR HF kw_value_descriptions. rewrite ET.
+    - destruct Hw as (Hn & Hvs). prep HR HF kw_value_descriptions. eol rest.
+      destruct (print_values_head vs (59 :: ce :: re)) as (T & ET). rewrite ET.
       unfold parse_value_descriptions, canon. unfold bind at 1. rewrite p_keyword_canon. rewrite stepS_plain by discriminate.
       unfold bind at 1.
       match goal with |- context [peek_token (PS ?S0 None)] =>
@@ -2173,51 +2489,55 @@ Section RT.
       match goal with |- context [PS (mkS T ?LA ?PP ?LL ?KK ?L2 32 ws_default) None] =>
         destruct (values_tail (fun vs0 => DValueDescriptions {| vs_pos := {| p_line := line; p_column := 1; p_offset := off |};
                                  vs_object := OtEnvVar; vs_message_id := 0; vs_signal := []; vs_envvar := n;
-                                 vs_values := vs0 |}) vs rest T LA PP LL KK L2 off
-                    (eq_sym ET) Hvs ltac:(lia) ltac:(lia) ltac:(lia)) as (st' & E & HRd) end.
+                                 vs_values := vs0 |}) vs rest ce re T LA PP LL KK L2 off
+                    (eq_sym Ee) (eq_sym ET) Hvs ltac:(lia) ltac:(lia) ltac:(lia)) as (st' & E & HRd) end.
       exists st'. split; [exact E|]. ready_at HRd.
       repeat (rewrite blen_app || rewrite blen_cons). rewrite ?blen_nil. lia.
   Qed.
 
   Ltac ready_at2 HR :=
-    match goal with |- Ready ?L ?X _ _ => match type of HR with Ready ?L' ?Y _ _ =>
+    match goal with |- Ready _ ?L ?X _ _ => match type of HR with Ready _ ?L' ?Y _ _ =>
       replace L with L'; [replace X with Y; [exact HR|]|] end end.
 
   Ltac fin_ws2 rest :=
-    match goal with |- context [p_token il id F c_semi (PS (mkS (59 :: 10 :: rest) ?LA ?PP ?LL ?KK ?L2 32 ws_default) None)] =>
+    match goal with |- context [p_token il id F c_semi (PS (mkS (59 :: ?CE :: ?RE) ?LA ?PP ?LL ?KK ?L2 32 ws_default) None)] =>
       let st' := fresh "st'" in let E := fresh "E" in let HRd := fresh "HRd" in
-      destruct (finish_semi_ws rest LA PP LL KK L2 ltac:(lia) ltac:(lia)) as (st' & E & HRd);
+      match goal with
+      | Ee' : cr ++ 10 :: rest = CE :: RE |- _ =>
+        destruct (finish_semi_ws rest CE RE LA PP LL KK L2 (eq_sym Ee') ltac:(lia) ltac:(lia)) as (st' & E & HRd)
+      | Ee' : CE :: RE = cr ++ 10 :: rest |- _ =>
+        destruct (finish_semi_ws rest CE RE LA PP LL KK L2 Ee' ltac:(lia) ltac:(lia)) as (st' & E & HRd) end;
       rewrite E; unfold ret; cbn [elab_def kwtok t_pos]; exists st'; split; [|ready_at2 HRd] end.
 
   Ltac str_nl t Ht :=
     match goal with |- context [p_string il id F (PS (mkS (34 :: t ++ 34 :: 32 :: ?r) ?LA ?PP ?LL ?KK ?L2 32 ws_default) None)] =>
       let k' := fresh "k'" in let ll' := fresh "ll'" in let Hk' := fresh "Hk'" in let Es := fresh "Es" in
-      destruct (p_string_nl_ws t 32 r LA PP LL KK L2 Ht ltac:(unfold ascii; lia) ltac:(lia) ltac:(lia)) as (k' & ll' & Hk' & Es);
+      destruct (p_string_nl_ws t 32 r LA PP LL KK L2 Ht ltac:(first [assumption | unfold ascii; lia]) ltac:(lia) ltac:(lia)) as (k' & ll' & Hk' & Es);
       rewrite Es; rewrite stepS_plain by discriminate end.
 
   Lemma step_comment : forall o t rest R line off ll, wf_sdef (SComment o t) ->
-    print_def (SComment o t) ++ rest = kw_comment ++ 32 :: R ->
-    (length (print_def (SComment o t)) + 4 <= F)%nat ->
+    print_def cr (SComment o t) ++ rest = kw_comment ++ 32 :: R ->
+    (length (print_def cr (SComment o t)) + 4 <= F)%nat ->
     exists st', parse_comment il id F (canon line off kw_comment 32 R ll)
-                = POk (elab_def line off (SComment o t)) st'
-                /\ Ready (line + def_lines (SComment o t)) (off + blen (print_def (SComment o t))) rest st'.
+                = POk (elab_def cr line off (SComment o t)) st'
+                /\ Ready SL (line + def_lines (SComment o t)) (off + blen (print_def cr (SComment o t))) rest st'.
   Proof.
     intros o t rest R line off ll (Ho & Ht) HR HF.
     assert (Hk : blen kw_comment = 3) by reflexivity. pose proof (blen_nonneg t).
     destruct o as [|n|i|i n|n]; cbn [print_obj wf_obj] in *.
     - (* CM_ "text" ; *)
-      prep HR HF kw_comment.
+      prep HR HF kw_comment. eol rest.
       unfold parse_comment, canon. unfold bind at 1. rewrite p_keyword_canon. rewrite stepS_plain by discriminate.
       unfold bind at 1.
       match goal with |- context [optional_object_type il id F (PS (mkS _ ?LA ?PP ?LL ?KK ?L2 32 ws_default) None)] =>
-        destruct (quote_peek_n t 32 (59 :: 10 :: rest) LA PP LL KK L2 Ht ltac:(unfold ascii; lia) ltac:(lia) ltac:(lia))
+        destruct (quote_peek_n t 32 (59 :: ce :: re) LA PP LL KK L2 Ht ltac:(first [assumption | unfold ascii; lia]) ltac:(lia) ltac:(lia))
           as (tk & st1 & Epk & Ety) end.
       rewrite (opt_obj_none _ _ _ Epk Ety). unfold bind at 1. cbn [object_ref]. unfold ret at 1. cbv beta iota.
       unfold bind at 1. rewrite (p_string_after_peek _ _ _ Epk). str_nl t Ht.
       unfold bind at 1. fin_ws2 rest; [reflexivity| |cbn [def_lines]; lia].
       cbn [print_def print_obj]. repeat (rewrite blen_app || rewrite blen_cons). rewrite ?blen_nil. lia.
     - (* CM_ BU_ node "text" ; *)
-      prep HR HF kw_comment. unfold kw_nodes in HF. cbn [length] in HF. pose proof (blen_nonneg n).
+      prep HR HF kw_comment. eol rest. unfold kw_nodes in HF. cbn [length] in HF. pose proof (blen_nonneg n).
       assert (Hk2 : blen kw_nodes = 3) by reflexivity.
       unfold parse_comment, canon. unfold bind at 1. rewrite p_keyword_canon. rewrite stepS_plain by discriminate.
       match goal with |- context [mkS (66 :: 85 :: 95 :: 32 :: ?X)] => change (66 :: 85 :: 95 :: 32 :: X) with (kw_nodes ++ 32 :: X) end.
@@ -2228,7 +2548,7 @@ Section RT.
       unfold bind at 1. fin_ws2 rest; [reflexivity| |cbn [def_lines]; lia].
       cbn [print_def print_obj]. repeat (rewrite blen_app || rewrite blen_cons). rewrite ?blen_nil. lia.
     - (* CM_ BO_ id "text" ; *)
-      destruct Ho as (Hi & Hv). prep HR HF kw_comment. unfold kw_message in HF. cbn [length] in HF. pose proof (blen_nonneg i).
+      destruct Ho as (Hi & Hv). prep HR HF kw_comment. eol rest. unfold kw_message in HF. cbn [length] in HF. pose proof (blen_nonneg i).
       assert (Hk2 : blen kw_message = 3) by reflexivity.
       unfold parse_comment, canon. unfold bind at 1. rewrite p_keyword_canon. rewrite stepS_plain by discriminate.
       match goal with |- context [mkS (66 :: 79 :: 95 :: 32 :: ?X)] => change (66 :: 79 :: 95 :: 32 :: X) with (kw_message ++ 32 :: X) end.
@@ -2239,7 +2559,7 @@ Section RT.
       unfold bind at 1. fin_ws2 rest; [reflexivity| |cbn [def_lines]; lia].
       cbn [print_def print_obj]. repeat (rewrite blen_app || rewrite blen_cons). rewrite ?blen_nil. lia.
     - (* CM_ SG_ id name "text" ; *)
-      destruct Ho as ((Hi & Hv) & Hn). prep HR HF kw_comment. unfold kw_signal in HF. cbn [length] in HF.
+      destruct Ho as ((Hi & Hv) & Hn). prep HR HF kw_comment. eol rest. unfold kw_signal in HF. cbn [length] in HF.
       pose proof (blen_nonneg i). pose proof (blen_nonneg n).
       assert (Hk2 : blen kw_signal = 3) by reflexivity.
       unfold parse_comment, canon. unfold bind at 1. rewrite p_keyword_canon. rewrite stepS_plain by discriminate.
@@ -2252,7 +2572,7 @@ Section RT.
       unfold bind at 1. fin_ws2 rest; [reflexivity| |cbn [def_lines]; lia].
       cbn [print_def print_obj]. repeat (rewrite blen_app || rewrite blen_cons). rewrite ?blen_nil. lia.
     - (* CM_ EV_ name "text" ; *)
-      prep HR HF kw_comment. unfold kw_envvar in HF. cbn [length] in HF. pose proof (blen_nonneg n).
+      prep HR HF kw_comment. eol rest. unfold kw_envvar in HF. cbn [length] in HF. pose proof (blen_nonneg n).
       assert (Hk2 : blen kw_envvar = 3) by reflexivity.
       unfold parse_comment, canon. unfold bind at 1. rewrite p_keyword_canon. rewrite stepS_plain by discriminate.
       match goal with |- context [mkS (69 :: 86 :: 95 :: 32 :: ?X)] => change (69 :: 86 :: 95 :: 32 :: X) with (kw_envvar ++ 32 :: X) end.
@@ -2269,15 +2589,15 @@ Section RT.
 
   Lemma step_envvar : forall n t mn mx u init i acc node nodes rest R line off ll,
     wf_sdef (SEnvVar n t mn mx u init i acc node nodes) ->
-    print_def (SEnvVar n t mn mx u init i acc node nodes) ++ rest = kw_envvar ++ 32 :: R ->
-    (length (print_def (SEnvVar n t mn mx u init i acc node nodes)) + 4 <= F)%nat ->
+    print_def cr (SEnvVar n t mn mx u init i acc node nodes) ++ rest = kw_envvar ++ 32 :: R ->
+    (length (print_def cr (SEnvVar n t mn mx u init i acc node nodes)) + 4 <= F)%nat ->
     exists st', parse_envvar il id F (canon line off kw_envvar 32 R ll)
-                = POk (elab_def line off (SEnvVar n t mn mx u init i acc node nodes)) st'
-                /\ Ready (line + 1) (off + blen (print_def (SEnvVar n t mn mx u init i acc node nodes))) rest st'.
+                = POk (elab_def cr line off (SEnvVar n t mn mx u init i acc node nodes)) st'
+                /\ Ready SL (line + 1) (off + blen (print_def cr (SEnvVar n t mn mx u init i acc node nodes))) rest st'.
   Proof.
     intros n t mn mx u init i acc node nodes rest R line off ll
       (Hn & Ht & Hmn & Hmx & Hu & Hinit & Hi & Hacc & Hnode & Hnodes) HR HF.
-    fold (comma_list nodes) in *. prep HR HF kw_envvar. fold (comma_list nodes) in *.
+    fold (comma_list nodes) in *. prep HR HF kw_envvar. eol rest. fold (comma_list nodes) in *.
     destruct (wf_enum_uint t 2 Ht ltac:(lia)) as (_ & _ & Hlt).
     destruct (access_name_valid acc Hacc) as (Hav & _).
     assert (Hal : (length (access_name acc) = 18)%nat).
@@ -2287,7 +2607,7 @@ Section RT.
     pose proof (blen_nonneg (access_name acc)). pose proof (blen_nonneg node). pose proof (blen_nonneg (comma_list nodes)).
     pose proof (comma_list_length_ge nodes) as Hcl.
     assert (Hk : blen kw_envvar = 3) by reflexivity.
-    destruct (comma_list_head32 nodes (59 :: 10 :: rest)) as (T & ET). rewrite ET.
+    destruct (comma_list_head32 nodes (59 :: ce :: re)) as (T & ET). rewrite ET.
     unfold parse_envvar, canon. unfold bind at 1. rewrite p_keyword_canon. rewrite stepS_plain by discriminate.
     unfold bind at 1. rewrite p_identifier_ws by side. rewrite stepS_plain by discriminate.
     unfold bind at 1. rewrite p_token_ws by side. rewrite stepS_plain by discriminate.
@@ -2303,11 +2623,11 @@ Section RT.
     unfold bind at 1. rewrite p_access_type_ws by side. rewrite stepS_plain by discriminate.
     unfold bind at 1. unfold comma_idents. unfold bind at 1. rewrite p_identifier_ws by side. rewrite stepS_plain by discriminate.
     match goal with |- context [comma_idents_loop il id F F [node] (PS (mkS T ?LA ?PP ?LL ?KK ?L2 32 ws_default) None)] =>
-      destruct (comma_idents_semi_run nodes F [node] T 10 rest LA PP LL KK L2 (eq_sym ET) Hnodes ltac:(unfold ascii; lia)
+      destruct (comma_idents_semi_run nodes F [node] T ce re LA PP LL KK L2 (eq_sym ET) Hnodes ltac:(first [assumption | unfold ascii; lia])
                   ltac:(lia) ltac:(lia) ltac:(lia)) as (tk & E & Ety) end.
     rewrite E. unfold bind at 1.
-    match goal with |- context [PS (stepS 10 rest ?PP ?LL ?KK ?L2 10 ws_default) (Some tk)] =>
-      destruct (finish_semi_look tk rest PP LL KK L2 Ety ltac:(lia)) as (st' & E2 & HRd) end.
+    match goal with |- context [PS (stepS ce re ?PP ?LL ?KK ?L2 ce ws_default) (Some tk)] =>
+      destruct (finish_semi_look tk rest ce re PP LL KK L2 (eq_sym Ee) Ety ltac:(lia)) as (st' & E2 & HRd) end.
     rewrite E2. unfold ret. cbn [elab_def kwtok t_pos rev app]. exists st'. split; [reflexivity|].
     ready_at HRd. repeat (rewrite blen_app || rewrite blen_cons). rewrite ?blen_nil. lia.
   Qed.
@@ -2412,9 +2732,13 @@ Section RT.
     forall n, option_map (fun a => (ad_type a, ad_enum_values a)) (find_attribute n defs) = lookup_ctx n ctx.
 
   Ltac fin_attr rest :=
-    match goal with |- context [p_token il id F c_semi (PS (mkS (59 :: 10 :: rest) ?LA ?PP ?LL ?KK ?L2 32 ws_default) None)] =>
+    match goal with |- context [p_token il id F c_semi (PS (mkS (59 :: ?CE :: ?RE) ?LA ?PP ?LL ?KK ?L2 32 ws_default) None)] =>
       let st' := fresh "st'" in let E := fresh "E" in let HRd := fresh "HRd" in
-      destruct (finish_semi_ws rest LA PP LL KK L2 ltac:(lia) ltac:(lia)) as (st' & E & HRd);
+      match goal with
+      | Ee' : cr ++ 10 :: rest = CE :: RE |- _ =>
+        destruct (finish_semi_ws rest CE RE LA PP LL KK L2 (eq_sym Ee') ltac:(lia) ltac:(lia)) as (st' & E & HRd)
+      | Ee' : CE :: RE = cr ++ 10 :: rest |- _ =>
+        destruct (finish_semi_ws rest CE RE LA PP LL KK L2 Ee' ltac:(lia) ltac:(lia)) as (st' & E & HRd) end;
       rewrite E; unfold ret; exists st'; split; [reflexivity|ready_at HRd];
       cbn [print_attr_value]; unfold print_quoted; repeat (rewrite blen_app || rewrite blen_cons); rewrite ?blen_nil; lia end.
 
@@ -2438,15 +2762,15 @@ Section RT.
     - unfold bind at 1 3. unfold ret at 1 3. cbv iota. unfold bind at 1 2. rewrite (p_token_after_peek _ _ _ _ H). reflexivity.
   Qed.
 
-  Lemma attr_tail_run : forall ctx defs name v G rest T last P l K ll,
-    ctx_agrees ctx defs -> wf_attr_value ctx name v ->
-    32 :: T = print_attr_value v ++ 32 :: 59 :: 10 :: rest ->
+  Lemma attr_tail_run : forall ctx defs name v G rest ce re T last P l K ll,
+    ctx_agrees ctx defs -> wf_attr_value ctx name v -> ce :: re = cr ++ 10 :: rest ->
+    32 :: T = print_attr_value v ++ 32 :: 59 :: ce :: re ->
     (length (print_attr_value v) + 8 < F)%nat -> 0 <= K ->
     exists st', attr_tail defs name G (PS (mkS T last P l K ll 32 ws_default) None)
                 = POk (let '(i, f, s) := elab_attr_value ctx name v in G i f s) st'
-                /\ Ready (l + 1) (P + blen (print_attr_value v) + 1 + 1) rest st'.
+                /\ Ready SL (l + 1) (P + blen (print_attr_value v) + 1 + blen cr + 1) rest st'.
   Proof.
-    intros ctx defs name v G rest T last P l K ll Hag Hw HT HF HK.
+    intros ctx defs name v G rest ce re T last P l K ll Hag Hw Ee HT HF HK. eolh Ee.
     unfold wf_attr_value in Hw. pose proof (Hag name) as Hn. unfold attr_tail, attribute_value, elab_attr_value.
     destruct (lookup_ctx name ctx) as [[ty vs]|] eqn:El.
     - destruct (find_attribute name defs) as [a|]; [|discriminate Hn]. cbn [option_map] in Hn. injection Hn as Hty Hvs.
@@ -2474,7 +2798,7 @@ Section RT.
           rewrite (scan_ws_uint 32); try side; [|cbn [length] in HF; lia]. eexists; eexists; split; reflexivity. }
         destruct Epk as (tk & S1 & Epk & Ety). rewrite Epk, Ety. change (TInt =? TInt) with true. cbv iota.
         unfold bind at 1.
-        assert (Eu : p_uint il id F (PS S1 (Some tk)) = p_uint il id F (PS (mkS (i ++ 32 :: 59 :: 10 :: rest) last P l K ll 32 ws_default) None))
+        assert (Eu : p_uint il id F (PS S1 (Some tk)) = p_uint il id F (PS (mkS (i ++ 32 :: 59 :: ce :: re) last P l K ll 32 ws_default) None))
           by exact (bind_next_after_peek _ _ _ Epk _ _).
         rewrite Eu. rewrite p_uint_ws by side. rewrite stepS_plain by discriminate.
         rewrite Hvs. assert (Eb : (Z.of_nat (length vs) <=? uint_value i) = false) by (apply Z.leb_gt; lia). rewrite Eb.
@@ -2484,7 +2808,7 @@ Section RT.
       + (* ENUM by string *) unfold print_quoted in *. cbn [app length] in *. rewrite app_length in HF. cbn [length] in HF.
         rewrite <- app_assoc. cbn [app]. pose proof (blen_nonneg s).
         unfold bind at 1. unfold bind at 1. unfold enum_value. unfold bind at 1.
-        destruct (quote_peek s 32 (59 :: 10 :: rest) last P l K ll Hw ltac:(unfold ascii; lia) ltac:(lia) HK) as (tk & st1 & Epk & Ety).
+        destruct (quote_peek s 32 (59 :: ce :: re) last P l K ll Hw ltac:(first [assumption | unfold ascii; lia]) ltac:(lia) HK) as (tk & st1 & Epk & Ety).
         rewrite Epk, Ety. change (34 =? TInt) with false. cbv iota.
         rewrite (p_string_after_peek _ _ _ Epk). rewrite p_string_ws by side. rewrite stepS_plain by discriminate.
         unfold ret at 1. cbv beta iota. unfold bind at 1. fin_attr rest.
@@ -2550,7 +2874,7 @@ Section RT.
   Qed.
 
   Lemma find_attr_non_attr : forall ctx l o d n,
-    match d with SAttr _ _ _ => False | _ => True end -> find_attribute n [elab_def_ctx ctx l o d] = None.
+    match d with SAttr _ _ _ => False | _ => True end -> find_attribute n [elab_def_ctx cr ctx l o d] = None.
   Proof.
     intros ctx l o d n H. destruct d; try contradiction; cbn [elab_def_ctx elab_def];
       repeat match goal with |- context [match ?x with _ => _ end] => destruct x end; reflexivity.
@@ -2558,7 +2882,7 @@ Section RT.
 
   (** parsing one more definition keeps the context in agreement *)
   Lemma ctx_agrees_step : forall ctx defs line off d, ctx_agrees ctx defs ->
-    ctx_agrees (ctx_step ctx d) (defs ++ [elab_def_ctx ctx line off d]).
+    ctx_agrees (ctx_step ctx d) (defs ++ [elab_def_ctx cr ctx line off d]).
   Proof.
     intros ctx defs line off d Hag n. rewrite find_attribute_app. specialize (Hag n).
     assert (Hd : (exists o name body, d = SAttr o name body) \/ match d with SAttr _ _ _ => False | _ => True end)
@@ -2577,56 +2901,56 @@ Section RT.
 
   Lemma step_attr_default : forall ctx defs name v rest R line off ll,
     ctx_agrees ctx defs -> wf_sdef_ctx ctx (SAttrDefault name v) ->
-    print_def (SAttrDefault name v) ++ rest = kw_attribute_default ++ 32 :: R ->
-    (length (print_def (SAttrDefault name v)) + 4 <= F)%nat ->
+    print_def cr (SAttrDefault name v) ++ rest = kw_attribute_default ++ 32 :: R ->
+    (length (print_def cr (SAttrDefault name v)) + 4 <= F)%nat ->
     exists st', parse_attribute_default il id F defs (canon line off kw_attribute_default 32 R ll)
-                = POk (elab_def_ctx ctx line off (SAttrDefault name v)) st'
-                /\ Ready (line + 1) (off + blen (print_def (SAttrDefault name v))) rest st'.
+                = POk (elab_def_ctx cr ctx line off (SAttrDefault name v)) st'
+                /\ Ready SL (line + 1) (off + blen (print_def cr (SAttrDefault name v))) rest st'.
   Proof.
     intros ctx defs name v rest R line off ll Hag (Hname & Hv) HR HF. cbn [wf_sdef] in Hname.
-    unfold print_quoted in *. prep HR HF kw_attribute_default.
+    unfold print_quoted in *. prep HR HF kw_attribute_default. eol rest.
     assert (Hk : blen kw_attribute_default = 11) by reflexivity.
     pose proof (blen_nonneg name). pose proof (blen_nonneg (print_attr_value v)).
-    destruct (attr_value_head v (59 :: 10 :: rest)) as (T & ET). rewrite ET.
+    destruct (attr_value_head v (59 :: ce :: re)) as (T & ET). rewrite ET.
     unfold parse_attribute_default, canon. unfold bind at 1. rewrite p_keyword_canon. rewrite stepS_plain by discriminate.
     unfold bind at 1. rewrite p_string_ws by side. rewrite stepS_plain by discriminate.
     match goal with |- context [PS (mkS T ?LA ?PP ?LL ?KK ?L2 32 ws_default) None] =>
       destruct (attr_tail_run ctx defs name v
                   (fun i f s0 => DAttributeDefault {| dd_pos := {| p_line := line; p_column := 1; p_offset := off |}; dd_name := name;
                                                       dd_int := i; dd_float := f; dd_string := s0 |})
-                  rest T LA PP LL KK L2 Hag Hv (eq_sym ET) ltac:(lia) ltac:(lia)) as (st' & E & HRd) end.
+                  rest ce re T LA PP LL KK L2 Hag Hv (eq_sym Ee) (eq_sym ET) ltac:(lia) ltac:(lia)) as (st' & E & HRd) end.
     exists st'. split.
     - unfold attr_tail in E. cbn [elab_def_ctx]. destruct (elab_attr_value ctx name v) as [[i f] s0]. exact E.
     - ready_at HRd. unfold print_quoted. repeat (rewrite blen_app || rewrite blen_cons). rewrite ?blen_nil. lia.
   Qed.
 
-  Lemma attr_value_peek : forall ctx name v T rest last P l K ll,
-    wf_attr_value ctx name v -> 32 :: T = print_attr_value v ++ 32 :: 59 :: 10 :: rest ->
+  Lemma attr_value_peek : forall ctx name v T ce re last P l K ll, ascii ce ->
+    wf_attr_value ctx name v -> 32 :: T = print_attr_value v ++ 32 :: 59 :: ce :: re ->
     (length (print_attr_value v) + 8 < F)%nat -> 0 <= K ->
     exists t st1, peek_token (PS (mkS T last P l K ll 32 ws_default) None) = POk t st1 /\ t_typ t <> TIdent.
   Proof.
-    intros ctx name v T rest last P l K ll Hw HT HF HK. unfold wf_attr_value in Hw.
+    intros ctx name v T ce re last P l K ll Hcea Hw HT HF HK. unfold wf_attr_value in Hw.
     destruct v; cbn [print_attr_value app] in HT; injection HT as ->; cbn [print_attr_value length] in HF.
-    - destruct (peek_ws_punct 32 59 10 rest last P l K ll ws_default) as (tk & Ep & Ety); try side.
+    - destruct (peek_ws_punct 32 59 ce re last P l K ll ws_default) as (tk & Ep & Ety); try side.
       eexists; eexists; split; [exact Ep|rewrite Ety; discriminate].
     - assert (Hn : wf_num n) by (destruct (lookup_ctx name ctx) as [[[] ?]|]; try contradiction; exact Hw).
-      destruct (value_peek (n, []) (59 :: 10 :: rest) last P l K ll (conj Hn str_nil)
+      destruct (value_peek (n, []) (59 :: ce :: re) last P l K ll (conj Hn str_nil)
                   ltac:(cbn [fst]; lia) HK) as (t & st1 & Ep & Hty).
       eexists; eexists; split; [exact Ep|]. destruct Hty as [-> | [-> | ->]]; discriminate.
     - assert (Hn : wf_num n) by (destruct (lookup_ctx name ctx) as [[[] ?]|]; try contradiction; exact Hw).
-      destruct (value_peek (n, []) (59 :: 10 :: rest) last P l K ll (conj Hn str_nil)
+      destruct (value_peek (n, []) (59 :: ce :: re) last P l K ll (conj Hn str_nil)
                   ltac:(cbn [fst]; lia) HK) as (t & st1 & Ep & Hty).
       eexists; eexists; split; [exact Ep|]. destruct Hty as [-> | [-> | ->]]; discriminate.
     - assert (Hs : str_ok s) by (destruct (lookup_ctx name ctx) as [[[] ?]|]; try contradiction; exact Hw).
       unfold print_quoted in *. rewrite <- app_assoc. cbn [app]. cbn [app length] in HF. rewrite app_length in HF.
-      destruct (quote_peek s 32 (59 :: 10 :: rest) last P l K ll Hs ltac:(unfold ascii; lia) ltac:(lia) HK) as (tk & st1 & Ep & Ety).
+      destruct (quote_peek s 32 (59 :: ce :: re) last P l K ll Hs ltac:(first [assumption | unfold ascii; lia]) ltac:(lia) HK) as (tk & st1 & Ep & Ety).
       eexists; eexists; split; [exact Ep|rewrite Ety; discriminate].
     - assert (Hi : wf_uint i) by (destruct (lookup_ctx name ctx) as [[[] ?]|]; try contradiction; apply Hw).
       destruct Hi as ((d0 & t & -> & Hd & Ht & Hz) & _). rewrite peek_token_scan.
       rewrite (scan_ws_uint 32); try side; [|cbn [length] in HF; lia]. eexists; eexists; split; [reflexivity|discriminate].
     - assert (Hs : str_ok s) by (destruct (lookup_ctx name ctx) as [[[] ?]|]; try contradiction; exact Hw).
       unfold print_quoted in *. rewrite <- app_assoc. cbn [app]. cbn [app length] in HF. rewrite app_length in HF.
-      destruct (quote_peek s 32 (59 :: 10 :: rest) last P l K ll Hs ltac:(unfold ascii; lia) ltac:(lia) HK) as (tk & st1 & Ep & Ety).
+      destruct (quote_peek s 32 (59 :: ce :: re) last P l K ll Hs ltac:(first [assumption | unfold ascii; lia]) ltac:(lia) HK) as (tk & st1 & Ep & Ety).
       eexists; eexists; split; [exact Ep|rewrite Ety; discriminate].
   Qed.
 
@@ -2639,36 +2963,36 @@ Section RT.
 
   Lemma step_attr_value : forall ctx defs name o v rest R line off ll,
     ctx_agrees ctx defs -> wf_sdef_ctx ctx (SAttrValue name o v) ->
-    print_def (SAttrValue name o v) ++ rest = kw_attribute_value ++ 32 :: R ->
-    (length (print_def (SAttrValue name o v)) + 4 <= F)%nat ->
+    print_def cr (SAttrValue name o v) ++ rest = kw_attribute_value ++ 32 :: R ->
+    (length (print_def cr (SAttrValue name o v)) + 4 <= F)%nat ->
     exists st', parse_attribute_value il id F defs (canon line off kw_attribute_value 32 R ll)
-                = POk (elab_def_ctx ctx line off (SAttrValue name o v)) st'
-                /\ Ready (line + 1) (off + blen (print_def (SAttrValue name o v))) rest st'.
+                = POk (elab_def_ctx cr ctx line off (SAttrValue name o v)) st'
+                /\ Ready SL (line + 1) (off + blen (print_def cr (SAttrValue name o v))) rest st'.
   Proof.
     intros ctx defs name o v rest R line off ll Hag ((Hname & Ho) & Hv) HR HF.
     assert (Hk : blen kw_attribute_value = 3) by reflexivity.
     pose proof (blen_nonneg name). pose proof (blen_nonneg (print_attr_value v)).
-    destruct (attr_value_head v (59 :: 10 :: rest)) as (T & ET).
+    eol0 rest. destruct (attr_value_head v (59 :: ce :: re)) as (T & ET).
     set (pos0 := {| p_line := line; p_column := 1; p_offset := off |}).
     destruct o as [|n|i|i n|n]; cbn [wf_obj] in Ho.
     - (* no object *)
-      prep HR HF kw_attribute_value. rewrite ET.
+      prep HR HF kw_attribute_value. rewrite ?Ee in *. rewrite ET.
       unfold parse_attribute_value, canon. unfold bind at 1. rewrite p_keyword_canon. rewrite stepS_plain by discriminate.
       unfold bind at 1. rewrite p_string_ws by side. rewrite stepS_plain by discriminate.
       unfold bind at 1.
       match goal with |- context [optional_object_type il id F (PS (mkS T ?LA ?PP ?LL ?KK ?L2 32 ws_default) None)] =>
-        destruct (attr_value_peek ctx name v T rest LA PP LL KK L2 Hv (eq_sym ET) ltac:(lia) ltac:(lia)) as (tk & st1 & Epk & Hty);
+        destruct (attr_value_peek ctx name v T ce re LA PP LL KK L2 Hcea Hv (eq_sym ET) ltac:(lia) ltac:(lia)) as (tk & st1 & Epk & Hty);
         rewrite (opt_obj_not_ident _ _ _ Epk Hty); unfold bind at 1; cbn [object_ref]; unfold ret at 1; cbv beta iota;
         destruct (attr_tail_run ctx defs name v
                     (fun i0 f s0 => DAttributeValue {| av_pos := pos0; av_name := name; av_object := OtUnspecified; av_message_id := 0;
                                      av_signal := []; av_node := []; av_envvar := []; av_int := i0; av_float := f; av_string := s0 |})
-                    rest T LA PP LL KK L2 Hag Hv (eq_sym ET) ltac:(lia) ltac:(lia)) as (st' & E & HRd) end.
+                    rest ce re T LA PP LL KK L2 Hag Hv (eq_sym Ee) (eq_sym ET) ltac:(lia) ltac:(lia)) as (st' & E & HRd) end.
       rewrite <- (attr_tail_after_peek _ _ _ _ _ _ Epk) in E.
       exists st'. split.
       + unfold attr_tail in E. cbn [elab_def_ctx]. destruct (elab_attr_value ctx name v) as [[i0 f] s0]. exact E.
       + ready_at HRd. cbn [print_obj]. unfold print_quoted. repeat (rewrite blen_app || rewrite blen_cons). rewrite ?blen_nil. lia.
     - (* BU_ node *)
-      prep HR HF kw_attribute_value. unfold kw_nodes in HF. cbn [length] in HF. pose proof (blen_nonneg n).
+      prep HR HF kw_attribute_value. rewrite ?Ee in *. unfold kw_nodes in HF. cbn [length] in HF. pose proof (blen_nonneg n).
       assert (Hk2 : blen kw_nodes = 3) by reflexivity. rewrite ET.
       unfold parse_attribute_value, canon. unfold bind at 1. rewrite p_keyword_canon. rewrite stepS_plain by discriminate.
       unfold bind at 1. rewrite p_string_ws by side. rewrite stepS_plain by discriminate.
@@ -2680,12 +3004,12 @@ Section RT.
         destruct (attr_tail_run ctx defs name v
                     (fun i0 f s0 => DAttributeValue {| av_pos := pos0; av_name := name; av_object := OtNode; av_message_id := 0;
                                      av_signal := []; av_node := n; av_envvar := []; av_int := i0; av_float := f; av_string := s0 |})
-                    rest T LA PP LL KK L2 Hag Hv (eq_sym ET) ltac:(lia) ltac:(lia)) as (st' & E & HRd) end.
+                    rest ce re T LA PP LL KK L2 Hag Hv (eq_sym Ee) (eq_sym ET) ltac:(lia) ltac:(lia)) as (st' & E & HRd) end.
       exists st'. split.
       + unfold attr_tail in E. cbn [elab_def_ctx]. destruct (elab_attr_value ctx name v) as [[i0 f] s0]. exact E.
       + ready_at HRd. cbn [print_obj]. unfold print_quoted. repeat (rewrite blen_app || rewrite blen_cons). rewrite ?blen_nil. lia.
     - (* BO_ id *)
-      destruct Ho as (Hi & Hvi). prep HR HF kw_attribute_value. unfold kw_message in HF. cbn [length] in HF. pose proof (blen_nonneg i).
+      destruct Ho as (Hi & Hvi). prep HR HF kw_attribute_value. rewrite ?Ee in *. unfold kw_message in HF. cbn [length] in HF. pose proof (blen_nonneg i).
       assert (Hk2 : blen kw_message = 3) by reflexivity. rewrite ET.
       unfold parse_attribute_value, canon. unfold bind at 1. rewrite p_keyword_canon. rewrite stepS_plain by discriminate.
       unfold bind at 1. rewrite p_string_ws by side. rewrite stepS_plain by discriminate.
@@ -2697,12 +3021,12 @@ Section RT.
         destruct (attr_tail_run ctx defs name v
                     (fun i0 f s0 => DAttributeValue {| av_pos := pos0; av_name := name; av_object := OtMessage; av_message_id := msgid i;
                                      av_signal := []; av_node := []; av_envvar := []; av_int := i0; av_float := f; av_string := s0 |})
-                    rest T LA PP LL KK L2 Hag Hv (eq_sym ET) ltac:(lia) ltac:(lia)) as (st' & E & HRd) end.
+                    rest ce re T LA PP LL KK L2 Hag Hv (eq_sym Ee) (eq_sym ET) ltac:(lia) ltac:(lia)) as (st' & E & HRd) end.
       exists st'. split.
       + unfold attr_tail in E. cbn [elab_def_ctx]. destruct (elab_attr_value ctx name v) as [[i0 f] s0]. exact E.
       + ready_at HRd. cbn [print_obj]. unfold print_quoted. repeat (rewrite blen_app || rewrite blen_cons). rewrite ?blen_nil. lia.
     - (* SG_ id name *)
-      destruct Ho as ((Hi & Hvi) & Hn). prep HR HF kw_attribute_value. unfold kw_signal in HF. cbn [length] in HF.
+      destruct Ho as ((Hi & Hvi) & Hn). prep HR HF kw_attribute_value. rewrite ?Ee in *. unfold kw_signal in HF. cbn [length] in HF.
       pose proof (blen_nonneg i). pose proof (blen_nonneg n).
       assert (Hk2 : blen kw_signal = 3) by reflexivity. rewrite ET.
       unfold parse_attribute_value, canon. unfold bind at 1. rewrite p_keyword_canon. rewrite stepS_plain by discriminate.
@@ -2716,12 +3040,12 @@ Section RT.
         destruct (attr_tail_run ctx defs name v
                     (fun i0 f s0 => DAttributeValue {| av_pos := pos0; av_name := name; av_object := OtSignal; av_message_id := msgid i;
                                      av_signal := n; av_node := []; av_envvar := []; av_int := i0; av_float := f; av_string := s0 |})
-                    rest T LA PP LL KK L2 Hag Hv (eq_sym ET) ltac:(lia) ltac:(lia)) as (st' & E & HRd) end.
+                    rest ce re T LA PP LL KK L2 Hag Hv (eq_sym Ee) (eq_sym ET) ltac:(lia) ltac:(lia)) as (st' & E & HRd) end.
       exists st'. split.
       + unfold attr_tail in E. cbn [elab_def_ctx]. destruct (elab_attr_value ctx name v) as [[i0 f] s0]. exact E.
       + ready_at HRd. cbn [print_obj]. unfold print_quoted. repeat (rewrite blen_app || rewrite blen_cons). rewrite ?blen_nil. lia.
     - (* EV_ name *)
-      prep HR HF kw_attribute_value. unfold kw_envvar in HF. cbn [length] in HF. pose proof (blen_nonneg n).
+      prep HR HF kw_attribute_value. rewrite ?Ee in *. unfold kw_envvar in HF. cbn [length] in HF. pose proof (blen_nonneg n).
       assert (Hk2 : blen kw_envvar = 3) by reflexivity. rewrite ET.
       unfold parse_attribute_value, canon. unfold bind at 1. rewrite p_keyword_canon. rewrite stepS_plain by discriminate.
       unfold bind at 1. rewrite p_string_ws by side. rewrite stepS_plain by discriminate.
@@ -2733,7 +3057,7 @@ Section RT.
         destruct (attr_tail_run ctx defs name v
                     (fun i0 f s0 => DAttributeValue {| av_pos := pos0; av_name := name; av_object := OtEnvVar; av_message_id := 0;
                                      av_signal := []; av_node := []; av_envvar := n; av_int := i0; av_float := f; av_string := s0 |})
-                    rest T LA PP LL KK L2 Hag Hv (eq_sym ET) ltac:(lia) ltac:(lia)) as (st' & E & HRd) end.
+                    rest ce re T LA PP LL KK L2 Hag Hv (eq_sym Ee) (eq_sym ET) ltac:(lia) ltac:(lia)) as (st' & E & HRd) end.
       exists st'. split.
       + unfold attr_tail in E. cbn [elab_def_ctx]. destruct (elab_attr_value ctx name v) as [[i0 f] s0]. exact E.
       + ready_at HRd. cbn [print_obj]. unfold print_quoted. repeat (rewrite blen_app || rewrite blen_cons). rewrite ?blen_nil. lia.
@@ -2782,8 +3106,8 @@ Section RT.
              end.
   Proof. intros b. destruct b as [[|] r|r| |v vs]; cbn [print_attr_body attr_body_type attr_type_name]; eexists; split; reflexivity. Qed.
 
-  Lemma attr_cont_run : forall kwpos ot name body rest T last P l K ll,
-    wf_attr_body body -> 32 :: T = print_attr_body body ++ 32 :: 59 :: 10 :: rest ->
+  Lemma attr_cont_run : forall kwpos ot name body rest ce re T last P l K ll, ce :: re = cr ++ 10 :: rest ->
+    wf_attr_body body -> 32 :: T = print_attr_body body ++ 32 :: 59 :: ce :: re ->
     (length (print_attr_body body) + 12 < F)%nat -> 0 <= K ->
     exists st', attr_cont kwpos ot name (PS (mkS T last P l K ll 32 ws_default) None)
                 = POk (DAttribute {| ad_pos := kwpos; ad_object := ot; ad_name := name; ad_type := attr_body_type body;
@@ -2792,14 +3116,14 @@ Section RT.
                         ad_min_float := (match body with ABFloat (Some (a, _)) => num_bits a | _ => 0 end);
                         ad_max_float := (match body with ABFloat (Some (_, b)) => num_bits b | _ => 0 end);
                         ad_enum_values := attr_body_enums body |}) st'
-                /\ Ready (l + 1) (P + blen (print_attr_body body) + 1 + 1) rest st'.
+                /\ Ready SL (l + 1) (P + blen (print_attr_body body) + 1 + blen cr + 1) rest st'.
   Proof.
-    intros kwpos ot name body rest T last P l K ll Hw HT HF HK.
+    intros kwpos ot name body rest ce re T last P l K ll Ee Hw HT HF HK. eolh Ee.
     destruct (attr_type_name_body body) as (rst & Eb & Erst). rewrite Eb in HT, HF. cbn [app] in HT. injection HT as ->.
     assert (Htn : (length (attr_type_name (attr_body_type body)) <= 6)%nat /\ 0 <= blen (attr_type_name (attr_body_type body)))
       by (split; [destruct body as [[|] ?|?| |? ?]; cbn; lia|apply blen_nonneg]).
     destruct Htn as (Htl & Htn). cbn [length] in HF. rewrite app_length in HF.
-    assert (E32 : exists q, rst ++ 32 :: 59 :: 10 :: rest = 32 :: q).
+    assert (E32 : exists q, rst ++ 32 :: 59 :: ce :: re = 32 :: q).
     { subst rst. destruct body as [h [[a b]|]|[[a b]|]| |v vs]; cbn; eexists; reflexivity. }
     destruct E32 as (q & Eq). rewrite <- app_assoc. rewrite Eq.
     unfold attr_cont. unfold bind at 1. rewrite p_attr_type_ws by side. rewrite stepS_plain by discriminate.
@@ -2812,7 +3136,7 @@ Section RT.
       repeat (rewrite app_length in HF || cbn [length] in HF).
       pose proof (blen_nonneg (print_num a)). pose proof (blen_nonneg (print_num b)).
       match goal with |- context [PS (mkS ?TT ?LA ?PP ?LL ?KK ?L2 32 ws_default) None] =>
-        destruct (value_peek (a, []) (print_num b ++ 32 :: 59 :: 10 :: rest) LA PP LL KK L2 (conj Ha str_nil)
+        destruct (value_peek (a, []) (print_num b ++ 32 :: 59 :: ce :: re) LA PP LL KK L2 (conj Ha str_nil)
                     ltac:(cbn [fst]; lia) ltac:(lia)) as (tk & st1 & Epk & Hty) end.
       cbn [fst] in Epk.
       assert (Ens : (t_typ tk =? c_semi) = false) by (destruct Hty as [-> | [-> | ->]]; reflexivity).
@@ -2820,8 +3144,8 @@ Section RT.
       unfold bind at 1. rewrite (p_int_after_peek _ _ _ Epk). rewrite p_int_ws by side. rewrite stepS_plain by discriminate.
       unfold bind at 1. rewrite p_int_ws by side. rewrite stepS_plain by discriminate.
       unfold ret at 1. cbv beta iota. unfold bind at 1.
-      match goal with |- context [p_token il id F c_semi (PS (mkS (59 :: 10 :: rest) ?LA ?PP ?LL ?KK ?L2 32 ws_default) None)] =>
-        destruct (finish_semi_ws rest LA PP LL KK L2 ltac:(lia) ltac:(lia)) as (st' & E & HRd) end.
+      match goal with |- context [p_token il id F c_semi (PS (mkS (59 :: ce :: re) ?LA ?PP ?LL ?KK ?L2 32 ws_default) None)] =>
+        destruct (finish_semi_ws rest ce re LA PP LL KK L2 Ee ltac:(lia) ltac:(lia)) as (st' & E & HRd) end.
       rewrite E. unfold ret. exists st'. split; [reflexivity|]. ready_at HRd.
       repeat (rewrite blen_app || rewrite blen_cons). rewrite ?blen_nil. lia.
       }
@@ -2830,7 +3154,7 @@ Section RT.
       repeat (rewrite app_length in HF || cbn [length] in HF).
       pose proof (blen_nonneg (print_num a)). pose proof (blen_nonneg (print_num b)).
       match goal with |- context [PS (mkS ?TT ?LA ?PP ?LL ?KK ?L2 32 ws_default) None] =>
-        destruct (value_peek (a, []) (print_num b ++ 32 :: 59 :: 10 :: rest) LA PP LL KK L2 (conj Ha str_nil)
+        destruct (value_peek (a, []) (print_num b ++ 32 :: 59 :: ce :: re) LA PP LL KK L2 (conj Ha str_nil)
                     ltac:(cbn [fst]; lia) ltac:(lia)) as (tk & st1 & Epk & Hty) end.
       cbn [fst] in Epk.
       assert (Ens : (t_typ tk =? c_semi) = false) by (destruct Hty as [-> | [-> | ->]]; reflexivity).
@@ -2838,31 +3162,31 @@ Section RT.
       unfold bind at 1. rewrite (p_int_after_peek _ _ _ Epk). rewrite p_int_ws by side. rewrite stepS_plain by discriminate.
       unfold bind at 1. rewrite p_int_ws by side. rewrite stepS_plain by discriminate.
       unfold ret at 1. cbv beta iota. unfold bind at 1.
-      match goal with |- context [p_token il id F c_semi (PS (mkS (59 :: 10 :: rest) ?LA ?PP ?LL ?KK ?L2 32 ws_default) None)] =>
-        destruct (finish_semi_ws rest LA PP LL KK L2 ltac:(lia) ltac:(lia)) as (st' & E & HRd) end.
+      match goal with |- context [p_token il id F c_semi (PS (mkS (59 :: ce :: re) ?LA ?PP ?LL ?KK ?L2 32 ws_default) None)] =>
+        destruct (finish_semi_ws rest ce re LA PP LL KK L2 Ee ltac:(lia) ltac:(lia)) as (st' & E & HRd) end.
       rewrite E. unfold ret. exists st'. split; [reflexivity|]. ready_at HRd.
       repeat (rewrite blen_app || rewrite blen_cons). rewrite ?blen_nil. lia.
       }
     - (* INT/HEX *) destruct h; cbn [attr_body_type attr_type_name] in *.
       {
       injection Eq as <-. rewrite app_nil_r in *.
-      match goal with |- context [PS (mkS (59 :: 10 :: rest) ?LA ?PP ?LL ?KK ?L2 32 ws_default) None] =>
-        destruct (peek_ws_punct 32 59 10 rest LA PP LL KK L2 ws_default) as (tk & Epk & Ety); try side end.
+      match goal with |- context [PS (mkS (59 :: ce :: re) ?LA ?PP ?LL ?KK ?L2 32 ws_default) None] =>
+        destruct (peek_ws_punct 32 59 ce re LA PP LL KK L2 ws_default) as (tk & Epk & Ety); try side end.
       unfold bind at 1. unfold bind at 1. rewrite Epk, Ety. change (59 =? c_semi) with true. cbn [negb].
       unfold ret at 1. cbv beta iota. unfold bind at 1.
-      match goal with |- context [PS (stepS 10 rest ?PP ?LL ?KK ?L2 10 ws_default) (Some tk)] =>
-        destruct (finish_semi_look tk rest PP LL KK L2 Ety ltac:(lia)) as (st' & E2 & HRd) end.
+      match goal with |- context [PS (stepS ce re ?PP ?LL ?KK ?L2 ce ws_default) (Some tk)] =>
+        destruct (finish_semi_look tk rest ce re PP LL KK L2 Ee Ety ltac:(lia)) as (st' & E2 & HRd) end.
       rewrite E2. unfold ret. exists st'. split; [reflexivity|]. ready_at HRd.
       repeat (rewrite blen_app || rewrite blen_cons). rewrite ?blen_nil. lia.
       }
       {
       injection Eq as <-. rewrite app_nil_r in *.
-      match goal with |- context [PS (mkS (59 :: 10 :: rest) ?LA ?PP ?LL ?KK ?L2 32 ws_default) None] =>
-        destruct (peek_ws_punct 32 59 10 rest LA PP LL KK L2 ws_default) as (tk & Epk & Ety); try side end.
+      match goal with |- context [PS (mkS (59 :: ce :: re) ?LA ?PP ?LL ?KK ?L2 32 ws_default) None] =>
+        destruct (peek_ws_punct 32 59 ce re LA PP LL KK L2 ws_default) as (tk & Epk & Ety); try side end.
       unfold bind at 1. unfold bind at 1. rewrite Epk, Ety. change (59 =? c_semi) with true. cbn [negb].
       unfold ret at 1. cbv beta iota. unfold bind at 1.
-      match goal with |- context [PS (stepS 10 rest ?PP ?LL ?KK ?L2 10 ws_default) (Some tk)] =>
-        destruct (finish_semi_look tk rest PP LL KK L2 Ety ltac:(lia)) as (st' & E2 & HRd) end.
+      match goal with |- context [PS (stepS ce re ?PP ?LL ?KK ?L2 ce ws_default) (Some tk)] =>
+        destruct (finish_semi_look tk rest ce re PP LL KK L2 Ee Ety ltac:(lia)) as (st' & E2 & HRd) end.
       rewrite E2. unfold ret. exists st'. split; [reflexivity|]. ready_at HRd.
       repeat (rewrite blen_app || rewrite blen_cons). rewrite ?blen_nil. lia.
       }
@@ -2870,7 +3194,7 @@ Section RT.
       repeat (rewrite app_length in HF || cbn [length] in HF).
       pose proof (blen_nonneg (print_num a)). pose proof (blen_nonneg (print_num b)).
       match goal with |- context [PS (mkS ?TT ?LA ?PP ?LL ?KK ?L2 32 ws_default) None] =>
-        destruct (value_peek (a, []) (print_num b ++ 32 :: 59 :: 10 :: rest) LA PP LL KK L2 (conj Ha str_nil)
+        destruct (value_peek (a, []) (print_num b ++ 32 :: 59 :: ce :: re) LA PP LL KK L2 (conj Ha str_nil)
                     ltac:(cbn [fst]; lia) ltac:(lia)) as (tk & st1 & Epk & Hty) end.
       cbn [fst] in Epk.
       assert (Ens : (t_typ tk =? c_semi) = false) by (destruct Hty as [-> | [-> | ->]]; reflexivity).
@@ -2878,54 +3202,54 @@ Section RT.
       unfold bind at 1. rewrite (p_float_after_peek _ _ _ Epk). rewrite p_float_ws by side. rewrite stepS_plain by discriminate.
       unfold bind at 1. rewrite p_float_ws by side. rewrite stepS_plain by discriminate.
       unfold ret at 1. cbv beta iota. unfold bind at 1.
-      match goal with |- context [p_token il id F c_semi (PS (mkS (59 :: 10 :: rest) ?LA ?PP ?LL ?KK ?L2 32 ws_default) None)] =>
-        destruct (finish_semi_ws rest LA PP LL KK L2 ltac:(lia) ltac:(lia)) as (st' & E & HRd) end.
+      match goal with |- context [p_token il id F c_semi (PS (mkS (59 :: ce :: re) ?LA ?PP ?LL ?KK ?L2 32 ws_default) None)] =>
+        destruct (finish_semi_ws rest ce re LA PP LL KK L2 Ee ltac:(lia) ltac:(lia)) as (st' & E & HRd) end.
       rewrite E. unfold ret. exists st'. split; [reflexivity|]. ready_at HRd.
       repeat (rewrite blen_app || rewrite blen_cons). rewrite ?blen_nil. lia.
     - (* FLOAT *) cbn [attr_body_type attr_type_name] in *. injection Eq as <-. rewrite app_nil_r in *.
-      match goal with |- context [PS (mkS (59 :: 10 :: rest) ?LA ?PP ?LL ?KK ?L2 32 ws_default) None] =>
-        destruct (peek_ws_punct 32 59 10 rest LA PP LL KK L2 ws_default) as (tk & Epk & Ety); try side end.
+      match goal with |- context [PS (mkS (59 :: ce :: re) ?LA ?PP ?LL ?KK ?L2 32 ws_default) None] =>
+        destruct (peek_ws_punct 32 59 ce re LA PP LL KK L2 ws_default) as (tk & Epk & Ety); try side end.
       cbn [attr_body_type]. unfold bind at 1. unfold bind at 1. rewrite Epk, Ety. change (59 =? c_semi) with true. cbn [negb].
       unfold ret at 1. cbv beta iota. unfold bind at 1.
-      match goal with |- context [PS (stepS 10 rest ?PP ?LL ?KK ?L2 10 ws_default) (Some tk)] =>
-        destruct (finish_semi_look tk rest PP LL KK L2 Ety ltac:(lia)) as (st' & E2 & HRd) end.
+      match goal with |- context [PS (stepS ce re ?PP ?LL ?KK ?L2 ce ws_default) (Some tk)] =>
+        destruct (finish_semi_look tk rest ce re PP LL KK L2 Ee Ety ltac:(lia)) as (st' & E2 & HRd) end.
       rewrite E2. unfold ret. exists st'. split; [reflexivity|]. ready_at HRd.
       repeat (rewrite blen_app || rewrite blen_cons). rewrite ?blen_nil. lia.
     - (* STRING *) cbn [attr_body_type attr_type_name] in *. injection Eq as <-. rewrite app_nil_r in *.
       cbn [attr_body_type]. unfold bind at 1. unfold ret at 1. cbv beta iota. unfold bind at 1.
-      match goal with |- context [p_token il id F c_semi (PS (mkS (59 :: 10 :: rest) ?LA ?PP ?LL ?KK ?L2 32 ws_default) None)] =>
-        destruct (finish_semi_ws rest LA PP LL KK L2 ltac:(lia) ltac:(lia)) as (st' & E & HRd) end.
+      match goal with |- context [p_token il id F c_semi (PS (mkS (59 :: ce :: re) ?LA ?PP ?LL ?KK ?L2 32 ws_default) None)] =>
+        destruct (finish_semi_ws rest ce re LA PP LL KK L2 Ee ltac:(lia) ltac:(lia)) as (st' & E & HRd) end.
       rewrite E. unfold ret. exists st'. split; [reflexivity|]. ready_at HRd.
       repeat (rewrite blen_app || rewrite blen_cons). rewrite ?blen_nil. lia.
     - (* ENUM *) cbn [attr_body_type attr_type_name] in *. destruct Hw as (Hv & Hvs). injection Eq as <-. unfold print_quoted in *.
       cbn [app] in *. rewrite <- !app_assoc in *. cbn [app] in *.
       repeat (rewrite app_length in HF || cbn [length] in HF).
       pose proof (blen_nonneg v). pose proof (blen_nonneg (enum_list vs)). pose proof (enum_list_len vs) as Hel.
-      assert (ET' : exists T', enum_list vs ++ 32 :: 59 :: 10 :: rest = 32 :: T') by (destruct vs as [|y vs']; cbn; eexists; reflexivity).
+      assert (ET' : exists T', enum_list vs ++ 32 :: 59 :: ce :: re = 32 :: T') by (destruct vs as [|y vs']; cbn; eexists; reflexivity).
       destruct ET' as (T' & ET'). rewrite ET'.
       cbn [attr_body_type]. unfold bind at 1. unfold bind at 1. rewrite p_string_ws by side. rewrite stepS_plain by discriminate.
       unfold bind at 1.
       match goal with |- context [comma_strings_loop il id F F [v] (PS (mkS T' ?LA ?PP ?LL ?KK ?L2 32 ws_default) None)] =>
-        destruct (comma_strings_semi_run vs F [v] T' 10 rest LA PP LL KK L2 (eq_sym ET') Hvs ltac:(unfold ascii; lia) ltac:(lia)
+        destruct (comma_strings_semi_run vs F [v] T' ce re LA PP LL KK L2 (eq_sym ET') Hvs ltac:(first [assumption | unfold ascii; lia]) ltac:(lia)
                     ltac:(lia) ltac:(lia)) as (tk & E & Ety) end.
       rewrite E. unfold ret at 1. cbv beta iota. unfold bind at 1.
-      match goal with |- context [PS (stepS 10 rest ?PP ?LL ?KK ?L2 10 ws_default) (Some tk)] =>
-        destruct (finish_semi_look tk rest PP LL KK L2 Ety ltac:(lia)) as (st' & E2 & HRd) end.
+      match goal with |- context [PS (stepS ce re ?PP ?LL ?KK ?L2 ce ws_default) (Some tk)] =>
+        destruct (finish_semi_look tk rest ce re PP LL KK L2 Ee Ety ltac:(lia)) as (st' & E2 & HRd) end.
       rewrite E2. unfold ret. cbn [rev app attr_body_enums]. exists st'. split; [reflexivity|]. ready_at HRd.
       repeat (rewrite blen_app || rewrite blen_cons). rewrite ?blen_nil. lia.
   Qed.
 
   Lemma step_attr : forall o name body rest R line off ll, wf_sdef (SAttr o name body) ->
-    print_def (SAttr o name body) ++ rest = kw_attribute ++ 32 :: R ->
-    (length (print_def (SAttr o name body)) + 4 <= F)%nat ->
+    print_def cr (SAttr o name body) ++ rest = kw_attribute ++ 32 :: R ->
+    (length (print_def cr (SAttr o name body)) + 4 <= F)%nat ->
     exists st', parse_attribute il id F (canon line off kw_attribute 32 R ll)
-                = POk (elab_def line off (SAttr o name body)) st'
-                /\ Ready (line + 1) (off + blen (print_def (SAttr o name body))) rest st'.
+                = POk (elab_def cr line off (SAttr o name body)) st'
+                /\ Ready SL (line + 1) (off + blen (print_def cr (SAttr o name body))) rest st'.
   Proof.
     intros o name body rest R line off ll (Hname & Hbody) HR HF.
     assert (Hk : blen kw_attribute = 7) by reflexivity.
     pose proof (blen_nonneg name). pose proof (blen_nonneg (print_attr_body body)).
-    destruct (attr_body_head body (59 :: 10 :: rest)) as (T & ET).
+    eol0 rest. destruct (attr_body_head body (59 :: ce :: re)) as (T & ET).
     set (pos0 := {| p_line := line; p_column := 1; p_offset := off |}).
     rewrite parse_attribute_unfold.
     destruct o; cbn [print_attr_obj] in *.
@@ -2933,56 +3257,56 @@ Section RT.
       cbn [print_def print_attr_obj] in *. unfold print_quoted in *.
       rewrite <- app_assoc in HR. apply app_inv_head in HR. cbn [app] in HR. injection HR as <-.
       repeat (rewrite <- app_assoc; cbn [app]). repeat (rewrite app_length in HF || cbn [length] in HF).
-      unfold kw_attribute in HF. cbn [length] in HF. rewrite ET.
+      unfold kw_attribute in HF. cbn [length] in HF. rewrite ?Ee in *. rewrite ET.
       unfold canon. unfold bind at 1. rewrite p_keyword_canon. rewrite stepS_plain by discriminate.
       unfold bind at 1.
       match goal with |- context [optional_object_type il id F (PS (mkS _ ?LA ?PP ?LL ?KK ?L2 32 ws_default) None)] =>
-        destruct (quote_peek name 32 T LA PP LL KK L2 (ident_plain name Hname) ltac:(unfold ascii; lia) ltac:(lia) ltac:(lia))
+        destruct (quote_peek name 32 T LA PP LL KK L2 (ident_plain name Hname) ltac:(first [assumption | unfold ascii; lia]) ltac:(lia) ltac:(lia))
           as (tk & st1 & Epk & Ety) end.
       rewrite (opt_obj_none _ _ _ Epk Ety). unfold bind at 1.
       rewrite (psi_after_peek _ _ _ Epk). rewrite p_string_identifier_ws by side. rewrite stepS_plain by discriminate.
       match goal with |- context [PS (mkS T ?LA ?PP ?LL ?KK ?L2 32 ws_default) None] =>
-        destruct (attr_cont_run pos0 OtUnspecified name body rest T LA PP LL KK L2 Hbody (eq_sym ET) ltac:(lia) ltac:(lia))
+        destruct (attr_cont_run pos0 OtUnspecified name body rest ce re T LA PP LL KK L2 (eq_sym Ee) Hbody (eq_sym ET) ltac:(lia) ltac:(lia))
           as (st' & E & HRd) end.
       exists st'. split; [exact E|]. ready_at HRd.
       repeat (rewrite blen_app || rewrite blen_cons). rewrite ?blen_nil. lia.
-    - prep HR HF kw_attribute. unfold kw_nodes in HF. cbn [length] in HF. assert (Hk2 : blen kw_nodes = 3) by reflexivity. rewrite ET.
+    - prep HR HF kw_attribute. rewrite ?Ee in *. unfold kw_nodes in HF. cbn [length] in HF. assert (Hk2 : blen kw_nodes = 3) by reflexivity. rewrite ET.
       unfold canon. unfold bind at 1. rewrite p_keyword_canon. rewrite stepS_plain by discriminate.
       match goal with |- context [mkS (66 :: 85 :: 95 :: 32 :: ?X)] => change (66 :: 85 :: 95 :: 32 :: X) with (kw_nodes ++ 32 :: X) end.
       unfold bind at 1. rewrite (opt_obj_kw kw_nodes OtNode) by side. rewrite stepS_plain by discriminate.
       unfold bind at 1. rewrite p_string_identifier_ws by side. rewrite stepS_plain by discriminate.
       match goal with |- context [PS (mkS T ?LA ?PP ?LL ?KK ?L2 32 ws_default) None] =>
-        destruct (attr_cont_run pos0 OtNode name body rest T LA PP LL KK L2 Hbody (eq_sym ET) ltac:(lia) ltac:(lia))
+        destruct (attr_cont_run pos0 OtNode name body rest ce re T LA PP LL KK L2 (eq_sym Ee) Hbody (eq_sym ET) ltac:(lia) ltac:(lia))
           as (st' & E & HRd) end.
       exists st'. split; [exact E|]. ready_at HRd.
       cbn [print_def print_attr_obj]. unfold print_quoted. repeat (rewrite blen_app || rewrite blen_cons). rewrite ?blen_nil. lia.
-    - prep HR HF kw_attribute. unfold kw_message in HF. cbn [length] in HF. assert (Hk2 : blen kw_message = 3) by reflexivity. rewrite ET.
+    - prep HR HF kw_attribute. rewrite ?Ee in *. unfold kw_message in HF. cbn [length] in HF. assert (Hk2 : blen kw_message = 3) by reflexivity. rewrite ET.
       unfold canon. unfold bind at 1. rewrite p_keyword_canon. rewrite stepS_plain by discriminate.
       match goal with |- context [mkS (66 :: 79 :: 95 :: 32 :: ?X)] => change (66 :: 79 :: 95 :: 32 :: X) with (kw_message ++ 32 :: X) end.
       unfold bind at 1. rewrite (opt_obj_kw kw_message OtMessage) by side. rewrite stepS_plain by discriminate.
       unfold bind at 1. rewrite p_string_identifier_ws by side. rewrite stepS_plain by discriminate.
       match goal with |- context [PS (mkS T ?LA ?PP ?LL ?KK ?L2 32 ws_default) None] =>
-        destruct (attr_cont_run pos0 OtMessage name body rest T LA PP LL KK L2 Hbody (eq_sym ET) ltac:(lia) ltac:(lia))
+        destruct (attr_cont_run pos0 OtMessage name body rest ce re T LA PP LL KK L2 (eq_sym Ee) Hbody (eq_sym ET) ltac:(lia) ltac:(lia))
           as (st' & E & HRd) end.
       exists st'. split; [exact E|]. ready_at HRd.
       cbn [print_def print_attr_obj]. unfold print_quoted. repeat (rewrite blen_app || rewrite blen_cons). rewrite ?blen_nil. lia.
-    - prep HR HF kw_attribute. unfold kw_signal in HF. cbn [length] in HF. assert (Hk2 : blen kw_signal = 3) by reflexivity. rewrite ET.
+    - prep HR HF kw_attribute. rewrite ?Ee in *. unfold kw_signal in HF. cbn [length] in HF. assert (Hk2 : blen kw_signal = 3) by reflexivity. rewrite ET.
       unfold canon. unfold bind at 1. rewrite p_keyword_canon. rewrite stepS_plain by discriminate.
       match goal with |- context [mkS (83 :: 71 :: 95 :: 32 :: ?X)] => change (83 :: 71 :: 95 :: 32 :: X) with (kw_signal ++ 32 :: X) end.
       unfold bind at 1. rewrite (opt_obj_kw kw_signal OtSignal) by side. rewrite stepS_plain by discriminate.
       unfold bind at 1. rewrite p_string_identifier_ws by side. rewrite stepS_plain by discriminate.
       match goal with |- context [PS (mkS T ?LA ?PP ?LL ?KK ?L2 32 ws_default) None] =>
-        destruct (attr_cont_run pos0 OtSignal name body rest T LA PP LL KK L2 Hbody (eq_sym ET) ltac:(lia) ltac:(lia))
+        destruct (attr_cont_run pos0 OtSignal name body rest ce re T LA PP LL KK L2 (eq_sym Ee) Hbody (eq_sym ET) ltac:(lia) ltac:(lia))
           as (st' & E & HRd) end.
       exists st'. split; [exact E|]. ready_at HRd.
       cbn [print_def print_attr_obj]. unfold print_quoted. repeat (rewrite blen_app || rewrite blen_cons). rewrite ?blen_nil. lia.
-    - prep HR HF kw_attribute. unfold kw_envvar in HF. cbn [length] in HF. assert (Hk2 : blen kw_envvar = 3) by reflexivity. rewrite ET.
+    - prep HR HF kw_attribute. rewrite ?Ee in *. unfold kw_envvar in HF. cbn [length] in HF. assert (Hk2 : blen kw_envvar = 3) by reflexivity. rewrite ET.
       unfold canon. unfold bind at 1. rewrite p_keyword_canon. rewrite stepS_plain by discriminate.
       match goal with |- context [mkS (69 :: 86 :: 95 :: 32 :: ?X)] => change (69 :: 86 :: 95 :: 32 :: X) with (kw_envvar ++ 32 :: X) end.
       unfold bind at 1. rewrite (opt_obj_kw kw_envvar OtEnvVar) by side. rewrite stepS_plain by discriminate.
       unfold bind at 1. rewrite p_string_identifier_ws by side. rewrite stepS_plain by discriminate.
       match goal with |- context [PS (mkS T ?LA ?PP ?LL ?KK ?L2 32 ws_default) None] =>
-        destruct (attr_cont_run pos0 OtEnvVar name body rest T LA PP LL KK L2 Hbody (eq_sym ET) ltac:(lia) ltac:(lia))
+        destruct (attr_cont_run pos0 OtEnvVar name body rest ce re T LA PP LL KK L2 (eq_sym Ee) Hbody (eq_sym ET) ltac:(lia) ltac:(lia))
           as (st' & E & HRd) end.
       exists st'. split; [exact E|]. ready_at HRd.
       cbn [print_def print_attr_obj]. unfold print_quoted. repeat (rewrite blen_app || rewrite blen_cons). rewrite ?blen_nil. lia.
@@ -3010,97 +3334,199 @@ Section RT.
     apply (idc_prefix_unique (c0 :: t) (c0' :: t')); try assumption; constructor; try assumption; apply id0_idc; assumption.
   Qed.
 
+  (** ---- uniqueness of "blank lines, then a definition" *)
+  Definition starts_def (rest : bytes) : Prop := rest = [] \/ exists c0 t, rest = c0 :: t /\ id0 c0 = true.
+
+  Lemma blank_not_id0 : forall c, blank_char c -> id0 c = false.
+  Proof. intros c [->|[->| ->]]; reflexivity. Qed.
+
+  Lemma blank_decomp_unique : forall g g' rest rest', Forall blank_char g -> Forall blank_char g' ->
+    starts_def rest -> starts_def rest' -> g ++ rest = g' ++ rest' -> g = g' /\ rest = rest'.
+  Proof.
+    induction g as [|a g IH]; intros g' rest rest' Hg Hg' Hr Hr' E.
+    - destruct g' as [|a' g']; [split; [reflexivity|exact E]|]. exfalso. cbn [app] in E. apply Forall_cons_iff in Hg'. destruct Hg' as (Ha' & _).
+      destruct Hr as [->|(c0 & t & -> & H0)]; [discriminate E|]. injection E as -> _. rewrite (blank_not_id0 _ Ha') in H0. discriminate.
+    - destruct g' as [|a' g'].
+      + exfalso. cbn [app] in E. apply Forall_cons_iff in Hg. destruct Hg as (Ha & _).
+        destruct Hr' as [->|(c0 & t & -> & H0)]; [discriminate E|]. injection E as -> _. rewrite (blank_not_id0 _ Ha) in H0. discriminate.
+      + cbn [app] in E. injection E as -> E. apply Forall_cons_iff in Hg. apply Forall_cons_iff in Hg'.
+        destruct (IH g' rest rest') as (-> & ->); try tauto.
+  Qed.
+
+  Lemma ident_starts_def : forall kw c r, is_ident kw -> starts_def (kw ++ c :: r).
+  Proof. intros kw c r (c0 & t & -> & H0 & _). right. exists c0, (t ++ c :: r). split; [reflexivity|exact H0]. Qed.
+
+  (** a boundary state whose lookahead already holds the EOF token *)
+  Lemma ready_look_eof : forall n line off g s tok, Forall blank_char g -> t_typ tok = EOF -> Ready n line off g (PS s (Some tok)).
+  Proof.
+    intros n line off g s tok Hg Ht g' rest' E (Hg' & _). split.
+    - intros _ _. rewrite peek_token_look. eexists; eexists; split; [reflexivity|exact Ht].
+    - intros kw c r -> Hk _ _ _. exfalso. rewrite <- (app_nil_r g) in E.
+      destruct (blank_decomp_unique g g' [] (kw ++ c :: r) Hg Hg' (or_introl eq_refl) (ident_starts_def kw c r Hk) E) as (_ & E').
+      destruct kw; discriminate E'.
+  Qed.
+
+  (** ... or the keyword token of the next definition *)
+  Lemma ready_look_kw : forall n line off g kw c r ll, Forall blank_char g -> is_ident kw -> idc c = false ->
+    Ready n line off (g ++ kw ++ c :: r) (canon (line + nl_count g) (off + blen g) kw c r ll).
+  Proof.
+    intros n line off g kw c r ll Hg Hk Hnc g' rest' E (Hg' & _). split.
+    - intros -> _. exfalso.
+      destruct (blank_decomp_unique g g' (kw ++ c :: r) [] Hg Hg' (ident_starts_def kw c r Hk) (or_introl eq_refl) E) as (_ & E').
+      destruct kw; discriminate E'.
+    - intros kw' c' r' -> Hk' Hc' Hnc' _.
+      destruct (blank_decomp_unique g g' (kw ++ c :: r) (kw' ++ c' :: r') Hg Hg' (ident_starts_def kw c r Hk)
+                  (ident_starts_def kw' c' r' Hk') E) as (<- & E').
+      destruct (decomp_unique _ _ _ _ _ _ Hk Hk' Hnc Hnc' E') as (<- & <- & <-).
+      exists ll. unfold canon. rewrite peek_token_look. reflexivity.
+  Qed.
+
+  (** the state in which a line end is pending, as "blank character [w], then the run [g1]" *)
+  Lemma eol_shape : forall X c r P l k ll ws, c :: r = cr ++ 10 :: X -> 0 <= k ->
+    exists w g1 P' l' k' ll',
+      stepS c r P l k ll c ws = mkS (g1 ++ X) [w] P' l' k' ll' w ws
+      /\ blank_char w /\ Forall blank_char g1 /\ (exists g', w :: g1 = g' ++ [10]) /\ 0 <= k' /\ (w = 10 -> k' = 0)
+      /\ l' + nl_count g1 = l + 1 /\ P' + blen g1 = P + blen cr + 1 /\ (length g1 < SL)%nat.
+  Proof.
+    intros X c r P l k ll ws E Hk. destruct (list_case cr) as [Ecr|(a & cr' & Ecr)]; rewrite Ecr in E |- *.
+    - cbn [app] in E. injection E as -> ->. exists 10, [], (P + 1), (l + 1), 0, (k + 1).
+      unfold stepS. change (10 =? 10) with true. cbv iota. cbn [app nl_count length]. rewrite !blen_nil.
+      split; [reflexivity|]. split; [right; right; reflexivity|]. split; [constructor|]. split; [exists []; reflexivity|].
+      unfold SL. repeat split; try lia.
+    - cbn [app] in E. injection E as -> ->.
+      assert (Ha : a = 32 \/ a = 13) by (pose proof Hcr as H; rewrite Ecr in H; inversion H; assumption).
+      assert (Hb : Forall blank_char cr') by (pose proof cr_blank as H; rewrite Ecr in H; inversion H; assumption).
+      assert (Hn : nl_count cr' = 0) by (pose proof cr_nl as H; rewrite Ecr, nl_count_cons in H; destruct Ha as [-> | ->]; exact H).
+      rewrite stepS_plain by (destruct Ha as [-> | ->]; discriminate).
+      exists a, (cr' ++ [10]), (P + 1), l, (k + 1), ll. rewrite <- app_assoc. cbn [app].
+      split; [reflexivity|]. split; [destruct Ha as [-> | ->]; [left|right; left]; reflexivity|].
+      split; [apply Forall_app; split; [assumption|constructor; [right; right; reflexivity|constructor]]|].
+      split; [exists (a :: cr'); reflexivity|]. split; [lia|]. split; [destruct Ha as [-> | ->]; discriminate|].
+      rewrite nl_count_app, Hn, blen_app, !blen_cons, blen_nil. cbn [nl_count]. change (10 =? 10) with true.
+      unfold SL. rewrite Ecr, app_length. cbn [length]. repeat split; lia.
+  Qed.
+
   Lemma ws_tab_lf : is_ws ws_sig_tab 10 = true. Proof. reflexivity. Qed.
   Lemma ws_tab_tab : is_ws ws_sig_tab 9 = false. Proof. reflexivity. Qed.
   Lemma ws_tab_ok : ws_ok ws_sig_tab. Proof. right. right. reflexivity. Qed.
   Lemma punct_tab : punct 9. Proof. repeat split; try reflexivity; unfold ascii; lia. Qed.
 
+  Lemma blank_ws_tab : forall w, blank_char w -> is_ws ws_sig_tab w = true.
+  Proof. intros w [->|[->| ->]]; reflexivity. Qed.
+
   (** the state after the symbol loop has peeked what follows the NS_ block *)
-  Lemma ns_end : forall following P line K, rest_top following -> (1 <= F)%nat ->
-    exists tok sc', peek_token (PS (mkS following [10] P line 0 K 10 ws_sig_tab) None) = POk tok (PS sc' (Some tok))
+  Lemma ns_end : forall following c r P l k ll, c :: r = cr ++ 10 :: following -> rest_top following -> 0 <= k ->
+    exists tok sc', peek_token (PS (stepS c r P l k ll c ws_sig_tab) None) = POk tok (PS sc' (Some tok))
                     /\ t_typ tok <> c_tab
-                    /\ Ready line P following (PS (set_ws sc' ws_default) (Some tok)).
+                    /\ Ready SL (l + 1) (P + blen cr + 1) following (PS (set_ws sc' ws_default) (Some tok)).
   Proof.
-    intros following P line K Htop HF. rewrite peek_token_scan.
-    destruct Htop as [->|(kw & c & r & -> & Hk & Hc & Hnc & Hf & _)].
-    - destruct (scan_ws_eof 10 [10] P line 0 K ws_sig_tab ws_tab_lf HF) as (tok & s' & E & Ht). rewrite E.
-      exists tok, s'. split; [reflexivity|]. split; [rewrite Ht; discriminate|]. split.
-      + intros _. rewrite peek_token_look. eexists; eexists; split; [reflexivity|exact Ht].
-      + intros kw c r E'. destruct kw; discriminate E'.
-    - pose proof Hk as (c0 & t & -> & H0 & Ht).
-      rewrite (scan_ws_ident 10); try assumption; try lia; [|exact ws_tab_lf|exact ws_tab_ok|cbn [length] in Hf; lia].
-      eexists; eexists. split; [reflexivity|]. split; [discriminate|]. split.
-      + intros E'. discriminate E'.
-      + intros kw' c' r' E' Hk' Hc' Hnc' Hf'.
-        destruct (decomp_unique _ _ _ _ _ _ Hk Hk' Hnc Hnc' E') as (<- & <- & <-).
-        exists K. rewrite peek_token_look. rewrite set_ws_stepS.
-        apply POk_canon_eq; [unfold kwtok; apply tok_eq; lia | apply stepS_eq; rewrite blen_cons; lia].
+    intros following c r P l k ll E (g & rest & -> & (Hg & Hge) & Htop) Hk.
+    destruct (eol_shape (g ++ rest) c r P l k ll ws_sig_tab E Hk)
+      as (w & g1 & P' & l' & k' & ll' & Es & Hw & Hg1 & Hend & Hk' & Hk0 & El & EP & Hl1).
+    rewrite Es. rewrite app_assoc. rewrite peek_token_scan.
+    assert (Hrun : wsrun ws_sig_tab (g1 ++ g)) by (apply blank_wsrun; [right; reflexivity|apply Forall_app; split; assumption]).
+    assert (Hend' : exists g', w :: g1 ++ g = g' ++ [10]).
+    { destruct Hge as [->|(g' & ->)]; [rewrite app_nil_r; exact Hend|]. exists (w :: g1 ++ g'). cbn [app]. rewrite <- app_assoc. reflexivity. }
+    destruct Htop as [(-> & Hf)|(kw & c' & r' & -> & Hk1 & Hc' & Hnc' & Hf & _)].
+    - rewrite !app_nil_r.
+      destruct (sc_scan_run_eof (g1 ++ g) w [w] P' l' k' ll' ws_sig_tab) as (tok & s' & E' & Ht);
+        try assumption; [rewrite app_length; lia|apply blank_ws_tab; assumption|].
+      rewrite E'. exists tok, s'. split; [reflexivity|]. split; [rewrite Ht; discriminate|].
+      apply ready_look_eof; assumption.
+    - pose proof Hk1 as (c0 & t & -> & H0 & Ht).
+      destruct (scan_run_ident (g1 ++ g) w c0 t c' r' [w] P' l' k' ll' ws_sig_tab) as (k2 & ll2 & E' & Hk2 & Hnil & Hlf);
+        try assumption; [apply blank_ws_tab; assumption|exact ws_tab_ok|rewrite app_length; cbn [length] in Hf; lia|].
+      rewrite E'.
+      assert (Ek : k2 = 0).
+      { destruct Hend' as (g' & Eg). destruct (g1 ++ g) as [|a g0] eqn:Egg.
+        - destruct g' as [|b g']; [|destruct g'; discriminate Eg]. cbn in Eg. injection Eg as ->.
+          destruct (Hnil eq_refl) as (-> & _). apply Hk0. reflexivity.
+        - destruct g' as [|b g']; [destruct g0; discriminate Eg|]. cbn [app] in Eg. injection Eg as _ Eg.
+          apply (Hlf g'). exact Eg. }
+      subst k2. eexists; eexists. split; [reflexivity|]. split; [discriminate|].
+      rewrite set_ws_stepS.
+      pose proof (ready_look_kw SL (l + 1) (P + blen cr + 1) g (c0 :: t) c' r' ll2 Hg Hk1 Hnc') as HR.
+      unfold canon, kwtok in HR.
+      replace (l' + nl_count (g1 ++ g)) with (l + 1 + nl_count g) by (rewrite nl_count_app; lia).
+      replace (P' + blen (g1 ++ g)) with (P + blen cr + 1 + blen g) by (rewrite blen_app; lia).
+      replace (P + blen cr + 1 + blen g + 1 + blen t) with (P + blen cr + 1 + blen g + blen (c0 :: t)) by (rewrite blen_cons; lia).
+      replace (0 + 1 + blen t) with (blen (c0 :: t)) by (rewrite blen_cons; lia). exact HR.
   Qed.
 
-  Lemma ns_loop_run : forall syms f racc following P line K,
+  Lemma ns_text_head : forall syms following, exists c r, cr ++ 10 :: ns_text cr syms ++ following = c :: r /\ blank_char c.
+  Proof. intros. apply eol_head. Qed.
+
+  Lemma ns_loop_run : forall syms f racc following c r P l k ll,
+    c :: r = cr ++ 10 :: ns_text cr syms ++ following ->
     rest_top following -> Forall (fun s => ident_valid s = true) syms ->
-    (length syms < f)%nat -> (length (ns_text syms) + 4 < F)%nat ->
-    exists tok sc', new_symbols_loop il id F f racc (PS (mkS (ns_text syms ++ following) [10] P line 0 K 10 ws_sig_tab) None)
+    (length syms < f)%nat -> (length cr + length (ns_text cr syms) + 4 < F)%nat -> 0 <= k ->
+    exists tok sc', new_symbols_loop il id F f racc (PS (stepS c r P l k ll c ws_sig_tab) None)
                     = POk (rev racc ++ syms) (PS sc' (Some tok))
-                    /\ Ready (line + Z.of_nat (length syms)) (P + blen (ns_text syms)) following (PS (set_ws sc' ws_default) (Some tok)).
+                    /\ Ready SL (l + 1 + Z.of_nat (length syms)) (P + blen cr + 1 + blen (ns_text cr syms)) following
+                             (PS (set_ws sc' ws_default) (Some tok)).
   Proof.
-    induction syms as [|s syms IH]; intros f racc following P line K Htop Hw Hf HF; (destruct f as [|f]; [cbn in Hf; lia|]).
-    - cbn [ns_text map concat app length]. rewrite blen_nil, !Z.add_0_r.
-      destruct (ns_end following P line K Htop ltac:(lia)) as (tok & sc' & Ep & Hty & HR).
+    induction syms as [|s syms IH]; intros f racc following c r P l k ll E Htop Hw Hf HF Hk; (destruct f as [|f]; [cbn in Hf; lia|]).
+    - cbn [ns_text map concat app length] in *. rewrite blen_nil, !Z.add_0_r.
+      destruct (ns_end following c r P l k ll E Htop Hk) as (tok & sc' & Ep & Hty & HR).
       cbn [new_symbols_loop]. unfold bind at 1. rewrite Ep. apply Z.eqb_neq in Hty. rewrite Hty. unfold ret.
       rewrite app_nil_r. exists tok, sc'. split; [reflexivity|exact HR].
     - apply Forall_cons_iff in Hw. destruct Hw as (Hs & Hw').
       destruct (ident_valid_shape s Hs) as (c0 & t & Es & H0 & Ht). destruct (id0_ge c0 H0) as (H33 & Ha0 & H10).
-      unfold ns_text in *. cbn [map concat] in *. fold (ns_text syms) in *.
-      assert (HFs : (length t + length (ns_text syms) + 7 < F)%nat).
+      unfold ns_text in *. cbn [map concat] in *. fold (ns_text cr syms) in *.
+      assert (HFs : (length t + length cr + length cr + length (ns_text cr syms) + 7 < F)%nat).
       { rewrite Es in HF. repeat (rewrite app_length in HF || cbn [length] in HF). lia. }
       pose proof (blen_nonneg t) as Hnt.
-      rewrite Es. cbn [app]. rewrite <- !app_assoc. cbn [app].
-      cbn [new_symbols_loop]. unfold bind at 1. rewrite peek_token_scan.
-      rewrite sc_scan_skip1; [|lia|exact ws_tab_lf|unfold ascii; lia|exact ws_tab_tab].
-      rewrite stepS_plain by discriminate. rewrite scan_body_punct by (try exact punct_tab; assumption).
+      rewrite Es in E. repeat (rewrite <- app_assoc in E; cbn [app] in E).
+      destruct (eol_shape (9 :: c0 :: t ++ cr ++ 10 :: ns_text cr syms ++ following) c r P l k ll ws_sig_tab E Hk)
+        as (w & g1 & P' & l' & k' & ll' & Est & Hw1 & Hg1 & Hend & Hk' & Hk0 & El & EP & Hl1).
+      cbn [new_symbols_loop]. unfold bind at 1. rewrite peek_token_scan. rewrite Est.
+      destruct (sc_scan_run g1 w 9 (c0 :: t ++ cr ++ 10 :: ns_text cr syms ++ following) [w] P' l' k' ll' ws_sig_tab)
+        as (k2 & ll2 & Esc & Hk2 & _ & _); try assumption;
+        [unfold SL in Hl1; lia|apply blank_ws_tab; assumption|apply blank_wsrun; [right; reflexivity|assumption]|unfold ascii; lia|exact ws_tab_tab|].
+      rewrite Esc. rewrite stepS_plain by discriminate. rewrite scan_body_punct by (try exact punct_tab; assumption).
       cbn [t_typ]. change (9 =? c_tab) with true. cbv iota. unfold bind at 1.
       erewrite p_token_look by reflexivity. unfold bind at 1.
       rewrite stepS_plain by assumption.
+      destruct (eol_head (ns_text cr syms ++ following)) as (c2 & r2 & E2 & Hc2). rewrite E2.
       unfold p_identifier. unfold bind at 1. rewrite next_token_scan.
       rewrite sc_scan_direct; cbn [s_ch s_ws mkS]; [|unfold ascii, NOCHAR in *; lia|apply ws_printable; [exact ws_tab_ok|assumption]].
-      rewrite scan_body_ident; try assumption; try lia; [|unfold ascii; lia|reflexivity].
+      rewrite scan_body_ident; try assumption; try lia; [|apply blank_ascii; assumption|apply blank_not_idc; assumption].
       cbn [t_typ t_txt]. change (TIdent =? TIdent) with true. cbn [negb]. rewrite <- Es, Hs. cbn [negb]. unfold ret at 1.
-      unfold stepS at 1. change (10 =? 10) with true. cbv iota.
-      destruct (IH f (s :: racc) following (P + 1 + 1 + blen t + 1) (line + 1) (0 + 1 + 1 + blen t + 1) Htop Hw'
-                  ltac:(cbn in Hf; lia) ltac:(lia)) as (tok & sc' & E & HR).
+      match goal with |- context [PS (stepS c2 r2 ?PP ?LL ?KK ?L2 c2 ws_sig_tab) None] =>
+        destruct (IH f (s :: racc) following c2 r2 PP LL KK L2 (eq_sym E2) Htop Hw'
+                    ltac:(cbn in Hf; lia) ltac:(lia) ltac:(lia)) as (tok & sc' & E' & HR) end.
       exists tok, sc'. split.
-      + rewrite E. cbn [rev]. rewrite <- app_assoc. reflexivity.
-      + cbn [length]. repeat (rewrite blen_app || rewrite blen_cons). rewrite ?blen_nil.
-        replace (line + Z.of_nat (S (length syms))) with (line + 1 + Z.of_nat (length syms)) by lia.
-        match goal with |- Ready _ ?X _ _ => replace X with (P + 1 + 1 + blen t + 1 + blen (ns_text syms)) by lia end.
+      + rewrite E'. cbn [rev]. rewrite <- app_assoc. reflexivity.
+      + cbn [length]. rewrite Es. repeat (rewrite blen_app || rewrite blen_cons). rewrite ?blen_nil.
+        match goal with |- Ready _ ?L1 ?X _ _ => match type of HR with Ready _ ?L2 ?Y _ _ =>
+          replace X with Y by lia; replace L1 with L2 by lia end end.
         exact HR.
   Qed.
 
   Lemma step_new_symbols : forall syms rest line off ll, wf_sdef (SNewSymbols syms) -> rest_top rest ->
-    (length (print_def (SNewSymbols syms)) + 4 <= F)%nat ->
-    exists st', parse_new_symbols il id F (canon line off kw_new_symbols 32 (58 :: 10 :: ns_text syms ++ rest) ll)
-                = POk (elab_def line off (SNewSymbols syms)) st'
-                /\ Ready (line + def_lines (SNewSymbols syms)) (off + blen (print_def (SNewSymbols syms))) rest st'.
+    (length (print_def cr (SNewSymbols syms)) + 4 <= F)%nat ->
+    exists st', parse_new_symbols il id F (canon line off kw_new_symbols 32 (58 :: cr ++ 10 :: ns_text cr syms ++ rest) ll)
+                = POk (elab_def cr line off (SNewSymbols syms)) st'
+                /\ Ready SL (line + def_lines (SNewSymbols syms)) (off + blen (print_def cr (SNewSymbols syms))) rest st'.
   Proof.
     intros syms rest line off ll Hw Htop HF. cbn [wf_sdef print_def] in *.
     repeat (rewrite app_length in HF || cbn [length] in HF). unfold kw_new_symbols in HF. cbn [length] in HF.
     assert (Hk : blen kw_new_symbols = 3) by reflexivity.
-    assert (Hl : (length syms <= length (ns_text syms))%nat).
-    { clear. induction syms as [|s syms IH]; cbn [ns_text map concat length]; [lia|]. fold (ns_text syms).
+    assert (Hl : (length syms <= length (ns_text cr syms))%nat).
+    { clear. induction syms as [|s syms IH]; cbn [ns_text map concat length]; [lia|]. fold (ns_text cr syms).
       rewrite app_length. cbn [length]. lia. }
+    destruct (eol_head (ns_text cr syms ++ rest)) as (ce & re & Ee & Hce). rewrite Ee.
     unfold parse_new_symbols, canon. unfold bind at 1. unfold use_whitespace at 1. cbn [p_sc p_look PS]. rewrite set_ws_stepS.
     unfold bind at 1. rewrite p_keyword_canon. rewrite stepS_plain by discriminate.
     unfold bind at 1. unfold p_token at 1. unfold bind at 1. rewrite next_token_scan.
-    rewrite (scan_ws_punct 32); try side; [|exact ws_tab_ok].
+    rewrite (scan_ws_punct 32); try side; [|exact ws_tab_ok|apply blank_ascii; assumption].
     cbn [t_typ]. change (58 =? c_colon) with true. cbn [negb]. unfold ret at 1.
-    unfold stepS at 1. change (10 =? 10) with true. cbv iota.
-    match goal with |- context [PS (mkS _ [10] ?PP ?LL 0 ?KK 10 ws_sig_tab) None] =>
-      destruct (ns_loop_run syms F [] rest PP LL KK Htop Hw ltac:(lia) ltac:(lia)) as (tok & sc' & E & HR) end.
+    match goal with |- context [PS (stepS ce re ?PP ?LL ?KK ?L2 ce ws_sig_tab) None] =>
+      destruct (ns_loop_run syms F [] rest ce re PP LL KK L2 (eq_sym Ee) Htop Hw ltac:(lia) ltac:(lia) ltac:(lia)) as (tok & sc' & E & HR) end.
     unfold bind at 1. rewrite E. unfold bind at 1. unfold use_whitespace, ret. cbn [p_sc p_look PS rev app kwtok t_pos elab_def].
     eexists. split; [reflexivity|].
     cbn [def_lines].
-    match goal with |- Ready ?L1 ?X _ _ => match type of HR with Ready ?L2 ?Y _ _ => replace X with Y; [replace L1 with L2 by lia; exact HR|] end end.
+    match goal with |- Ready _ ?L1 ?X _ _ => match type of HR with Ready _ ?L2 ?Y _ _ => replace X with Y; [replace L1 with L2 by lia; exact HR|] end end.
     repeat (rewrite blen_app || rewrite blen_cons). lia.
   Qed.
 
@@ -3116,72 +3542,74 @@ Section RT.
   (** every printed definition starts with an identifier, which is not SG_, followed by a
       non-identifier character *)
   Lemma print_def_head : forall d rest, wf_sdef d ->
-    exists kw c r, print_def d ++ rest = kw ++ c :: r /\ is_ident kw /\ ascii c /\ idc c = false
-                   /\ (length kw < length (print_def d))%nat /\ bytes_eqb kw kw_signal = false.
+    exists kw c r, print_def cr d ++ rest = kw ++ c :: r /\ is_ident kw /\ ascii c /\ idc c = false
+                   /\ (length kw + SL <= length (print_def cr d))%nat /\ bytes_eqb kw kw_signal = false.
   Proof.
     intros d rest Hw. destruct d as [s|[[b [[b1 b2]|]]|]|ns|mi mn msz mtx sigs|kw ts|co ct|[vi|] vn vvs|tn tvs|svi svn svc svt|xi xtxs|en et emn emx eu einit ei eacc enode enodes|dn dsz|ao an ab|dfn dfv|avn avo avv|nsy]; cbn [print_def wf_sdef] in *.
-    - exists kw_version, 32, (34 :: s ++ [34; 10] ++ rest). rewrite <- app_assoc. cbn [app]. rewrite <- app_assoc.
+    - eexists kw_version, 32, _. rewrite <- app_assoc. cbn [app].
       split; [reflexivity|]. split; [exact is_ident_version|]. split; [unfold ascii; lia|]. split; [reflexivity|].
-      split; [|reflexivity]. rewrite app_length. cbn [length]. lia.
+      split; [|reflexivity]. unfold SL. repeat (rewrite app_length || cbn [length]). lia.
     - eexists kw_bit_timing, 58, _. rewrite <- app_assoc. cbn [app].
       split; [reflexivity|]. split; [exact is_ident_bit_timing|]. split; [unfold ascii; lia|]. split; [reflexivity|].
-      split; [|reflexivity]. rewrite app_length. cbn [length]. lia.
+      split; [|reflexivity]. unfold SL. repeat (rewrite app_length || cbn [length]). lia.
     - eexists kw_bit_timing, 58, _. rewrite <- app_assoc. cbn [app].
       split; [reflexivity|]. split; [exact is_ident_bit_timing|]. split; [unfold ascii; lia|]. split; [reflexivity|].
-      split; [|reflexivity]. rewrite app_length. cbn [length]. lia.
+      split; [|reflexivity]. unfold SL. repeat (rewrite app_length || cbn [length]). lia.
     - eexists kw_bit_timing, 58, _. rewrite <- app_assoc. cbn [app].
       split; [reflexivity|]. split; [exact is_ident_bit_timing|]. split; [unfold ascii; lia|]. split; [reflexivity|].
-      split; [|reflexivity]. rewrite app_length. cbn [length]. lia.
+      split; [|reflexivity]. unfold SL. repeat (rewrite app_length || cbn [length]). lia.
     - eexists kw_nodes, 58, _. rewrite <- app_assoc. cbn [app].
       split; [reflexivity|]. split; [exact is_ident_nodes|]. split; [unfold ascii; lia|]. split; [reflexivity|].
-      split; [|reflexivity]. rewrite app_length. cbn [length]. lia.
+      split; [|reflexivity]. unfold SL. repeat (rewrite app_length || cbn [length]). lia.
     - eexists kw_message, 32, _. rewrite <- app_assoc. cbn [app].
       split; [reflexivity|]. split; [exact is_ident_message|]. split; [unfold ascii; lia|]. split; [reflexivity|].
-      split; [|reflexivity]. rewrite app_length. cbn [length]. lia.
+      split; [|reflexivity]. unfold SL. repeat (rewrite app_length || cbn [length]). lia.
     - destruct Hw as (Hk & Hd & _). destruct (sp_list_head' _ print_utok ts rest) as (c & r & E & Hc & Hnc & _).
       exists kw, c, r. rewrite <- !app_assoc. cbn [app]. rewrite E.
       split; [reflexivity|]. split; [exact (ident_valid_shape kw Hk)|]. split; [assumption|]. split; [assumption|].
-      split; [rewrite !app_length; cbn [length]; lia|].
+      split; [unfold SL; rewrite !app_length; cbn [length]; lia|].
       unfold dispatching in Hd. repeat (apply orb_false_iff in Hd; destruct Hd as [Hd ?]). assumption.
-    - assert (E : exists R, print_obj co ++ 32 :: 34 :: ct ++ [34; 32; 59; 10] = 32 :: R) by (destruct co; cbn; eexists; reflexivity).
-      destruct E as (R & E). exists kw_comment, 32, (R ++ rest). rewrite <- app_assoc. rewrite E.
+    - assert (E : exists R, print_obj co ++ 32 :: 34 :: ct ++ 34 :: 32 :: 59 :: cr ++ [10] = 32 :: R) by (destruct co; cbn; eexists; reflexivity).
+      destruct E as (R & E). pose proof (f_equal (@length Z) E) as EL. repeat (rewrite app_length in EL || cbn [length] in EL).
+      exists kw_comment, 32, (R ++ rest). rewrite <- app_assoc. rewrite E.
       split; [reflexivity|]. split; [match goal with |- is_ident ?k => exact (ident_valid_shape k eq_refl) end|]. split; [unfold ascii; lia|]. split; [reflexivity|].
-      split; [|reflexivity]. rewrite app_length. cbn [length]. lia.
+      split; [|reflexivity]. unfold SL. repeat (rewrite app_length || cbn [length]). lia.
     - eexists kw_value_descriptions, 32, _. rewrite <- app_assoc. cbn [app].
       split; [reflexivity|]. split; [match goal with |- is_ident ?k => exact (ident_valid_shape k eq_refl) end|]. split; [unfold ascii; lia|]. split; [reflexivity|].
-      split; [|reflexivity]. rewrite app_length. cbn [length]. lia.
+      split; [|reflexivity]. unfold SL. repeat (rewrite app_length || cbn [length]). lia.
     - eexists kw_value_descriptions, 32, _. rewrite <- app_assoc. cbn [app].
       split; [reflexivity|]. split; [match goal with |- is_ident ?k => exact (ident_valid_shape k eq_refl) end|]. split; [unfold ascii; lia|]. split; [reflexivity|].
-      split; [|reflexivity]. rewrite app_length. cbn [length]. lia.
+      split; [|reflexivity]. unfold SL. repeat (rewrite app_length || cbn [length]). lia.
     - eexists kw_value_table, 32, _. rewrite <- app_assoc. cbn [app].
       split; [reflexivity|]. split; [match goal with |- is_ident ?k => exact (ident_valid_shape k eq_refl) end|]. split; [unfold ascii; lia|]. split; [reflexivity|].
-      split; [|reflexivity]. rewrite app_length. cbn [length]. lia.
+      split; [|reflexivity]. unfold SL. repeat (rewrite app_length || cbn [length]). lia.
     - eexists kw_signal_value_type, 32, _. rewrite <- app_assoc. cbn [app].
       split; [reflexivity|]. split; [match goal with |- is_ident ?k => exact (ident_valid_shape k eq_refl) end|]. split; [unfold ascii; lia|]. split; [reflexivity|].
-      split; [|reflexivity]. rewrite app_length. cbn [length]. lia.
+      split; [|reflexivity]. unfold SL. repeat (rewrite app_length || cbn [length]). lia.
     - eexists kw_message_transmitters, 32, _. rewrite <- app_assoc. cbn [app].
       split; [reflexivity|]. split; [match goal with |- is_ident ?k => exact (ident_valid_shape k eq_refl) end|]. split; [unfold ascii; lia|]. split; [reflexivity|].
-      split; [|reflexivity]. rewrite app_length. cbn [length]. lia.
+      split; [|reflexivity]. unfold SL. repeat (rewrite app_length || cbn [length]). lia.
     - eexists kw_envvar, 32, _. rewrite <- app_assoc. cbn [app].
       split; [reflexivity|]. split; [match goal with |- is_ident ?k => exact (ident_valid_shape k eq_refl) end|]. split; [unfold ascii; lia|]. split; [reflexivity|].
-      split; [|reflexivity]. rewrite app_length. cbn [length]. lia.
+      split; [|reflexivity]. unfold SL. repeat (rewrite app_length || cbn [length]). lia.
     - eexists kw_envvar_data, 32, _. rewrite <- app_assoc. cbn [app].
       split; [reflexivity|]. split; [match goal with |- is_ident ?k => exact (ident_valid_shape k eq_refl) end|]. split; [unfold ascii; lia|]. split; [reflexivity|].
-      split; [|reflexivity]. rewrite app_length. cbn [length]. lia.
-    - assert (E : exists R, print_attr_obj ao ++ 32 :: print_quoted an ++ print_attr_body ab ++ [32; 59; 10] = 32 :: R)
+      split; [|reflexivity]. unfold SL. repeat (rewrite app_length || cbn [length]). lia.
+    - assert (E : exists R, print_attr_obj ao ++ 32 :: print_quoted an ++ print_attr_body ab ++ 32 :: 59 :: cr ++ [10] = 32 :: R)
         by (destruct ao; cbn; eexists; reflexivity).
-      destruct E as (R & E). exists kw_attribute, 32, (R ++ rest). rewrite <- app_assoc. rewrite E.
+      destruct E as (R & E). pose proof (f_equal (@length Z) E) as EL. repeat (rewrite app_length in EL || cbn [length] in EL).
+      exists kw_attribute, 32, (R ++ rest). rewrite <- app_assoc. rewrite E.
       split; [reflexivity|]. split; [exact (ident_valid_shape kw_attribute eq_refl)|]. split; [unfold ascii; lia|]. split; [reflexivity|].
-      split; [|reflexivity]. rewrite app_length. cbn [length]. lia.
+      split; [|reflexivity]. unfold SL. repeat (rewrite app_length || cbn [length]). lia.
     - eexists kw_attribute_default, 32, _. rewrite <- app_assoc. cbn [app].
       split; [reflexivity|]. split; [exact (ident_valid_shape kw_attribute_default eq_refl)|]. split; [unfold ascii; lia|]. split; [reflexivity|].
-      split; [|reflexivity]. rewrite app_length. cbn [length]. lia.
+      split; [|reflexivity]. unfold SL. repeat (rewrite app_length || cbn [length]). lia.
     - eexists kw_attribute_value, 32, _. rewrite <- app_assoc. cbn [app].
       split; [reflexivity|]. split; [exact (ident_valid_shape kw_attribute_value eq_refl)|]. split; [unfold ascii; lia|]. split; [reflexivity|].
-      split; [|reflexivity]. rewrite app_length. cbn [length]. lia.
+      split; [|reflexivity]. unfold SL. repeat (rewrite app_length || cbn [length]). lia.
     - eexists kw_new_symbols, 32, _. rewrite <- app_assoc. cbn [app].
       split; [reflexivity|]. split; [exact (ident_valid_shape kw_new_symbols eq_refl)|]. split; [unfold ascii; lia|]. split; [reflexivity|].
-      split; [|reflexivity]. rewrite app_length. cbn [length]. lia.
+      split; [|reflexivity]. unfold SL. repeat (rewrite app_length || cbn [length]). lia.
   Qed.
 
   Lemma wf_defs_Forall : forall ds ctx, wf_defs ctx ds -> Forall wf_sdef ds.
@@ -3189,17 +3617,35 @@ Section RT.
     induction ds as [|d ds IH]; intros ctx H; [constructor|]. destruct H as ((Hd & _) & H). constructor; [exact Hd|exact (IH _ H)].
   Qed.
 
-  Lemma rest_top_print : forall ds, Forall wf_sdef ds -> (length (print ds) + 4 <= F)%nat -> rest_top (print ds).
+  Lemma print_def_len_ge : forall d, wf_sdef d -> (SL <= length (print_def cr d))%nat.
+  Proof. intros d Hw. destruct (print_def_head d [] Hw) as (kw & c & r & _ & _ & _ & _ & Hl & _). lia. Qed.
+
+  Lemma wf_items_head : forall ctx g d its, wf_items ctx ((g, d) :: its) -> blank_block g /\ wf_sdef d /\ wf_items (ctx_step ctx d) its.
+  Proof. intros ctx g d its (Hg & (Hd & _) & Hi). auto. Qed.
+
+  (** what follows a definition inside a file: blank lines, then the next definition or the end *)
+  Lemma rest_top_items : forall its gend ctx, wf_items ctx its -> blank_block gend ->
+    (SL + length (print_items cr its ++ gend) + 3 <= F)%nat -> rest_top (print_items cr its ++ gend).
   Proof.
-    intros ds Hw HF. destruct ds as [|d ds]; [left; reflexivity|right].
-    inversion Hw as [|? ? Hd Hw']; subst. cbn [print] in *.
-    destruct (print_def_head d (print ds) Hd) as (kw & c & r & E & Hk & Hc & Hnc & Hl & Hns).
-    exists kw, c, r. rewrite app_length in HF. split; [exact E|]. split; [exact Hk|]. split; [exact Hc|]. split; [exact Hnc|].
-    split; [lia|exact Hns].
+    intros its gend ctx Hw Hge HF. destruct its as [|[g d] its].
+    - cbn [print_items app] in *. exists gend, []. split; [rewrite app_nil_r; reflexivity|]. split; [exact Hge|]. left. split; [reflexivity|lia].
+    - destruct (wf_items_head _ _ _ _ Hw) as (Hg & Hd & _). cbn [print_items] in *.
+      repeat rewrite <- app_assoc in *. exists g, (print_def cr d ++ print_items cr its ++ gend).
+      split; [reflexivity|]. split; [exact Hg|]. right.
+      destruct (print_def_head d (print_items cr its ++ gend) Hd) as (kw & c & r & E & Hk & Hc & Hnc & Hl & Hns).
+      exists kw, c, r. rewrite !app_length in HF. split; [exact E|]. split; [exact Hk|]. split; [exact Hc|]. split; [exact Hnc|].
+      split; [lia|exact Hns].
   Qed.
 
-  Lemma rest_ok_print : forall ds, Forall wf_sdef ds -> (length (print ds) + 4 <= F)%nat -> rest_ok (print ds).
-  Proof. intros. apply rest_top_ok, rest_top_print; assumption. Qed.
+  Lemma head_ascii_items : forall its gend ctx, wf_items ctx its -> blank_block gend -> head_ascii (print_items cr its ++ gend).
+  Proof.
+    intros its gend ctx Hw (Hge & _). destruct its as [|[g d] its].
+    - cbn [print_items app]. destruct gend as [|a gend]; [exact I|]. cbn. inversion Hge. apply blank_ascii. assumption.
+    - destruct (wf_items_head _ _ _ _ Hw) as ((Hg & _) & Hd & _). cbn [print_items]. destruct g as [|a g].
+      + cbn [app]. destruct (print_def_head d (print_items cr its ++ gend) Hd) as (kw & c & r & E & (c0 & t & -> & H0 & _) & _).
+        rewrite <- app_assoc, E. cbn. apply (id0_ge c0 H0).
+      + cbn. inversion Hg. apply blank_ascii. assumption.
+  Qed.
 
   Lemma dispatch_unknown : forall bt unk msg defs kw, dispatching kw = false ->
     parse_def_with il id F bt unk msg defs kw = unk.
@@ -3214,61 +3660,60 @@ Section RT.
 
   Ltac fuel HF :=
     cbn [print_def] in HF; repeat (rewrite app_length in HF || cbn [length] in HF);
-    unfold kw_version, kw_bit_timing, kw_nodes, kw_message in *; cbn [length] in *; lia.
+    unfold SL, kw_version, kw_bit_timing, kw_nodes, kw_message in *; cbn [length] in *; lia.
 
   Ltac fuel2 HF :=
     let H := fresh in
     pose proof HF as H; cbn [print_def] in H; repeat (rewrite app_length in H || cbn [length] in H);
     unfold kw_comment, kw_value_descriptions, kw_value_table, kw_signal_value_type, kw_message_transmitters, kw_envvar,
-      kw_envvar_data, kw_attribute, kw_attribute_default, kw_attribute_value, kw_new_symbols in *; cbn [length] in *; lia.
+      kw_envvar_data, kw_attribute, kw_attribute_default, kw_attribute_value, kw_new_symbols, SL in *; cbn [length] in *; lia.
 
   (** one definition: from the canonical state at its keyword, the dispatched parser returns its
       denotation and leaves the parser ready at the next line *)
-  Lemma step_def : forall d rest defs ctx line off, ctx_agrees ctx defs -> wf_sdef_ctx ctx d -> rest_top rest ->
-    (length (print_def d) + length rest + 4 <= F)%nat ->
-    forall st, Ready line off (print_def d ++ rest) st ->
+  Lemma step_def : forall d rest defs ctx m line off, ctx_agrees ctx defs -> wf_sdef_ctx ctx d -> rest_top rest ->
+    (m + length (print_def cr d) + length rest + 4 <= F)%nat ->
+    forall st, Ready0 m line off (print_def cr d ++ rest) st ->
     exists kw st1 st2, peek_token st = POk (kwtok line off kw) st1 /\ peek_keyword il id F st1 = POk kw st1
-                       /\ the_def defs kw st1 = POk (elab_def_ctx ctx line off d) st2
-                       /\ Ready (line + def_lines d) (off + blen (print_def d)) rest st2.
+                       /\ the_def defs kw st1 = POk (elab_def_ctx cr ctx line off d) st2
+                       /\ Ready SL (line + def_lines d) (off + blen (print_def cr d)) rest st2.
   Proof.
-    intros d rest defs ctx line off Hag Hwc Htop HF st (_ & HR). pose proof (rest_top_ok rest Htop) as Hok.
+    intros d rest defs ctx m line off Hag Hwc Htop HF st (_ & HR). pose proof (rest_top_ok rest Htop) as Hok.
     pose proof Hwc as (Hw & Hwv).
     destruct d as [s|[[b [[b1 b2]|]]|]|ns|mi mn msz mtx sigs|kw ts|co ct|[vi|] vn vvs|tn tvs|svi svn svc svt|xi xtxs|en et emn emx eu einit ei eacc enode enodes|dn dsz|ao an ab|dfn dfv|avn avo avv|nsy]; cbn [wf_sdef elab_def elab_def_ctx] in *.
     - (* VERSION *)
-      destruct (HR kw_version 32 (34 :: s ++ 34 :: 10 :: rest)) as (ll & Ep);
-        [cbn [print_def]; rewrite <- app_assoc; cbn [app]; rewrite <- app_assoc; reflexivity
+      destruct (HR kw_version 32 (34 :: s ++ 34 :: cr ++ 10 :: rest)) as (ll & Ep);
+        [cbn [print_def]; unfold signals_text; repeat (rewrite <- app_assoc; cbn [app]); try rewrite Ec; reflexivity
         |exact is_ident_version|unfold ascii; lia|reflexivity|fuel HF|].
       destruct (step_version s rest line off ll Hw) as (st2 & E & HR2); [fuel HF|].
       eexists kw_version, _, st2. split; [exact Ep|]. split; [apply peek_keyword_canon|]. split; [exact E|exact HR2].
     - (* BS_ full form *)
       destruct Hw as (Hb & Hb1 & Hb2).
-      destruct (HR kw_bit_timing 58 (32 :: b ++ 32 :: 58 :: 32 :: b1 ++ 32 :: 44 :: 32 :: b2 ++ 10 :: rest)) as (ll & Ep);
-        [cbn [print_def]; rewrite <- app_assoc; cbn [app]; rewrite <- app_assoc; cbn [app]; rewrite <- app_assoc; cbn [app];
-         rewrite <- app_assoc; reflexivity
+      destruct (HR kw_bit_timing 58 (32 :: b ++ 32 :: 58 :: 32 :: b1 ++ 32 :: 44 :: 32 :: b2 ++ cr ++ 10 :: rest)) as (ll & Ep);
+        [cbn [print_def]; unfold signals_text; repeat (rewrite <- app_assoc; cbn [app]); try rewrite Ec; reflexivity
         |exact is_ident_bit_timing|unfold ascii; lia|reflexivity|fuel HF|].
       destruct (step_bit_timing_2 b b1 b2 rest line off ll Hb Hb1 Hb2 Hok) as (st2 & E & HR2); [fuel HF|].
       eexists kw_bit_timing, _, st2. split; [exact Ep|]. split; [apply peek_keyword_canon|]. split; [exact E|exact HR2].
     - (* BS_ baud only *)
-      destruct (HR kw_bit_timing 58 (32 :: b ++ 10 :: rest)) as (ll & Ep);
-        [cbn [print_def]; rewrite <- app_assoc; cbn [app]; rewrite <- app_assoc; reflexivity
+      destruct (HR kw_bit_timing 58 (32 :: b ++ cr ++ 10 :: rest)) as (ll & Ep);
+        [cbn [print_def]; unfold signals_text; repeat (rewrite <- app_assoc; cbn [app]); try rewrite Ec; reflexivity
         |exact is_ident_bit_timing|unfold ascii; lia|reflexivity|fuel HF|].
       destruct (step_bit_timing_1 b rest line off ll Hw Hok) as (st2 & E & HR2); [fuel HF|].
       eexists kw_bit_timing, _, st2. split; [exact Ep|]. split; [apply peek_keyword_canon|]. split; [exact E|exact HR2].
     - (* BS_ alone *)
-      destruct (HR kw_bit_timing 58 (10 :: rest)) as (ll & Ep);
-        [cbn [print_def]; rewrite <- app_assoc; reflexivity
+      destruct (HR kw_bit_timing 58 (cr ++ 10 :: rest)) as (ll & Ep);
+        [cbn [print_def]; unfold signals_text; repeat (rewrite <- app_assoc; cbn [app]); try rewrite Ec; reflexivity
         |exact is_ident_bit_timing|unfold ascii; lia|reflexivity|fuel HF|].
       destruct (step_bit_timing_0 rest line off ll Hok) as (st2 & E & HR2); [lia|].
       eexists kw_bit_timing, _, st2. split; [exact Ep|]. split; [apply peek_keyword_canon|]. split; [exact E|exact HR2].
     - (* BU_ *)
-      destruct (HR kw_nodes 58 (sp_list (fun n => n) ns ++ 10 :: rest)) as (ll & Ep);
-        [cbn [print_def]; rewrite <- app_assoc; cbn [app]; rewrite <- app_assoc; reflexivity
+      destruct (HR kw_nodes 58 (sp_list (fun n => n) ns ++ cr ++ 10 :: rest)) as (ll & Ep);
+        [cbn [print_def]; unfold signals_text; repeat (rewrite <- app_assoc; cbn [app]); try rewrite Ec; reflexivity
         |exact is_ident_nodes|unfold ascii; lia|reflexivity|fuel HF|].
       destruct (step_nodes ns rest line off ll Hw Hok) as (st2 & E & HR2); [fuel HF|].
       eexists kw_nodes, _, st2. split; [exact Ep|]. split; [apply peek_keyword_canon|]. split; [exact E|exact HR2].
     - (* BO_ with its SG_ lines *)
-      destruct (HR kw_message 32 (mi ++ 32 :: mn ++ 32 :: 58 :: 32 :: msz ++ 32 :: mtx ++ 10 :: signals_text sigs ++ rest)) as (ll & Ep);
-        [cbn [print_def]; unfold signals_text; repeat (rewrite <- app_assoc; cbn [app]); reflexivity
+      destruct (HR kw_message 32 (mi ++ 32 :: mn ++ 32 :: 58 :: 32 :: msz ++ 32 :: mtx ++ cr ++ 10 :: signals_text sigs ++ rest)) as (ll & Ep);
+        [cbn [print_def]; unfold signals_text; repeat (rewrite <- app_assoc; cbn [app]); try rewrite Ec; reflexivity
         |exact is_ident_message|unfold ascii; lia|reflexivity|fuel HF|].
       destruct (step_message mi mn msz mtx sigs rest line off ll Hw Htop) as (st2 & E & HR2); [lia|].
       eexists kw_message, _, st2. split; [exact Ep|]. split; [apply peek_keyword_canon|]. split; [exact E|exact HR2].
@@ -3276,7 +3721,7 @@ Section RT.
       destruct Hw as (Hk & Hd & Hts).
       destruct (sp_list_head' _ print_utok ts rest) as (c & r & Ec & Hc & Hnc & _).
       destruct (HR kw c r) as (ll & Ep);
-        [cbn [print_def]; rewrite <- !app_assoc; cbn [app]; rewrite Ec; reflexivity
+        [cbn [print_def]; unfold signals_text; repeat (rewrite <- app_assoc; cbn [app]); try rewrite Ec; reflexivity
         |exact (ident_valid_shape kw Hk)|assumption|assumption|fuel HF|].
       destruct (step_unknown kw ts c r rest line off ll (eq_sym Ec) Hts Hok) as (st2 & E & HR2);
         [destruct (ident_valid_shape kw Hk) as (? & ? & -> & _); fuel HF|].
@@ -3284,158 +3729,211 @@ Section RT.
       rewrite dispatch_unknown by assumption. exact E.
     - (* CM_ *)
       destruct (print_def_head (SComment co ct) rest Hw) as (kw0 & c0 & R & ER & _).
-      assert (ER' : exists R', print_def (SComment co ct) ++ rest = kw_comment ++ 32 :: R').
+      assert (ER' : exists R', print_def cr (SComment co ct) ++ rest = kw_comment ++ 32 :: R').
       { cbn [print_def]. rewrite <- app_assoc. destruct co; cbn [print_obj app]; eexists; reflexivity. }
       clear kw0 c0 R ER. destruct ER' as (R & ER).
       destruct (HR kw_comment 32 R ER (ident_valid_shape kw_comment eq_refl)) as (ll & Ep); [unfold ascii; lia|reflexivity|fuel2 HF|].
       destruct (step_comment co ct rest R line off ll Hw ER ltac:(lia)) as (st2 & E & HR2).
       eexists kw_comment, _, st2. split; [exact Ep|]. split; [apply peek_keyword_canon|]. split; [exact E|exact HR2].
     - (* VAL_ signal form *)
-      assert (ER : exists R, print_def (SValues (Some vi) vn vvs) ++ rest = kw_value_descriptions ++ 32 :: R)
+      assert (ER : exists R, print_def cr (SValues (Some vi) vn vvs) ++ rest = kw_value_descriptions ++ 32 :: R)
         by (cbn [print_def]; rewrite <- app_assoc; cbn [app]; eexists; reflexivity).
       destruct ER as (R & ER).
       destruct (HR kw_value_descriptions 32 R ER (ident_valid_shape kw_value_descriptions eq_refl)) as (ll & Ep); [unfold ascii; lia|reflexivity|fuel2 HF|].
       destruct (step_values (Some vi) vn vvs rest R line off ll Hw ER ltac:(lia)) as (st2 & E & HR2).
       eexists kw_value_descriptions, _, st2. split; [exact Ep|]. split; [apply peek_keyword_canon|]. split; [exact E|exact HR2].
     - (* VAL_ environment variable form *)
-      assert (ER : exists R, print_def (SValues None vn vvs) ++ rest = kw_value_descriptions ++ 32 :: R)
+      assert (ER : exists R, print_def cr (SValues None vn vvs) ++ rest = kw_value_descriptions ++ 32 :: R)
         by (cbn [print_def]; rewrite <- app_assoc; cbn [app]; eexists; reflexivity).
       destruct ER as (R & ER).
       destruct (HR kw_value_descriptions 32 R ER (ident_valid_shape kw_value_descriptions eq_refl)) as (ll & Ep); [unfold ascii; lia|reflexivity|fuel2 HF|].
       destruct (step_values None vn vvs rest R line off ll Hw ER ltac:(lia)) as (st2 & E & HR2).
       eexists kw_value_descriptions, _, st2. split; [exact Ep|]. split; [apply peek_keyword_canon|]. split; [exact E|exact HR2].
     - (* VAL_TABLE_ *)
-      assert (ER : exists R, print_def (SValueTable tn tvs) ++ rest = kw_value_table ++ 32 :: R)
+      assert (ER : exists R, print_def cr (SValueTable tn tvs) ++ rest = kw_value_table ++ 32 :: R)
         by (cbn [print_def]; rewrite <- app_assoc; cbn [app]; eexists; reflexivity).
       destruct ER as (R & ER).
       destruct (HR kw_value_table 32 R ER (ident_valid_shape kw_value_table eq_refl)) as (ll & Ep); [unfold ascii; lia|reflexivity|fuel2 HF|].
       destruct (step_value_table tn tvs rest R line off ll Hw ER ltac:(lia)) as (st2 & E & HR2).
       eexists kw_value_table, _, st2. split; [exact Ep|]. split; [apply peek_keyword_canon|]. split; [exact E|exact HR2].
     - (* SIG_VALTYPE_ *)
-      assert (ER : exists R, print_def (SSigValType svi svn svc svt) ++ rest = kw_signal_value_type ++ 32 :: R)
+      assert (ER : exists R, print_def cr (SSigValType svi svn svc svt) ++ rest = kw_signal_value_type ++ 32 :: R)
         by (cbn [print_def]; rewrite <- app_assoc; cbn [app]; eexists; reflexivity).
       destruct ER as (R & ER).
       destruct (HR kw_signal_value_type 32 R ER (ident_valid_shape kw_signal_value_type eq_refl)) as (ll & Ep); [unfold ascii; lia|reflexivity|fuel2 HF|].
       destruct (step_sig_valtype svi svn svc svt rest R line off ll Hw ER ltac:(lia)) as (st2 & E & HR2).
       eexists kw_signal_value_type, _, st2. split; [exact Ep|]. split; [apply peek_keyword_canon|]. split; [exact E|exact HR2].
     - (* BO_TX_BU_ *)
-      assert (ER : exists R, print_def (SMsgTx xi xtxs) ++ rest = kw_message_transmitters ++ 32 :: R)
+      assert (ER : exists R, print_def cr (SMsgTx xi xtxs) ++ rest = kw_message_transmitters ++ 32 :: R)
         by (cbn [print_def]; rewrite <- app_assoc; cbn [app]; eexists; reflexivity).
       destruct ER as (R & ER).
       destruct (HR kw_message_transmitters 32 R ER (ident_valid_shape kw_message_transmitters eq_refl)) as (ll & Ep); [unfold ascii; lia|reflexivity|fuel2 HF|].
       destruct (step_msgtx xi xtxs rest R line off ll Hw ER ltac:(lia)) as (st2 & E & HR2).
       eexists kw_message_transmitters, _, st2. split; [exact Ep|]. split; [apply peek_keyword_canon|]. split; [exact E|exact HR2].
     - (* EV_ *)
-      assert (ER : exists R, print_def (SEnvVar en et emn emx eu einit ei eacc enode enodes) ++ rest = kw_envvar ++ 32 :: R)
+      assert (ER : exists R, print_def cr (SEnvVar en et emn emx eu einit ei eacc enode enodes) ++ rest = kw_envvar ++ 32 :: R)
         by (cbn [print_def]; rewrite <- app_assoc; cbn [app]; eexists; reflexivity).
       destruct ER as (R & ER).
       destruct (HR kw_envvar 32 R ER (ident_valid_shape kw_envvar eq_refl)) as (ll & Ep); [unfold ascii; lia|reflexivity|fuel2 HF|].
       destruct (step_envvar en et emn emx eu einit ei eacc enode enodes rest R line off ll Hw ER ltac:(lia)) as (st2 & E & HR2).
       eexists kw_envvar, _, st2. split; [exact Ep|]. split; [apply peek_keyword_canon|]. split; [exact E|exact HR2].
     - (* ENVVAR_DATA_ *)
-      assert (ER : exists R, print_def (SEnvVarData dn dsz) ++ rest = kw_envvar_data ++ 32 :: R)
+      assert (ER : exists R, print_def cr (SEnvVarData dn dsz) ++ rest = kw_envvar_data ++ 32 :: R)
         by (cbn [print_def]; rewrite <- app_assoc; cbn [app]; eexists; reflexivity).
       destruct ER as (R & ER).
       destruct (HR kw_envvar_data 32 R ER (ident_valid_shape kw_envvar_data eq_refl)) as (ll & Ep); [unfold ascii; lia|reflexivity|fuel2 HF|].
       destruct (step_envvar_data dn dsz rest R line off ll Hw ER ltac:(lia)) as (st2 & E & HR2).
       eexists kw_envvar_data, _, st2. split; [exact Ep|]. split; [apply peek_keyword_canon|]. split; [exact E|exact HR2].
     - (* BA_DEF_ *)
-      assert (ER : exists R, print_def (SAttr ao an ab) ++ rest = kw_attribute ++ 32 :: R).
+      assert (ER : exists R, print_def cr (SAttr ao an ab) ++ rest = kw_attribute ++ 32 :: R).
       { cbn [print_def]. rewrite <- app_assoc. destruct ao; cbn [print_attr_obj app]; eexists; reflexivity. }
       destruct ER as (R & ER).
       destruct (HR kw_attribute 32 R ER (ident_valid_shape kw_attribute eq_refl)) as (ll & Ep); [unfold ascii; lia|reflexivity|fuel2 HF|].
       destruct (step_attr ao an ab rest R line off ll Hw ER ltac:(lia)) as (st2 & E & HR2).
       eexists kw_attribute, _, st2. split; [exact Ep|]. split; [apply peek_keyword_canon|]. split; [exact E|exact HR2].
     - (* BA_DEF_DEF_ *)
-      assert (ER : exists R, print_def (SAttrDefault dfn dfv) ++ rest = kw_attribute_default ++ 32 :: R)
+      assert (ER : exists R, print_def cr (SAttrDefault dfn dfv) ++ rest = kw_attribute_default ++ 32 :: R)
         by (cbn [print_def]; rewrite <- app_assoc; cbn [app]; eexists; reflexivity).
       destruct ER as (R & ER).
       destruct (HR kw_attribute_default 32 R ER (ident_valid_shape kw_attribute_default eq_refl)) as (ll & Ep); [unfold ascii; lia|reflexivity|fuel2 HF|].
       destruct (step_attr_default ctx defs dfn dfv rest R line off ll Hag Hwc ER ltac:(lia)) as (st2 & E & HR2).
       eexists kw_attribute_default, _, st2. split; [exact Ep|]. split; [apply peek_keyword_canon|]. split; [exact E|exact HR2].
     - (* BA_ *)
-      assert (ER : exists R, print_def (SAttrValue avn avo avv) ++ rest = kw_attribute_value ++ 32 :: R)
+      assert (ER : exists R, print_def cr (SAttrValue avn avo avv) ++ rest = kw_attribute_value ++ 32 :: R)
         by (cbn [print_def]; rewrite <- app_assoc; cbn [app]; eexists; reflexivity).
       destruct ER as (R & ER).
       destruct (HR kw_attribute_value 32 R ER (ident_valid_shape kw_attribute_value eq_refl)) as (ll & Ep); [unfold ascii; lia|reflexivity|fuel2 HF|].
       destruct (step_attr_value ctx defs avn avo avv rest R line off ll Hag Hwc ER ltac:(lia)) as (st2 & E & HR2).
       eexists kw_attribute_value, _, st2. split; [exact Ep|]. split; [apply peek_keyword_canon|]. split; [exact E|exact HR2].
     - (* NS_ *)
-      destruct (HR kw_new_symbols 32 (58 :: 10 :: ns_text nsy ++ rest)) as (ll & Ep);
-        [cbn [print_def]; rewrite <- app_assoc; reflexivity
+      destruct (HR kw_new_symbols 32 (58 :: cr ++ 10 :: ns_text cr nsy ++ rest)) as (ll & Ep);
+        [cbn [print_def]; unfold signals_text; repeat (rewrite <- app_assoc; cbn [app]); try rewrite Ec; reflexivity
         |exact (ident_valid_shape kw_new_symbols eq_refl)|unfold ascii; lia|reflexivity|fuel2 HF|].
       destruct (step_new_symbols nsy rest line off ll Hw Htop ltac:(lia)) as (st2 & E & HR2).
       eexists kw_new_symbols, _, st2. split; [exact Ep|]. split; [apply peek_keyword_canon|]. split; [exact E|exact HR2].
   Qed.
 
-  Lemma parse_loop_print : forall ds f defs ctx line off st,
-    ctx_agrees ctx defs -> wf_defs ctx ds -> (length ds < f)%nat -> (length (print ds) + 4 <= F)%nat ->
-    Ready line off (print ds) st ->
-    the_loop f defs st = Ok (defs ++ elab_from ctx line off ds).
+  Lemma parse_loop_items : forall its gend f defs ctx n line off st,
+    ctx_agrees ctx defs -> wf_items ctx its -> blank_block gend -> (length its < f)%nat ->
+    (n + length (print_items cr its ++ gend) + 4 <= F)%nat ->
+    Ready n line off (print_items cr its ++ gend) st ->
+    the_loop f defs st = Ok (defs ++ elab_items cr ctx line off its).
   Proof.
-    induction ds as [|d ds IH]; intros f defs ctx line off st Hag Hw Hf HF HR; (destruct f as [|f]; [cbn in Hf; lia|]).
-    - cbn [parse_loop_with print elab_from]. destruct HR as (H1 & _). destruct (H1 eq_refl) as (tok & st' & E & Ht).
+    induction its as [|[g d] its IH]; intros gend f defs ctx n line off st Hag Hw Hge Hf HF HR; (destruct f as [|f]; [cbn in Hf; lia|]).
+    - cbn [parse_loop_with print_items elab_items app] in *.
+      destruct (HR gend [] (eq_sym (app_nil_r gend)) Hge) as (H1 & _). destruct (H1 eq_refl ltac:(lia)) as (tok & st' & E & Ht).
       rewrite E, Ht. change (EOF =? EOF) with true. cbv iota. rewrite app_nil_r. reflexivity.
-    - destruct Hw as (Hd & Hw'). cbn [print] in *. rewrite app_length in HF.
-      assert (Htop : rest_top (print ds)) by (apply rest_top_print; [exact (wf_defs_Forall _ _ Hw')|lia]).
-      destruct (step_def d (print ds) defs ctx line off Hag Hd Htop ltac:(lia) st HR) as (kw & st1 & st2 & Ep & Ek & Ed & HR2).
+    - destruct Hw as (Hg & Hd & Hw'). cbn [print_items] in *. repeat rewrite <- app_assoc in *.
+      do 2 rewrite app_length in HF. pose proof (print_def_len_ge d (proj1 Hd)) as Hlen.
+      assert (Htop : rest_top (print_items cr its ++ gend)) by (apply (rest_top_items its gend _ Hw' Hge); lia).
+      pose proof (HR g (print_def cr d ++ print_items cr its ++ gend) eq_refl Hg) as HR0.
+      destruct (step_def d (print_items cr its ++ gend) defs ctx (n + length g) (line + nl_count g) (off + blen g) Hag Hd Htop ltac:(lia) st HR0)
+        as (kw & st1 & st2 & Ep & Ek & Ed & HR2).
       cbn [parse_loop_with]. rewrite Ep. cbn [t_typ kwtok]. change (TIdent =? EOF) with false. cbv iota.
-      unfold bind. rewrite Ek, Ed. cbn [elab_from].
-      rewrite (IH f (defs ++ [elab_def_ctx ctx line off d]) (ctx_step ctx d) (line + def_lines d) (off + blen (print_def d)) st2);
+      unfold bind. rewrite Ek, Ed. cbn [elab_items].
+      rewrite (IH gend f (defs ++ [elab_def_ctx cr ctx (line + nl_count g) (off + blen g) d]) (ctx_step ctx d) SL
+                 (line + nl_count g + def_lines d) (off + blen g + blen (print_def cr d)) st2);
         try assumption; [|apply ctx_agrees_step; assumption|cbn in Hf; lia|lia].
       rewrite <- app_assoc. reflexivity.
   Qed.
 
-  (** the initial parser state is at a definition boundary *)
-  Lemma ready_init : forall T, (1 <= F)%nat -> Ready 1 0 T (p_init T).
+  (** the initial parser state is at a definition boundary: its first Scan reads the first character,
+      which leaves the scanner in shape B *)
+  Lemma init_peek : forall c0 r', ascii c0 ->
+    peek_token (p_init (c0 :: r')) = peek_token (PS (shapeB 1 0 0 (c0 :: r')) None).
   Proof.
-    intros T HF. unfold p_init. fold (PS (sc_init T) None). split.
-    - intros ->. rewrite peek_token_scan. rewrite sc_scan_unfold. unfold sc_peek, sc_init. cbn [s_ch].
-      change (NOCHAR =? NOCHAR) with true. cbv iota.
-      fold (mkS [] [] 0 1 0 0 NOCHAR ws_default). rewrite next_eof. cbn [sbind].
-      change (EOF =? 65279) with false. cbv iota. cbn [sbind].
-      assert (He : is_ws ws_default EOF = false) by reflexivity.
-      change (set_ch (mkS [] [] 0 1 (if 0 <? blen [] then 0 + 1 else 0) 0 NOCHAR ws_default) EOF)
-        with (mkS [] [] 0 1 0 0 EOF ws_default).
-      destruct F as [|f]; cbn [skip_ws]; cbn [s_ws mkS]; rewrite He; cbn [sbind];
-        rewrite scan_body_eof; eexists; eexists; split; reflexivity.
-    - intros kw c r -> (c0 & t & -> & H0 & Ht) Hc Hnc Hf. exists 0. rewrite peek_token_scan.
-      destruct (id0_ge c0 H0) as (H33 & Ha0 & H10).
-      rewrite sc_scan_unfold. unfold sc_peek, sc_init. cbn [s_ch].
-      change (NOCHAR =? NOCHAR) with true. cbv iota. cbn [app].
-      fold (mkS (c0 :: t ++ c :: r) [] 0 1 0 0 NOCHAR ws_default). rewrite next_step by assumption. cbn [sbind].
-      assert (E1 : (c0 =? 65279) = false) by (apply Z.eqb_neq; unfold ascii in *; lia). rewrite E1.
-      cbn [sbind]. rewrite set_ch_stepS, stepS_plain by assumption.
-      assert (Hw : is_ws ws_default c0 = false) by (apply ws_printable; [left; reflexivity|assumption]).
-      destruct F as [|f] eqn:EF; [lia|]. cbn [skip_ws]. cbn [s_ws mkS]. rewrite Hw. cbn [sbind]. rewrite <- EF.
-      rewrite scan_body_ident; try assumption; try lia; [|cbn [length] in Hf; lia].
-      apply POk_canon_eq; [unfold kwtok; apply tok_eq; lia | apply stepS_eq; rewrite blen_cons; lia].
+    intros c0 r' Hc0. unfold p_init. fold (PS (sc_init (c0 :: r')) None). rewrite !peek_token_scan.
+    rewrite !sc_scan_unfold. unfold sc_peek, sc_init. cbn [s_ch shapeB].
+    change (NOCHAR =? NOCHAR) with true. cbv iota.
+    fold (mkS (c0 :: r') [] 0 1 0 0 NOCHAR ws_default). rewrite next_step by assumption. cbn [sbind].
+    assert (E1 : (c0 =? 65279) = false) by (apply Z.eqb_neq; unfold ascii in *; lia). rewrite E1. cbn [sbind].
+    rewrite set_ch_stepS.
+    assert (E2 : (s_ch (stepS c0 r' 0 1 0 0 c0 ws_default) =? NOCHAR) = false).
+    { unfold stepS. destruct (c0 =? 10); cbn [s_ch mkS]; apply Z.eqb_neq; unfold ascii, NOCHAR in *; lia. }
+    rewrite E2. cbn [sbind].
+    assert (E3 : s_ch (stepS c0 r' 0 1 0 0 c0 ws_default) = c0) by (unfold stepS; destruct (c0 =? 10); reflexivity).
+    rewrite E3. reflexivity.
+  Qed.
+
+  Lemma ready_init : forall T, head_ascii T -> (1 <= F)%nat -> Ready 0 1 0 T (p_init T).
+  Proof.
+    intros T Hh HF. destruct T as [|c0 r'].
+    - intros g rest E Hg. destruct g; [|discriminate E]. destruct rest; [|discriminate E].
+      cbn [nl_count length]. split.
+      + intros _ _. unfold p_init. fold (PS (sc_init []) None).
+        rewrite peek_token_scan. rewrite sc_scan_unfold. unfold sc_peek, sc_init. cbn [s_ch].
+        change (NOCHAR =? NOCHAR) with true. cbv iota.
+        fold (mkS [] [] 0 1 0 0 NOCHAR ws_default). rewrite next_eof. cbn [sbind].
+        change (EOF =? 65279) with false. cbv iota. cbn [sbind].
+        assert (He : is_ws ws_default EOF = false) by reflexivity.
+        change (set_ch (mkS [] [] 0 1 (if 0 <? blen [] then 0 + 1 else 0) 0 NOCHAR ws_default) EOF)
+          with (mkS [] [] 0 1 0 0 EOF ws_default).
+        destruct F as [|f]; cbn [skip_ws]; cbn [s_ws mkS]; rewrite He; cbn [sbind];
+          rewrite scan_body_eof; eexists; eexists; split; reflexivity.
+      + intros kw c r E'. destruct kw; discriminate E'.
+    - cbn in Hh. pose proof (init_peek c0 r' Hh) as Epk.
+      intros g rest E Hg. destruct (ready_B 0 (c0 :: r') 0 1 0 g rest E Hg) as (H1 & H2). split.
+      + intros Er Hf. rewrite Epk. apply H1; assumption.
+      + intros kw c r Er Hk Hc Hnc Hf. rewrite Epk. apply H2; assumption.
   Qed.
 End RT.
 
-Lemma length_print_ge : forall ds, (length ds <= length (print ds))%nat.
+Lemma print_def_nonempty : forall cr d, (1 <= length (print_def cr d))%nat.
 Proof.
-  induction ds as [|d ds IH]; cbn [print length]; [lia|].
-  rewrite app_length.
-  assert (1 <= length (print_def d))%nat.
-  { destruct d as [s|[[b [[b1 b2]|]]|]|ns|mi mn msz mtx sigs|kw ts|co ct|[vi|] vn vvs|tn tvs|svi svn svc svt|xi xtxs|en et emn emx eu einit ei eacc enode enodes|dn dsz|ao an ab|dfn dfv|avn avo avv|nsy];
-      cbn [print_def]; rewrite !app_length; cbn [length]; lia. }
-  lia.
+  intros cr d.
+  destruct d as [s|[[b [[b1 b2]|]]|]|ns|mi mn msz mtx sigs|kw ts|co ct|[vi|] vn vvs|tn tvs|svi svn svc svt|xi xtxs|en et emn emx eu einit ei eacc enode enodes|dn dsz|ao an ab|dfn dfv|avn avo avv|nsy];
+    cbn [print_def]; rewrite !app_length; cbn [length]; lia.
 Qed.
 
-(** C04, the proved part of the round trip *)
-Theorem parse_print_partial : forall il id ds, wf_file ds ->
-  parse_bytes il id (print ds) = Ok (elaborate ds).
+Lemma length_items_ge : forall cr its, (length its <= length (print_items cr its))%nat.
 Proof.
-  intros il id ds Hw. unfold parse_bytes, parse, elaborate.
-  pose proof (length_print_ge ds) as Hl.
-  rewrite (parse_loop_print il id (fuel_for (print ds)) ds (fuel_for (print ds)) [] [] 1 0 (p_init (print ds))).
+  intros cr its. induction its as [|[g d] its IH]; cbn [print_items length]; [lia|].
+  rewrite !app_length. pose proof (print_def_nonempty cr d). lia.
+Qed.
+
+(** C04, the proved part of the round trip: a well-formed file in the layout (line-end run [cr],
+    blank lines before every definition and at the end) parses to the definitions it denotes *)
+Theorem parse_print_layout : forall il id cr its gend, wf_lfile cr its gend ->
+  parse_bytes il id (print_file cr its gend) = Ok (elaborate_file cr its).
+Proof.
+  intros il id cr its gend (Hcr & Hw & Hge). unfold parse_bytes, parse, elaborate_file, print_file.
+  pose proof (length_items_ge cr its) as Hl.
+  rewrite (parse_loop_items il id (fuel_for (print_items cr its ++ gend)) cr Hcr its gend
+             (fuel_for (print_items cr its ++ gend)) [] [] 0 1 0 (p_init (print_items cr its ++ gend))).
   - reflexivity.
   - intros n. reflexivity.
   - exact Hw.
+  - exact Hge.
+  - unfold fuel_for. rewrite app_length. lia.
   - unfold fuel_for. lia.
-  - unfold fuel_for. lia.
-  - apply ready_init. unfold fuel_for. lia.
+  - apply ready_init; [eapply head_ascii_items; eassumption|unfold fuel_for; lia].
+Qed.
+
+(** the plain layout: no blank lines *)
+Lemma print_plain : forall cr ds, print_items cr (plain ds) = print cr ds.
+Proof. intros cr ds. induction ds as [|d ds IH]; cbn [plain map print_items print app]; [reflexivity|]. fold (plain ds). rewrite IH. reflexivity. Qed.
+
+Lemma elab_plain : forall cr ds ctx line off, elab_items cr ctx line off (plain ds) = elab_from cr ctx line off ds.
+Proof.
+  intros cr ds. induction ds as [|d ds IH]; intros ctx line off; cbn [plain map elab_items elab_from]; [reflexivity|].
+  fold (plain ds). cbn [nl_count]. rewrite blen_nil, !Z.add_0_r, IH. reflexivity.
+Qed.
+
+Lemma blank_block_nil : blank_block [].
+Proof. split; [constructor|left; reflexivity]. Qed.
+
+Lemma wf_plain : forall ds ctx, wf_defs ctx ds -> wf_items ctx (plain ds).
+Proof.
+  induction ds as [|d ds IH]; intros ctx H; [exact I|]. destruct H as (Hd & H). cbn [plain map wf_items]. fold (plain ds).
+  split; [exact blank_block_nil|]. split; [exact Hd|apply IH; exact H].
+Qed.
+
+Theorem parse_print_partial : forall il id cr ds, cr_ok cr -> wf_file ds ->
+  parse_bytes il id (print cr ds) = Ok (elaborate cr ds).
+Proof.
+  intros il id cr ds Hcr Hw. pose proof (parse_print_layout il id cr (plain ds) []) as H.
+  unfold print_file, elaborate_file in H. rewrite app_nil_r, print_plain, elab_plain in H. apply H.
+  split; [exact Hcr|]. split; [apply wf_plain; exact Hw|exact blank_block_nil].
 Qed.
 
 (** files without BA_DEF_DEF_ / BA_ : well-formedness is definition-wise *)
@@ -3451,12 +3949,12 @@ Qed.
 
 (** an unknown line yields exactly one UnknownDef and the following lines are parsed as if it were
     not there (their line numbers and offsets shifted by the one line) *)
-Corollary unknown_one : forall il id kw ts ds, wf_sdef (SUnknown kw ts) -> wf_file ds ->
-  parse_bytes il id (print (SUnknown kw ts :: ds))
+Corollary unknown_one : forall il id cr kw ts ds, cr_ok cr -> wf_sdef (SUnknown kw ts) -> wf_file ds ->
+  parse_bytes il id (print cr (SUnknown kw ts :: ds))
   = Ok (DUnknown {| p_line := 1; p_column := 1; p_offset := 0 |} kw
-        :: elab_from [] 2 (blen (print_def (SUnknown kw ts))) ds).
+        :: elab_from cr [] 2 (blen (print_def cr (SUnknown kw ts))) ds).
 Proof.
-  intros il id kw ts ds Hu Hw. rewrite parse_print_partial; [reflexivity|]. split; [split; [exact Hu|exact I]|exact Hw].
+  intros il id cr kw ts ds Hcr Hu Hw. rewrite parse_print_partial; [reflexivity|exact Hcr|]. split; [split; [exact Hu|exact I]|exact Hw].
 Qed.
 
 (** a boolean check of number literals (used for the concrete samples) *)
@@ -3631,4 +4129,22 @@ Proof.
     try (apply str_okb_ok; reflexivity); try (repeat (apply Forall_cons || apply Forall_nil); apply str_okb_ok; reflexivity);
     try (apply Hd; [reflexivity | repeat constructor | right; reflexivity]);
     try (vm_compute; reflexivity).
+Qed.
+
+(** a laid-out file: CRLF line ends, a CRLF blank line before every definition, and a final line of
+    one space (the attribute sample, so the attribute context is threaded through the blank lines) *)
+Lemma wf_with_blank : forall g ds ctx, blank_block g -> wf_defs ctx ds -> wf_items ctx (map (fun d => (g, d)) ds).
+Proof.
+  intros g ds. induction ds as [|d ds IH]; intros ctx Hg H; [exact I|]. destruct H as (Hd & H). cbn [map wf_items].
+  split; [exact Hg|]. split; [exact Hd|apply IH; assumption].
+Qed.
+
+Definition sample_layout : list item := map (fun d => ([13; 10], d)) sample3_ds.
+
+Lemma sample_layout_wf : wf_lfile [13] sample_layout [32; 13; 10].
+Proof.
+  split; [repeat (apply Forall_cons; [lia|]); apply Forall_nil|]. split.
+  - apply wf_with_blank; [|exact sample3_ds_wf_file].
+    split; [repeat (apply Forall_cons; [unfold blank_char; lia|]); apply Forall_nil|right; exists [13]; reflexivity].
+  - split; [repeat (apply Forall_cons; [unfold blank_char; lia|]); apply Forall_nil|right; exists [32; 13]; reflexivity].
 Qed.
